@@ -23,2304 +23,928 @@
 /* VERIF-UNIT
 {
  "name": "rb_test_bit_b4",
- "props": [
-  "C16"
- ],
+ "props": ["C16"],
  "level": "B(4)",
  "tier": "quick",
  "harness": "h_rb_test",
- "defines": [
-  "EXT2_CUSTOM_MEMORY_ROUTINES",
-  "RB_N=4",
-  "RB_NSYM",
-  "RB_NEW=0",
-  "RB_BITS=62"
- ],
+ "defines": ["EXT2_CUSTOM_MEMORY_ROUTINES", "RB_N=4", "RB_NSYM", "RB_NEW=0", "RB_BITS=62"],
  "unwind": 9,
  "unwind_reason": "BOUNDED: a tree of at most 4 nodes has height <= 3, so every descent / successor / predecessor loop of blkmap64_rb.c and rbtree.c runs at most that often (+1 for the exit test), the neighbour loops at most once per node; rebalancing loops climb at most one level per round; harness loops have constant bounds <= 8 (global unwind 9). Every bound is confirmed by an unwinding assertion.",
- "sources": [
-  "lib/ext2fs/rbtree.c"
- ],
- "functions": [
-  "lib/ext2fs/blkmap64_rb.c:rb_test_bmap",
-  "lib/ext2fs/blkmap64_rb.c:rb_test_bit"
- ],
- "assumes": [
-  "BOUNDED stand-in, not counted as proved: the tree has 0..4 extents (sorted, disjoint, non-adjacent, count > 0) in every red-black shape of that size; wcursor/rcursor NULL or any node, rcursor_next NULL or the successor of rcursor (any node if rcursor is NULL)",
-  "allocation does not fail: ext2fs.h is compiled with its own hook EXT2_CUSTOM_MEMORY_ROUTINES and ext2fs_get_mem/ext2fs_free_mem are the trivial malloc/free stubs of rb_common.h (typed pointer store instead of memcpy); malloc is __CPROVER_allocate, i.e. never NULL (rb_get_new_extent abort()s on failure anyway)",
-  "bitmap->real_end - bitmap->start < 2^62",
-  "argument inside [start, real_end] (guaranteed by the generic layer)"
- ],
+ "sources": ["lib/ext2fs/rbtree.c"],
+ "functions": ["lib/ext2fs/blkmap64_rb.c:rb_test_bmap", "lib/ext2fs/blkmap64_rb.c:rb_test_bit"],
+ "assumes": ["BOUNDED stand-in, not counted as proved: the tree has 0..4 extents (sorted, disjoint, non-adjacent, count > 0) in every red-black shape of that size; wcursor/rcursor NULL or any node, rcursor_next NULL or the successor of rcursor (any node if rcursor is NULL)", "allocation does not fail: ext2fs.h is compiled with its own hook EXT2_CUSTOM_MEMORY_ROUTINES and ext2fs_get_mem/ext2fs_free_mem are the trivial malloc/free stubs of rb_common.h (typed pointer store instead of memcpy); malloc is __CPROVER_allocate, i.e. never NULL (rb_get_new_extent abort()s on failure anyway)", "bitmap->real_end - bitmap->start < 2^62", "argument inside [start, real_end] (guaranteed by the generic layer)"],
  "backend": "minisat",
  "no_cross_check": true,
  "native": true,
- "cbmc_flags": [
-  "--object-bits",
-  "10"
- ],
- "unwindset": {
-  "ext2fs_rb_next.0": 4,
-  "ext2fs_rb_next.1": 4,
-  "rb_test_bit.0": 4
- },
+ "cbmc_flags": ["--object-bits", "10"],
+ "unwindset": {"ext2fs_rb_next.0": 4, "ext2fs_rb_next.1": 4, "rb_test_bit.0": 4},
  "timeout": 300
 }
 */
 /* VERIF-UNIT
 {
  "name": "rb_test_clear_extent_b4",
- "props": [
-  "C16"
- ],
+ "props": ["C16"],
  "level": "B(4)",
  "tier": "quick",
  "harness": "h_rb_test_clear",
- "defines": [
-  "EXT2_CUSTOM_MEMORY_ROUTINES",
-  "RB_N=4",
-  "RB_NSYM",
-  "RB_NEW=0",
-  "RB_BITS=62"
- ],
+ "defines": ["EXT2_CUSTOM_MEMORY_ROUTINES", "RB_N=4", "RB_NSYM", "RB_NEW=0", "RB_BITS=62"],
  "unwind": 9,
  "unwind_reason": "BOUNDED: a tree of at most 4 nodes has height <= 3, so every descent / successor / predecessor loop of blkmap64_rb.c and rbtree.c runs at most that often (+1 for the exit test), the neighbour loops at most once per node; rebalancing loops climb at most one level per round; harness loops have constant bounds <= 8 (global unwind 9). Every bound is confirmed by an unwinding assertion.",
- "sources": [
-  "lib/ext2fs/rbtree.c"
- ],
- "functions": [
-  "lib/ext2fs/blkmap64_rb.c:rb_test_clear_bmap_extent"
- ],
- "assumes": [
-  "BOUNDED stand-in, not counted as proved: the tree has 0..4 extents (sorted, disjoint, non-adjacent, count > 0) in every red-black shape of that size; wcursor/rcursor NULL or any node, rcursor_next NULL or the successor of rcursor (any node if rcursor is NULL)",
-  "allocation does not fail: ext2fs.h is compiled with its own hook EXT2_CUSTOM_MEMORY_ROUTINES and ext2fs_get_mem/ext2fs_free_mem are the trivial malloc/free stubs of rb_common.h (typed pointer store instead of memcpy); malloc is __CPROVER_allocate, i.e. never NULL (rb_get_new_extent abort()s on failure anyway)",
-  "bitmap->real_end - bitmap->start < 2^62",
-  "range inside [start, real_end], len >= 1 (generic layer)"
- ],
+ "sources": ["lib/ext2fs/rbtree.c"],
+ "functions": ["lib/ext2fs/blkmap64_rb.c:rb_test_clear_bmap_extent"],
+ "assumes": ["BOUNDED stand-in, not counted as proved: the tree has 0..4 extents (sorted, disjoint, non-adjacent, count > 0) in every red-black shape of that size; wcursor/rcursor NULL or any node, rcursor_next NULL or the successor of rcursor (any node if rcursor is NULL)", "allocation does not fail: ext2fs.h is compiled with its own hook EXT2_CUSTOM_MEMORY_ROUTINES and ext2fs_get_mem/ext2fs_free_mem are the trivial malloc/free stubs of rb_common.h (typed pointer store instead of memcpy); malloc is __CPROVER_allocate, i.e. never NULL (rb_get_new_extent abort()s on failure anyway)", "bitmap->real_end - bitmap->start < 2^62", "range inside [start, real_end], len >= 1 (generic layer)"],
  "backend": "minisat",
  "no_cross_check": true,
  "native": true,
- "cbmc_flags": [
-  "--object-bits",
-  "10"
- ],
- "unwindset": {
-  "ext2fs_rb_next.0": 4,
-  "ext2fs_rb_next.1": 4,
-  "rb_test_clear_bmap_extent.0": 4,
-  "rb_test_clear_bmap_extent.1": 5
- },
+ "cbmc_flags": ["--object-bits", "10"],
+ "unwindset": {"ext2fs_rb_next.0": 4, "ext2fs_rb_next.1": 4, "rb_test_clear_bmap_extent.0": 4, "rb_test_clear_bmap_extent.1": 5},
  "timeout": 300
 }
 */
 /* VERIF-UNIT
 {
  "name": "rb_find_first_zero_b3",
- "props": [
-  "C16"
- ],
+ "props": ["C16"],
  "level": "B(3)",
  "tier": "quick",
  "harness": "h_rb_ffz",
- "defines": [
-  "EXT2_CUSTOM_MEMORY_ROUTINES",
-  "RB_N=3",
-  "RB_NSYM",
-  "RB_NEW=0",
-  "RB_BITS=62"
- ],
+ "defines": ["EXT2_CUSTOM_MEMORY_ROUTINES", "RB_N=3", "RB_NSYM", "RB_NEW=0", "RB_BITS=62"],
  "unwind": 9,
  "unwind_reason": "BOUNDED: a tree of at most 3 nodes has height <= 2, so every descent / successor / predecessor loop of blkmap64_rb.c and rbtree.c runs at most that often (+1 for the exit test), the neighbour loops at most once per node; rebalancing loops climb at most one level per round; harness loops have constant bounds <= 8 (global unwind 9). Every bound is confirmed by an unwinding assertion.",
- "sources": [
-  "lib/ext2fs/rbtree.c"
- ],
- "functions": [
-  "lib/ext2fs/blkmap64_rb.c:rb_find_first_zero"
- ],
- "assumes": [
-  "BOUNDED stand-in, not counted as proved: the tree has 0..3 extents (sorted, disjoint, non-adjacent, count > 0) in every red-black shape of that size; wcursor/rcursor NULL or any node, rcursor_next NULL or the successor of rcursor (any node if rcursor is NULL)",
-  "allocation does not fail: ext2fs.h is compiled with its own hook EXT2_CUSTOM_MEMORY_ROUTINES and ext2fs_get_mem/ext2fs_free_mem are the trivial malloc/free stubs of rb_common.h (typed pointer store instead of memcpy); malloc is __CPROVER_allocate, i.e. never NULL (rb_get_new_extent abort()s on failure anyway)",
-  "bitmap->real_end - bitmap->start < 2^62",
-  "bitmap start <= start <= end <= bitmap end (checked by the generic layer)"
- ],
+ "sources": ["lib/ext2fs/rbtree.c"],
+ "functions": ["lib/ext2fs/blkmap64_rb.c:rb_find_first_zero"],
+ "assumes": ["BOUNDED stand-in, not counted as proved: the tree has 0..3 extents (sorted, disjoint, non-adjacent, count > 0) in every red-black shape of that size; wcursor/rcursor NULL or any node, rcursor_next NULL or the successor of rcursor (any node if rcursor is NULL)", "allocation does not fail: ext2fs.h is compiled with its own hook EXT2_CUSTOM_MEMORY_ROUTINES and ext2fs_get_mem/ext2fs_free_mem are the trivial malloc/free stubs of rb_common.h (typed pointer store instead of memcpy); malloc is __CPROVER_allocate, i.e. never NULL (rb_get_new_extent abort()s on failure anyway)", "bitmap->real_end - bitmap->start < 2^62", "bitmap start <= start <= end <= bitmap end (checked by the generic layer)"],
  "backend": "minisat",
  "no_cross_check": true,
  "native": true,
- "cbmc_flags": [
-  "--object-bits",
-  "10"
- ],
- "unwindset": {
-  "rb_find_first_zero.0": 3
- },
+ "cbmc_flags": ["--object-bits", "10"],
+ "unwindset": {"rb_find_first_zero.0": 3},
  "timeout": 300
 }
 */
 /* VERIF-UNIT
 {
  "name": "rb_find_first_zero_b4",
- "props": [
-  "C16"
- ],
+ "props": ["C16"],
  "level": "B(4)",
  "tier": "thorough",
  "harness": "h_rb_ffz",
- "defines": [
-  "EXT2_CUSTOM_MEMORY_ROUTINES",
-  "RB_N=4",
-  "RB_NSYM",
-  "RB_NEW=0",
-  "RB_BITS=62"
- ],
+ "defines": ["EXT2_CUSTOM_MEMORY_ROUTINES", "RB_N=4", "RB_NSYM", "RB_NEW=0", "RB_BITS=62"],
  "unwind": 9,
  "unwind_reason": "BOUNDED: a tree of at most 4 nodes has height <= 3, so every descent / successor / predecessor loop of blkmap64_rb.c and rbtree.c runs at most that often (+1 for the exit test), the neighbour loops at most once per node; rebalancing loops climb at most one level per round; harness loops have constant bounds <= 8 (global unwind 9). Every bound is confirmed by an unwinding assertion.",
- "sources": [
-  "lib/ext2fs/rbtree.c"
- ],
- "functions": [
-  "lib/ext2fs/blkmap64_rb.c:rb_find_first_zero"
- ],
- "assumes": [
-  "BOUNDED stand-in, not counted as proved: the tree has 0..4 extents (sorted, disjoint, non-adjacent, count > 0) in every red-black shape of that size; wcursor/rcursor NULL or any node, rcursor_next NULL or the successor of rcursor (any node if rcursor is NULL)",
-  "allocation does not fail: ext2fs.h is compiled with its own hook EXT2_CUSTOM_MEMORY_ROUTINES and ext2fs_get_mem/ext2fs_free_mem are the trivial malloc/free stubs of rb_common.h (typed pointer store instead of memcpy); malloc is __CPROVER_allocate, i.e. never NULL (rb_get_new_extent abort()s on failure anyway)",
-  "bitmap->real_end - bitmap->start < 2^62",
-  "bitmap start <= start <= end <= bitmap end (checked by the generic layer)"
- ],
+ "sources": ["lib/ext2fs/rbtree.c"],
+ "functions": ["lib/ext2fs/blkmap64_rb.c:rb_find_first_zero"],
+ "assumes": ["BOUNDED stand-in, not counted as proved: the tree has 0..4 extents (sorted, disjoint, non-adjacent, count > 0) in every red-black shape of that size; wcursor/rcursor NULL or any node, rcursor_next NULL or the successor of rcursor (any node if rcursor is NULL)", "allocation does not fail: ext2fs.h is compiled with its own hook EXT2_CUSTOM_MEMORY_ROUTINES and ext2fs_get_mem/ext2fs_free_mem are the trivial malloc/free stubs of rb_common.h (typed pointer store instead of memcpy); malloc is __CPROVER_allocate, i.e. never NULL (rb_get_new_extent abort()s on failure anyway)", "bitmap->real_end - bitmap->start < 2^62", "bitmap start <= start <= end <= bitmap end (checked by the generic layer)"],
  "backend": "minisat",
  "no_cross_check": true,
  "native": true,
- "cbmc_flags": [
-  "--object-bits",
-  "10"
- ],
- "unwindset": {
-  "rb_find_first_zero.0": 4
- },
+ "cbmc_flags": ["--object-bits", "10"],
+ "unwindset": {"rb_find_first_zero.0": 4},
  "timeout": 1200
 }
 */
 /* VERIF-UNIT
 {
  "name": "rb_find_first_set_b4",
- "props": [
-  "C16"
- ],
+ "props": ["C16"],
  "level": "B(4)",
  "tier": "quick",
  "harness": "h_rb_ffs",
- "defines": [
-  "EXT2_CUSTOM_MEMORY_ROUTINES",
-  "RB_N=4",
-  "RB_NSYM",
-  "RB_NEW=0",
-  "RB_BITS=62"
- ],
+ "defines": ["EXT2_CUSTOM_MEMORY_ROUTINES", "RB_N=4", "RB_NSYM", "RB_NEW=0", "RB_BITS=62"],
  "unwind": 9,
  "unwind_reason": "BOUNDED: a tree of at most 4 nodes has height <= 3, so every descent / successor / predecessor loop of blkmap64_rb.c and rbtree.c runs at most that often (+1 for the exit test), the neighbour loops at most once per node; rebalancing loops climb at most one level per round; harness loops have constant bounds <= 8 (global unwind 9). Every bound is confirmed by an unwinding assertion.",
- "sources": [
-  "lib/ext2fs/rbtree.c"
- ],
- "functions": [
-  "lib/ext2fs/blkmap64_rb.c:rb_find_first_set"
- ],
- "assumes": [
-  "BOUNDED stand-in, not counted as proved: the tree has 0..4 extents (sorted, disjoint, non-adjacent, count > 0) in every red-black shape of that size; wcursor/rcursor NULL or any node, rcursor_next NULL or the successor of rcursor (any node if rcursor is NULL)",
-  "allocation does not fail: ext2fs.h is compiled with its own hook EXT2_CUSTOM_MEMORY_ROUTINES and ext2fs_get_mem/ext2fs_free_mem are the trivial malloc/free stubs of rb_common.h (typed pointer store instead of memcpy); malloc is __CPROVER_allocate, i.e. never NULL (rb_get_new_extent abort()s on failure anyway)",
-  "bitmap->real_end - bitmap->start < 2^62",
-  "bitmap start <= start <= end <= bitmap end (checked by the generic layer)"
- ],
+ "sources": ["lib/ext2fs/rbtree.c"],
+ "functions": ["lib/ext2fs/blkmap64_rb.c:rb_find_first_set"],
+ "assumes": ["BOUNDED stand-in, not counted as proved: the tree has 0..4 extents (sorted, disjoint, non-adjacent, count > 0) in every red-black shape of that size; wcursor/rcursor NULL or any node, rcursor_next NULL or the successor of rcursor (any node if rcursor is NULL)", "allocation does not fail: ext2fs.h is compiled with its own hook EXT2_CUSTOM_MEMORY_ROUTINES and ext2fs_get_mem/ext2fs_free_mem are the trivial malloc/free stubs of rb_common.h (typed pointer store instead of memcpy); malloc is __CPROVER_allocate, i.e. never NULL (rb_get_new_extent abort()s on failure anyway)", "bitmap->real_end - bitmap->start < 2^62", "bitmap start <= start <= end <= bitmap end (checked by the generic layer)"],
  "backend": "minisat",
  "no_cross_check": true,
  "native": true,
- "cbmc_flags": [
-  "--object-bits",
-  "10"
- ],
- "unwindset": {
-  "ext2fs_rb_next.0": 4,
-  "ext2fs_rb_next.1": 4,
-  "rb_find_first_set.0": 4
- },
+ "cbmc_flags": ["--object-bits", "10"],
+ "unwindset": {"ext2fs_rb_next.0": 4, "ext2fs_rb_next.1": 4, "rb_find_first_set.0": 4},
  "timeout": 300
 }
 */
 /* VERIF-UNIT
 {
  "name": "rb_get_bmap_range_b1",
- "props": [
-  "C16"
- ],
+ "props": ["C16"],
  "level": "B(1)",
  "tier": "thorough",
  "harness": "h_rb_get_range",
- "defines": [
-  "EXT2_CUSTOM_MEMORY_ROUTINES",
-  "RB_N=1",
-  "RB_NSYM",
-  "RB_NEW=0",
-  "RB_BITS=62",
-  "RB_RANGE_BITS=17"
- ],
+ "defines": ["EXT2_CUSTOM_MEMORY_ROUTINES", "RB_N=1", "RB_NSYM", "RB_NEW=0", "RB_BITS=62", "RB_RANGE_BITS=17"],
  "unwind": 6,
  "unwind_reason": "BOUNDED: a tree of at most 1 nodes has height <= 1, so every descent / successor / predecessor loop of blkmap64_rb.c and rbtree.c runs at most that often (+1 for the exit test), the neighbour loops at most once per node; rebalancing loops climb at most one level per round; harness loops have constant bounds <= 8 (global unwind 9). Every bound is confirmed by an unwinding assertion.",
- "sources": [
-  "lib/ext2fs/rbtree.c",
-  "lib/ext2fs/bitops.c"
- ],
- "functions": [
-  "lib/ext2fs/blkmap64_rb.c:rb_get_bmap_range"
- ],
- "assumes": [
-  "BOUNDED stand-in, not counted as proved: the tree has 0..1 extents (sorted, disjoint, non-adjacent, count > 0) in every red-black shape of that size; wcursor/rcursor NULL or any node, rcursor_next NULL or the successor of rcursor (any node if rcursor is NULL)",
-  "allocation does not fail: ext2fs.h is compiled with its own hook EXT2_CUSTOM_MEMORY_ROUTINES and ext2fs_get_mem/ext2fs_free_mem are the trivial malloc/free stubs of rb_common.h (typed pointer store instead of memcpy); malloc is __CPROVER_allocate, i.e. never NULL (rb_get_new_extent abort()s on failure anyway)",
-  "bitmap->real_end - bitmap->start < 2^62",
-  "BOUNDED: 1 <= num <= 17 (three-byte output buffer with arbitrary previous content; the bit/byte loop runs at most 14 times per extent: 7 single bits up to a byte boundary and 7 behind it, or 7 + one memset + 1)",
-  "range inside [start, real_end]"
- ],
+ "sources": ["lib/ext2fs/rbtree.c", "lib/ext2fs/bitops.c"],
+ "functions": ["lib/ext2fs/blkmap64_rb.c:rb_get_bmap_range"],
+ "assumes": ["BOUNDED stand-in, not counted as proved: the tree has 0..1 extents (sorted, disjoint, non-adjacent, count > 0) in every red-black shape of that size; wcursor/rcursor NULL or any node, rcursor_next NULL or the successor of rcursor (any node if rcursor is NULL)", "allocation does not fail: ext2fs.h is compiled with its own hook EXT2_CUSTOM_MEMORY_ROUTINES and ext2fs_get_mem/ext2fs_free_mem are the trivial malloc/free stubs of rb_common.h (typed pointer store instead of memcpy); malloc is __CPROVER_allocate, i.e. never NULL (rb_get_new_extent abort()s on failure anyway)", "bitmap->real_end - bitmap->start < 2^62", "BOUNDED: 1 <= num <= 17 (three-byte output buffer with arbitrary previous content; the bit/byte loop runs at most 14 times per extent: 7 single bits up to a byte boundary and 7 behind it, or 7 + one memset + 1)", "range inside [start, real_end]"],
  "backend": "minisat",
  "no_cross_check": true,
  "native": true,
- "cbmc_flags": [
-  "--object-bits",
-  "10"
- ],
- "unwindset": {
-  "ext2fs_rb_next.0": 2,
-  "ext2fs_rb_next.1": 2,
-  "rb_get_bmap_range.0": 2,
-  "rb_get_bmap_range.1": 15,
-  "rb_get_bmap_range.2": 3
- },
+ "cbmc_flags": ["--object-bits", "10"],
+ "unwindset": {"ext2fs_rb_next.0": 2, "ext2fs_rb_next.1": 2, "rb_get_bmap_range.0": 2, "rb_get_bmap_range.1": 15, "rb_get_bmap_range.2": 3},
  "timeout": 1200
 }
 */
 /* VERIF-UNIT
 {
  "name": "rb_get_bmap_range_b0",
- "props": [
-  "C16"
- ],
+ "props": ["C16"],
  "level": "B(0)",
  "tier": "quick",
  "harness": "h_rb_get_range",
- "defines": [
-  "EXT2_CUSTOM_MEMORY_ROUTINES",
-  "RB_N=0",
-  "RB_NEW=0",
-  "RB_BITS=62",
-  "RB_RANGE_BITS=17"
- ],
+ "defines": ["EXT2_CUSTOM_MEMORY_ROUTINES", "RB_N=0", "RB_NEW=0", "RB_BITS=62", "RB_RANGE_BITS=17"],
  "unwind": 6,
  "unwind_reason": "BOUNDED: a tree of at most 0 nodes has height <= 0, so every descent / successor / predecessor loop of blkmap64_rb.c and rbtree.c runs at most that often (+1 for the exit test), the neighbour loops at most once per node; rebalancing loops climb at most one level per round; harness loops have constant bounds <= 8 (global unwind 9). Every bound is confirmed by an unwinding assertion.",
- "sources": [
-  "lib/ext2fs/rbtree.c",
-  "lib/ext2fs/bitops.c"
- ],
- "functions": [
-  "lib/ext2fs/blkmap64_rb.c:rb_get_bmap_range"
- ],
- "assumes": [
-  "BOUNDED stand-in, not counted as proved: the tree has exactly 0 extents (sorted, disjoint, non-adjacent, count > 0) in every red-black shape of that size; wcursor/rcursor NULL or any node, rcursor_next NULL or the successor of rcursor (any node if rcursor is NULL)",
-  "allocation does not fail: ext2fs.h is compiled with its own hook EXT2_CUSTOM_MEMORY_ROUTINES and ext2fs_get_mem/ext2fs_free_mem are the trivial malloc/free stubs of rb_common.h (typed pointer store instead of memcpy); malloc is __CPROVER_allocate, i.e. never NULL (rb_get_new_extent abort()s on failure anyway)",
-  "bitmap->real_end - bitmap->start < 2^62",
-  "BOUNDED: 1 <= num <= 17 (output buffer of 3 bytes with arbitrary previous content)",
-  "range inside [start, real_end]"
- ],
+ "sources": ["lib/ext2fs/rbtree.c", "lib/ext2fs/bitops.c"],
+ "functions": ["lib/ext2fs/blkmap64_rb.c:rb_get_bmap_range"],
+ "assumes": ["BOUNDED stand-in, not counted as proved: the tree has exactly 0 extents (sorted, disjoint, non-adjacent, count > 0) in every red-black shape of that size; wcursor/rcursor NULL or any node, rcursor_next NULL or the successor of rcursor (any node if rcursor is NULL)", "allocation does not fail: ext2fs.h is compiled with its own hook EXT2_CUSTOM_MEMORY_ROUTINES and ext2fs_get_mem/ext2fs_free_mem are the trivial malloc/free stubs of rb_common.h (typed pointer store instead of memcpy); malloc is __CPROVER_allocate, i.e. never NULL (rb_get_new_extent abort()s on failure anyway)", "bitmap->real_end - bitmap->start < 2^62", "BOUNDED: 1 <= num <= 17 (output buffer of 3 bytes with arbitrary previous content)", "range inside [start, real_end]"],
  "backend": "minisat",
  "no_cross_check": true,
  "native": true,
- "cbmc_flags": [
-  "--object-bits",
-  "10"
- ],
- "unwindset": {
-  "ext2fs_rb_next.0": 1,
-  "ext2fs_rb_next.1": 1,
-  "rb_get_bmap_range.0": 1,
-  "rb_get_bmap_range.1": 15,
-  "rb_get_bmap_range.2": 2
- },
+ "cbmc_flags": ["--object-bits", "10"],
+ "unwindset": {"ext2fs_rb_next.0": 1, "ext2fs_rb_next.1": 1, "rb_get_bmap_range.0": 1, "rb_get_bmap_range.1": 15, "rb_get_bmap_range.2": 2},
  "timeout": 300
 }
 */
 /* VERIF-UNIT
 {
  "name": "rb_get_bmap_range_b1_9bit",
- "props": [
-  "C16"
- ],
+ "props": ["C16"],
  "level": "B(1)",
  "tier": "thorough",
  "harness": "h_rb_get_range",
- "defines": [
-  "EXT2_CUSTOM_MEMORY_ROUTINES",
-  "RB_N=1",
-  "RB_NSYM",
-  "RB_NEW=0",
-  "RB_BITS=62",
-  "RB_RANGE_BITS=9"
- ],
+ "defines": ["EXT2_CUSTOM_MEMORY_ROUTINES", "RB_N=1", "RB_NSYM", "RB_NEW=0", "RB_BITS=62", "RB_RANGE_BITS=9"],
  "unwind": 6,
  "unwind_reason": "BOUNDED: a tree of at most 1 nodes has height <= 1, so every descent / successor / predecessor loop of blkmap64_rb.c and rbtree.c runs at most that often (+1 for the exit test), the neighbour loops at most once per node; rebalancing loops climb at most one level per round; harness loops have constant bounds <= 8 (global unwind 9). Every bound is confirmed by an unwinding assertion.",
- "sources": [
-  "lib/ext2fs/rbtree.c",
-  "lib/ext2fs/bitops.c"
- ],
- "functions": [
-  "lib/ext2fs/blkmap64_rb.c:rb_get_bmap_range"
- ],
- "assumes": [
-  "BOUNDED stand-in, not counted as proved: the tree has 0..1 extents (sorted, disjoint, non-adjacent, count > 0) in every red-black shape of that size; wcursor/rcursor NULL or any node, rcursor_next NULL or the successor of rcursor (any node if rcursor is NULL)",
-  "allocation does not fail: ext2fs.h is compiled with its own hook EXT2_CUSTOM_MEMORY_ROUTINES and ext2fs_get_mem/ext2fs_free_mem are the trivial malloc/free stubs of rb_common.h (typed pointer store instead of memcpy); malloc is __CPROVER_allocate, i.e. never NULL (rb_get_new_extent abort()s on failure anyway)",
-  "bitmap->real_end - bitmap->start < 2^62",
-  "BOUNDED: 1 <= num <= 9 (output buffer of 2 bytes with arbitrary previous content)",
-  "range inside [start, real_end]"
- ],
+ "sources": ["lib/ext2fs/rbtree.c", "lib/ext2fs/bitops.c"],
+ "functions": ["lib/ext2fs/blkmap64_rb.c:rb_get_bmap_range"],
+ "assumes": ["BOUNDED stand-in, not counted as proved: the tree has 0..1 extents (sorted, disjoint, non-adjacent, count > 0) in every red-black shape of that size; wcursor/rcursor NULL or any node, rcursor_next NULL or the successor of rcursor (any node if rcursor is NULL)", "allocation does not fail: ext2fs.h is compiled with its own hook EXT2_CUSTOM_MEMORY_ROUTINES and ext2fs_get_mem/ext2fs_free_mem are the trivial malloc/free stubs of rb_common.h (typed pointer store instead of memcpy); malloc is __CPROVER_allocate, i.e. never NULL (rb_get_new_extent abort()s on failure anyway)", "bitmap->real_end - bitmap->start < 2^62", "BOUNDED: 1 <= num <= 9 (output buffer of 2 bytes with arbitrary previous content)", "range inside [start, real_end]"],
  "backend": "minisat",
  "no_cross_check": true,
  "native": true,
- "cbmc_flags": [
-  "--object-bits",
-  "10"
- ],
- "unwindset": {
-  "ext2fs_rb_next.0": 2,
-  "ext2fs_rb_next.1": 2,
-  "rb_get_bmap_range.0": 2,
-  "rb_get_bmap_range.1": 9,
-  "rb_get_bmap_range.2": 3
- },
+ "cbmc_flags": ["--object-bits", "10"],
+ "unwindset": {"ext2fs_rb_next.0": 2, "ext2fs_rb_next.1": 2, "rb_get_bmap_range.0": 2, "rb_get_bmap_range.1": 9, "rb_get_bmap_range.2": 3},
  "timeout": 1200
 }
 */
 /* VERIF-UNIT
 {
  "name": "rb_insert_extent_keep_b2",
- "props": [
-  "C16"
- ],
+ "props": ["C16"],
  "level": "B(2)",
  "tier": "quick",
  "harness": "h_rb_insert",
- "defines": [
-  "EXT2_CUSTOM_MEMORY_ROUTINES",
-  "RB_N=2",
-  "RB_NEW=0",
-  "RB_BITS=16",
-  "RB_SCEN=1"
- ],
+ "defines": ["EXT2_CUSTOM_MEMORY_ROUTINES", "RB_N=2", "RB_NEW=0", "RB_BITS=16", "RB_SCEN=1"],
  "unwind": 9,
  "unwind_reason": "BOUNDED: a tree of at most 2 nodes has height <= 2, so every descent / successor / predecessor loop of blkmap64_rb.c and rbtree.c runs at most that often (+1 for the exit test), the neighbour loops at most once per node; rebalancing loops climb at most one level per round; harness loops have constant bounds <= 8 (global unwind 9). Every bound is confirmed by an unwinding assertion.",
- "sources": [
-  "lib/ext2fs/rbtree.c"
- ],
- "functions": [
-  "lib/ext2fs/blkmap64_rb.c:rb_insert_extent",
-  "lib/ext2fs/blkmap64_rb.c:rb_get_new_extent",
-  "lib/ext2fs/blkmap64_rb.c:rb_free_extent",
-  "lib/ext2fs/blkmap64_rb.c:rb_mark_bmap",
-  "lib/ext2fs/blkmap64_rb.c:rb_mark_bmap_extent"
- ],
- "assumes": [
-  "BOUNDED stand-in, not counted as proved: the tree has exactly 2 extents (sorted, disjoint, non-adjacent, count > 0) in every red-black shape of that size; wcursor/rcursor NULL or any node, rcursor_next NULL or the successor of rcursor (any node if rcursor is NULL)",
-  "allocation does not fail: ext2fs.h is compiled with its own hook EXT2_CUSTOM_MEMORY_ROUTINES and ext2fs_get_mem/ext2fs_free_mem are the trivial malloc/free stubs of rb_common.h (typed pointer store instead of memcpy); malloc is __CPROVER_allocate, i.e. never NULL (rb_get_new_extent abort()s on failure anyway)",
-  "BOUNDED: bitmap->real_end - bitmap->start < 2^16 (offsets are 64-bit in the code and in the harness; the cap only narrows the values, chosen because the SAT proof of the ordering lemmas is the bottleneck)",
-  "range inside [start, real_end], count >= 1; rb_insert_extent is called directly with offsets relative to bitmap->start (rb_mark_bmap / rb_mark_bmap_extent only subtract bitmap->start, see rb_wrappers)",
-  "SCENARIO keep: the range starts inside or immediately behind an extent and neither reaches nor touches the next one (no new node, nothing erased); the four insert scenarios partition the input space",
-  "ext2fs_rb_erase is NOT abstracted: its contract is REQUIRES(false); the obligation that no call is reachable in this scenario is checked at every call site",
-  "ext2fs_rb_insert_color is NOT abstracted: its contract is REQUIRES(false); the obligation that no call is reachable in this scenario is checked at every call site"
- ],
+ "sources": ["lib/ext2fs/rbtree.c"],
+ "functions": ["lib/ext2fs/blkmap64_rb.c:rb_insert_extent", "lib/ext2fs/blkmap64_rb.c:rb_get_new_extent", "lib/ext2fs/blkmap64_rb.c:rb_free_extent", "lib/ext2fs/blkmap64_rb.c:rb_mark_bmap", "lib/ext2fs/blkmap64_rb.c:rb_mark_bmap_extent"],
+ "assumes": ["BOUNDED stand-in, not counted as proved: the tree has exactly 2 extents (sorted, disjoint, non-adjacent, count > 0) in every red-black shape of that size; wcursor/rcursor NULL or any node, rcursor_next NULL or the successor of rcursor (any node if rcursor is NULL)", "allocation does not fail: ext2fs.h is compiled with its own hook EXT2_CUSTOM_MEMORY_ROUTINES and ext2fs_get_mem/ext2fs_free_mem are the trivial malloc/free stubs of rb_common.h (typed pointer store instead of memcpy); malloc is __CPROVER_allocate, i.e. never NULL (rb_get_new_extent abort()s on failure anyway)", "BOUNDED: bitmap->real_end - bitmap->start < 2^16 (offsets are 64-bit in the code and in the harness; the cap only narrows the values, chosen because the SAT proof of the ordering lemmas is the bottleneck)", "range inside [start, real_end], count >= 1; rb_insert_extent is called directly with offsets relative to bitmap->start (rb_mark_bmap / rb_mark_bmap_extent only subtract bitmap->start, see rb_wrappers)", "SCENARIO keep: the range starts inside or immediately behind an extent and neither reaches nor touches the next one (no new node, nothing erased); the four insert scenarios partition the input space", "ext2fs_rb_erase is NOT abstracted: its contract is REQUIRES(false); the obligation that no call is reachable in this scenario is checked at every call site", "ext2fs_rb_insert_color is NOT abstracted: its contract is REQUIRES(false); the obligation that no call is reachable in this scenario is checked at every call site"],
  "backend": "minisat",
  "no_cross_check": true,
  "native": true,
- "cbmc_flags": [
-  "--object-bits",
-  "10"
- ],
- "unwindset": {
-  "rb_insert_extent.0": 3,
-  "rb_insert_extent.1": 2,
-  "ext2fs_rb_next.0": 3,
-  "ext2fs_rb_next.1": 3,
-  "ext2fs_rb_prev.0": 3,
-  "ext2fs_rb_prev.1": 3
- },
- "replace": [
-  "ext2fs_rb_erase",
-  "ext2fs_rb_insert_color"
- ],
+ "cbmc_flags": ["--object-bits", "10"],
+ "unwindset": {"rb_insert_extent.0": 3, "rb_insert_extent.1": 2, "ext2fs_rb_next.0": 3, "ext2fs_rb_next.1": 3, "ext2fs_rb_prev.0": 3, "ext2fs_rb_prev.1": 3},
+ "replace": ["ext2fs_rb_erase", "ext2fs_rb_insert_color"],
  "timeout": 300
 }
 */
 /* VERIF-UNIT
 {
  "name": "rb_insert_extent_keep_b3",
- "props": [
-  "C16"
- ],
+ "props": ["C16"],
  "level": "B(3)",
  "tier": "thorough",
  "harness": "h_rb_insert",
- "defines": [
-  "EXT2_CUSTOM_MEMORY_ROUTINES",
-  "RB_N=3",
-  "RB_NEW=0",
-  "RB_BITS=16",
-  "RB_SCEN=1"
- ],
+ "defines": ["EXT2_CUSTOM_MEMORY_ROUTINES", "RB_N=3", "RB_NEW=0", "RB_BITS=16", "RB_SCEN=1"],
  "unwind": 9,
  "unwind_reason": "BOUNDED: a tree of at most 3 nodes has height <= 2, so every descent / successor / predecessor loop of blkmap64_rb.c and rbtree.c runs at most that often (+1 for the exit test), the neighbour loops at most once per node; rebalancing loops climb at most one level per round; harness loops have constant bounds <= 8 (global unwind 9). Every bound is confirmed by an unwinding assertion.",
- "sources": [
-  "lib/ext2fs/rbtree.c"
- ],
- "functions": [
-  "lib/ext2fs/blkmap64_rb.c:rb_insert_extent",
-  "lib/ext2fs/blkmap64_rb.c:rb_get_new_extent",
-  "lib/ext2fs/blkmap64_rb.c:rb_free_extent",
-  "lib/ext2fs/blkmap64_rb.c:rb_mark_bmap",
-  "lib/ext2fs/blkmap64_rb.c:rb_mark_bmap_extent"
- ],
- "assumes": [
-  "BOUNDED stand-in, not counted as proved: the tree has exactly 3 extents (sorted, disjoint, non-adjacent, count > 0) in every red-black shape of that size; wcursor/rcursor NULL or any node, rcursor_next NULL or the successor of rcursor (any node if rcursor is NULL)",
-  "allocation does not fail: ext2fs.h is compiled with its own hook EXT2_CUSTOM_MEMORY_ROUTINES and ext2fs_get_mem/ext2fs_free_mem are the trivial malloc/free stubs of rb_common.h (typed pointer store instead of memcpy); malloc is __CPROVER_allocate, i.e. never NULL (rb_get_new_extent abort()s on failure anyway)",
-  "BOUNDED: bitmap->real_end - bitmap->start < 2^16 (offsets are 64-bit in the code and in the harness; the cap only narrows the values, chosen because the SAT proof of the ordering lemmas is the bottleneck)",
-  "range inside [start, real_end], count >= 1; rb_insert_extent is called directly with offsets relative to bitmap->start (rb_mark_bmap / rb_mark_bmap_extent only subtract bitmap->start, see rb_wrappers)",
-  "SCENARIO keep: the range starts inside or immediately behind an extent and neither reaches nor touches the next one (no new node, nothing erased); the four insert scenarios partition the input space",
-  "ext2fs_rb_erase is NOT abstracted: its contract is REQUIRES(false); the obligation that no call is reachable in this scenario is checked at every call site",
-  "ext2fs_rb_insert_color is NOT abstracted: its contract is REQUIRES(false); the obligation that no call is reachable in this scenario is checked at every call site"
- ],
+ "sources": ["lib/ext2fs/rbtree.c"],
+ "functions": ["lib/ext2fs/blkmap64_rb.c:rb_insert_extent", "lib/ext2fs/blkmap64_rb.c:rb_get_new_extent", "lib/ext2fs/blkmap64_rb.c:rb_free_extent", "lib/ext2fs/blkmap64_rb.c:rb_mark_bmap", "lib/ext2fs/blkmap64_rb.c:rb_mark_bmap_extent"],
+ "assumes": ["BOUNDED stand-in, not counted as proved: the tree has exactly 3 extents (sorted, disjoint, non-adjacent, count > 0) in every red-black shape of that size; wcursor/rcursor NULL or any node, rcursor_next NULL or the successor of rcursor (any node if rcursor is NULL)", "allocation does not fail: ext2fs.h is compiled with its own hook EXT2_CUSTOM_MEMORY_ROUTINES and ext2fs_get_mem/ext2fs_free_mem are the trivial malloc/free stubs of rb_common.h (typed pointer store instead of memcpy); malloc is __CPROVER_allocate, i.e. never NULL (rb_get_new_extent abort()s on failure anyway)", "BOUNDED: bitmap->real_end - bitmap->start < 2^16 (offsets are 64-bit in the code and in the harness; the cap only narrows the values, chosen because the SAT proof of the ordering lemmas is the bottleneck)", "range inside [start, real_end], count >= 1; rb_insert_extent is called directly with offsets relative to bitmap->start (rb_mark_bmap / rb_mark_bmap_extent only subtract bitmap->start, see rb_wrappers)", "SCENARIO keep: the range starts inside or immediately behind an extent and neither reaches nor touches the next one (no new node, nothing erased); the four insert scenarios partition the input space", "ext2fs_rb_erase is NOT abstracted: its contract is REQUIRES(false); the obligation that no call is reachable in this scenario is checked at every call site", "ext2fs_rb_insert_color is NOT abstracted: its contract is REQUIRES(false); the obligation that no call is reachable in this scenario is checked at every call site"],
  "backend": "minisat",
  "no_cross_check": true,
  "native": true,
- "cbmc_flags": [
-  "--object-bits",
-  "10"
- ],
- "unwindset": {
-  "rb_insert_extent.0": 3,
-  "rb_insert_extent.1": 2,
-  "ext2fs_rb_next.0": 3,
-  "ext2fs_rb_next.1": 3,
-  "ext2fs_rb_prev.0": 3,
-  "ext2fs_rb_prev.1": 3
- },
- "replace": [
-  "ext2fs_rb_erase",
-  "ext2fs_rb_insert_color"
- ],
+ "cbmc_flags": ["--object-bits", "10"],
+ "unwindset": {"rb_insert_extent.0": 3, "rb_insert_extent.1": 2, "ext2fs_rb_next.0": 3, "ext2fs_rb_next.1": 3, "ext2fs_rb_prev.0": 3, "ext2fs_rb_prev.1": 3},
+ "replace": ["ext2fs_rb_erase", "ext2fs_rb_insert_color"],
  "timeout": 1200
 }
 */
 /* VERIF-UNIT
 {
  "name": "rb_insert_extent_keep_b4",
- "props": [
-  "C16"
- ],
+ "props": ["C16"],
  "level": "B(4)",
  "tier": "thorough",
  "harness": "h_rb_insert",
- "defines": [
-  "EXT2_CUSTOM_MEMORY_ROUTINES",
-  "RB_N=4",
-  "RB_NEW=0",
-  "RB_BITS=16",
-  "RB_SCEN=1"
- ],
+ "defines": ["EXT2_CUSTOM_MEMORY_ROUTINES", "RB_N=4", "RB_NEW=0", "RB_BITS=16", "RB_SCEN=1"],
  "unwind": 9,
  "unwind_reason": "BOUNDED: a tree of at most 4 nodes has height <= 3, so every descent / successor / predecessor loop of blkmap64_rb.c and rbtree.c runs at most that often (+1 for the exit test), the neighbour loops at most once per node; rebalancing loops climb at most one level per round; harness loops have constant bounds <= 8 (global unwind 9). Every bound is confirmed by an unwinding assertion.",
- "sources": [
-  "lib/ext2fs/rbtree.c"
- ],
- "functions": [
-  "lib/ext2fs/blkmap64_rb.c:rb_insert_extent",
-  "lib/ext2fs/blkmap64_rb.c:rb_get_new_extent",
-  "lib/ext2fs/blkmap64_rb.c:rb_free_extent",
-  "lib/ext2fs/blkmap64_rb.c:rb_mark_bmap",
-  "lib/ext2fs/blkmap64_rb.c:rb_mark_bmap_extent"
- ],
- "assumes": [
-  "BOUNDED stand-in, not counted as proved: the tree has exactly 4 extents (sorted, disjoint, non-adjacent, count > 0) in every red-black shape of that size; wcursor/rcursor NULL or any node, rcursor_next NULL or the successor of rcursor (any node if rcursor is NULL)",
-  "allocation does not fail: ext2fs.h is compiled with its own hook EXT2_CUSTOM_MEMORY_ROUTINES and ext2fs_get_mem/ext2fs_free_mem are the trivial malloc/free stubs of rb_common.h (typed pointer store instead of memcpy); malloc is __CPROVER_allocate, i.e. never NULL (rb_get_new_extent abort()s on failure anyway)",
-  "BOUNDED: bitmap->real_end - bitmap->start < 2^16 (offsets are 64-bit in the code and in the harness; the cap only narrows the values, chosen because the SAT proof of the ordering lemmas is the bottleneck)",
-  "range inside [start, real_end], count >= 1; rb_insert_extent is called directly with offsets relative to bitmap->start (rb_mark_bmap / rb_mark_bmap_extent only subtract bitmap->start, see rb_wrappers)",
-  "SCENARIO keep: the range starts inside or immediately behind an extent and neither reaches nor touches the next one (no new node, nothing erased); the four insert scenarios partition the input space",
-  "ext2fs_rb_erase is NOT abstracted: its contract is REQUIRES(false); the obligation that no call is reachable in this scenario is checked at every call site",
-  "ext2fs_rb_insert_color is NOT abstracted: its contract is REQUIRES(false); the obligation that no call is reachable in this scenario is checked at every call site"
- ],
+ "sources": ["lib/ext2fs/rbtree.c"],
+ "functions": ["lib/ext2fs/blkmap64_rb.c:rb_insert_extent", "lib/ext2fs/blkmap64_rb.c:rb_get_new_extent", "lib/ext2fs/blkmap64_rb.c:rb_free_extent", "lib/ext2fs/blkmap64_rb.c:rb_mark_bmap", "lib/ext2fs/blkmap64_rb.c:rb_mark_bmap_extent"],
+ "assumes": ["BOUNDED stand-in, not counted as proved: the tree has exactly 4 extents (sorted, disjoint, non-adjacent, count > 0) in every red-black shape of that size; wcursor/rcursor NULL or any node, rcursor_next NULL or the successor of rcursor (any node if rcursor is NULL)", "allocation does not fail: ext2fs.h is compiled with its own hook EXT2_CUSTOM_MEMORY_ROUTINES and ext2fs_get_mem/ext2fs_free_mem are the trivial malloc/free stubs of rb_common.h (typed pointer store instead of memcpy); malloc is __CPROVER_allocate, i.e. never NULL (rb_get_new_extent abort()s on failure anyway)", "BOUNDED: bitmap->real_end - bitmap->start < 2^16 (offsets are 64-bit in the code and in the harness; the cap only narrows the values, chosen because the SAT proof of the ordering lemmas is the bottleneck)", "range inside [start, real_end], count >= 1; rb_insert_extent is called directly with offsets relative to bitmap->start (rb_mark_bmap / rb_mark_bmap_extent only subtract bitmap->start, see rb_wrappers)", "SCENARIO keep: the range starts inside or immediately behind an extent and neither reaches nor touches the next one (no new node, nothing erased); the four insert scenarios partition the input space", "ext2fs_rb_erase is NOT abstracted: its contract is REQUIRES(false); the obligation that no call is reachable in this scenario is checked at every call site", "ext2fs_rb_insert_color is NOT abstracted: its contract is REQUIRES(false); the obligation that no call is reachable in this scenario is checked at every call site"],
  "backend": "minisat",
  "no_cross_check": true,
  "native": true,
- "cbmc_flags": [
-  "--object-bits",
-  "10"
- ],
- "unwindset": {
-  "rb_insert_extent.0": 4,
-  "rb_insert_extent.1": 2,
-  "ext2fs_rb_next.0": 4,
-  "ext2fs_rb_next.1": 4,
-  "ext2fs_rb_prev.0": 4,
-  "ext2fs_rb_prev.1": 4
- },
- "replace": [
-  "ext2fs_rb_erase",
-  "ext2fs_rb_insert_color"
- ],
+ "cbmc_flags": ["--object-bits", "10"],
+ "unwindset": {"rb_insert_extent.0": 4, "rb_insert_extent.1": 2, "ext2fs_rb_next.0": 4, "ext2fs_rb_next.1": 4, "ext2fs_rb_prev.0": 4, "ext2fs_rb_prev.1": 4},
+ "replace": ["ext2fs_rb_erase", "ext2fs_rb_insert_color"],
  "timeout": 1200
 }
 */
 /* VERIF-UNIT
 {
  "name": "rb_insert_extent_new_b1",
- "props": [
-  "C16"
- ],
+ "props": ["C16"],
  "level": "B(1)",
  "tier": "quick",
  "harness": "h_rb_insert",
- "defines": [
-  "EXT2_CUSTOM_MEMORY_ROUTINES",
-  "RB_N=1",
-  "RB_NEW=1",
-  "RB_BITS=16",
-  "RB_SCEN=2"
- ],
+ "defines": ["EXT2_CUSTOM_MEMORY_ROUTINES", "RB_N=1", "RB_NEW=1", "RB_BITS=16", "RB_SCEN=2"],
  "unwind": 9,
  "unwind_reason": "BOUNDED: a tree of at most 2 nodes has height <= 2, so every descent / successor / predecessor loop of blkmap64_rb.c and rbtree.c runs at most that often (+1 for the exit test), the neighbour loops at most once per node; rebalancing loops climb at most one level per round; harness loops have constant bounds <= 8 (global unwind 9). Every bound is confirmed by an unwinding assertion.",
- "sources": [
-  "lib/ext2fs/rbtree.c"
- ],
- "functions": [
-  "lib/ext2fs/blkmap64_rb.c:rb_insert_extent",
-  "lib/ext2fs/blkmap64_rb.c:rb_get_new_extent",
-  "lib/ext2fs/blkmap64_rb.c:rb_free_extent",
-  "lib/ext2fs/blkmap64_rb.c:rb_mark_bmap",
-  "lib/ext2fs/blkmap64_rb.c:rb_mark_bmap_extent"
- ],
- "assumes": [
-  "BOUNDED stand-in, not counted as proved: the tree has exactly 1 extents (sorted, disjoint, non-adjacent, count > 0) in every red-black shape of that size; wcursor/rcursor NULL or any node, rcursor_next NULL or the successor of rcursor (any node if rcursor is NULL)",
-  "allocation does not fail: ext2fs.h is compiled with its own hook EXT2_CUSTOM_MEMORY_ROUTINES and ext2fs_get_mem/ext2fs_free_mem are the trivial malloc/free stubs of rb_common.h (typed pointer store instead of memcpy); malloc is __CPROVER_allocate, i.e. never NULL (rb_get_new_extent abort()s on failure anyway)",
-  "BOUNDED: bitmap->real_end - bitmap->start < 2^16 (offsets are 64-bit in the code and in the harness; the cap only narrows the values, chosen because the SAT proof of the ordering lemmas is the bottleneck)",
-  "range inside [start, real_end], count >= 1; rb_insert_extent is called directly with offsets relative to bitmap->start (rb_mark_bmap / rb_mark_bmap_extent only subtract bitmap->start, see rb_wrappers)",
-  "SCENARIO new: the range neither starts in/behind an extent nor reaches/touches a later one (a new node, nothing erased); the four insert scenarios partition the input space",
-  "ext2fs_rb_erase is NOT abstracted: its contract is REQUIRES(false); the obligation that no call is reachable in this scenario is checked at every call site"
- ],
+ "sources": ["lib/ext2fs/rbtree.c"],
+ "functions": ["lib/ext2fs/blkmap64_rb.c:rb_insert_extent", "lib/ext2fs/blkmap64_rb.c:rb_get_new_extent", "lib/ext2fs/blkmap64_rb.c:rb_free_extent", "lib/ext2fs/blkmap64_rb.c:rb_mark_bmap", "lib/ext2fs/blkmap64_rb.c:rb_mark_bmap_extent"],
+ "assumes": ["BOUNDED stand-in, not counted as proved: the tree has exactly 1 extents (sorted, disjoint, non-adjacent, count > 0) in every red-black shape of that size; wcursor/rcursor NULL or any node, rcursor_next NULL or the successor of rcursor (any node if rcursor is NULL)", "allocation does not fail: ext2fs.h is compiled with its own hook EXT2_CUSTOM_MEMORY_ROUTINES and ext2fs_get_mem/ext2fs_free_mem are the trivial malloc/free stubs of rb_common.h (typed pointer store instead of memcpy); malloc is __CPROVER_allocate, i.e. never NULL (rb_get_new_extent abort()s on failure anyway)", "BOUNDED: bitmap->real_end - bitmap->start < 2^16 (offsets are 64-bit in the code and in the harness; the cap only narrows the values, chosen because the SAT proof of the ordering lemmas is the bottleneck)", "range inside [start, real_end], count >= 1; rb_insert_extent is called directly with offsets relative to bitmap->start (rb_mark_bmap / rb_mark_bmap_extent only subtract bitmap->start, see rb_wrappers)", "SCENARIO new: the range neither starts in/behind an extent nor reaches/touches a later one (a new node, nothing erased); the four insert scenarios partition the input space", "ext2fs_rb_erase is NOT abstracted: its contract is REQUIRES(false); the obligation that no call is reachable in this scenario is checked at every call site"],
  "backend": "minisat",
  "no_cross_check": true,
  "native": true,
- "cbmc_flags": [
-  "--object-bits",
-  "10"
- ],
- "unwindset": {
-  "rb_insert_extent.0": 2,
-  "rb_insert_extent.1": 2,
-  "ext2fs_rb_next.0": 3,
-  "ext2fs_rb_next.1": 3,
-  "ext2fs_rb_prev.0": 3,
-  "ext2fs_rb_prev.1": 3,
-  "ext2fs_rb_insert_color.0": 1
- },
- "replace": [
-  "ext2fs_rb_erase"
- ],
+ "cbmc_flags": ["--object-bits", "10"],
+ "unwindset": {"rb_insert_extent.0": 2, "rb_insert_extent.1": 2, "ext2fs_rb_next.0": 3, "ext2fs_rb_next.1": 3, "ext2fs_rb_prev.0": 3, "ext2fs_rb_prev.1": 3, "ext2fs_rb_insert_color.0": 1},
+ "replace": ["ext2fs_rb_erase"],
  "timeout": 300
 }
 */
 /* VERIF-UNIT
 {
  "name": "rb_insert_extent_new_b2",
- "props": [
-  "C16"
- ],
+ "props": ["C16"],
  "level": "B(2)",
  "tier": "quick",
  "harness": "h_rb_insert",
- "defines": [
-  "EXT2_CUSTOM_MEMORY_ROUTINES",
-  "RB_N=2",
-  "RB_NEW=1",
-  "RB_BITS=16",
-  "RB_SCEN=2"
- ],
+ "defines": ["EXT2_CUSTOM_MEMORY_ROUTINES", "RB_N=2", "RB_NEW=1", "RB_BITS=16", "RB_SCEN=2"],
  "unwind": 9,
  "unwind_reason": "BOUNDED: a tree of at most 3 nodes has height <= 2, so every descent / successor / predecessor loop of blkmap64_rb.c and rbtree.c runs at most that often (+1 for the exit test), the neighbour loops at most once per node; rebalancing loops climb at most one level per round; harness loops have constant bounds <= 8 (global unwind 9). Every bound is confirmed by an unwinding assertion.",
- "sources": [
-  "lib/ext2fs/rbtree.c"
- ],
- "functions": [
-  "lib/ext2fs/blkmap64_rb.c:rb_insert_extent",
-  "lib/ext2fs/blkmap64_rb.c:rb_get_new_extent",
-  "lib/ext2fs/blkmap64_rb.c:rb_free_extent",
-  "lib/ext2fs/blkmap64_rb.c:rb_mark_bmap",
-  "lib/ext2fs/blkmap64_rb.c:rb_mark_bmap_extent"
- ],
- "assumes": [
-  "BOUNDED stand-in, not counted as proved: the tree has exactly 2 extents (sorted, disjoint, non-adjacent, count > 0) in every red-black shape of that size; wcursor/rcursor NULL or any node, rcursor_next NULL or the successor of rcursor (any node if rcursor is NULL)",
-  "allocation does not fail: ext2fs.h is compiled with its own hook EXT2_CUSTOM_MEMORY_ROUTINES and ext2fs_get_mem/ext2fs_free_mem are the trivial malloc/free stubs of rb_common.h (typed pointer store instead of memcpy); malloc is __CPROVER_allocate, i.e. never NULL (rb_get_new_extent abort()s on failure anyway)",
-  "BOUNDED: bitmap->real_end - bitmap->start < 2^16 (offsets are 64-bit in the code and in the harness; the cap only narrows the values, chosen because the SAT proof of the ordering lemmas is the bottleneck)",
-  "range inside [start, real_end], count >= 1; rb_insert_extent is called directly with offsets relative to bitmap->start (rb_mark_bmap / rb_mark_bmap_extent only subtract bitmap->start, see rb_wrappers)",
-  "SCENARIO new: the range neither starts in/behind an extent nor reaches/touches a later one (a new node, nothing erased); the four insert scenarios partition the input space",
-  "ext2fs_rb_erase is NOT abstracted: its contract is REQUIRES(false); the obligation that no call is reachable in this scenario is checked at every call site"
- ],
+ "sources": ["lib/ext2fs/rbtree.c"],
+ "functions": ["lib/ext2fs/blkmap64_rb.c:rb_insert_extent", "lib/ext2fs/blkmap64_rb.c:rb_get_new_extent", "lib/ext2fs/blkmap64_rb.c:rb_free_extent", "lib/ext2fs/blkmap64_rb.c:rb_mark_bmap", "lib/ext2fs/blkmap64_rb.c:rb_mark_bmap_extent"],
+ "assumes": ["BOUNDED stand-in, not counted as proved: the tree has exactly 2 extents (sorted, disjoint, non-adjacent, count > 0) in every red-black shape of that size; wcursor/rcursor NULL or any node, rcursor_next NULL or the successor of rcursor (any node if rcursor is NULL)", "allocation does not fail: ext2fs.h is compiled with its own hook EXT2_CUSTOM_MEMORY_ROUTINES and ext2fs_get_mem/ext2fs_free_mem are the trivial malloc/free stubs of rb_common.h (typed pointer store instead of memcpy); malloc is __CPROVER_allocate, i.e. never NULL (rb_get_new_extent abort()s on failure anyway)", "BOUNDED: bitmap->real_end - bitmap->start < 2^16 (offsets are 64-bit in the code and in the harness; the cap only narrows the values, chosen because the SAT proof of the ordering lemmas is the bottleneck)", "range inside [start, real_end], count >= 1; rb_insert_extent is called directly with offsets relative to bitmap->start (rb_mark_bmap / rb_mark_bmap_extent only subtract bitmap->start, see rb_wrappers)", "SCENARIO new: the range neither starts in/behind an extent nor reaches/touches a later one (a new node, nothing erased); the four insert scenarios partition the input space", "ext2fs_rb_erase is NOT abstracted: its contract is REQUIRES(false); the obligation that no call is reachable in this scenario is checked at every call site"],
  "backend": "minisat",
  "no_cross_check": true,
  "native": true,
- "cbmc_flags": [
-  "--object-bits",
-  "10"
- ],
- "unwindset": {
-  "rb_insert_extent.0": 3,
-  "rb_insert_extent.1": 2,
-  "ext2fs_rb_next.0": 3,
-  "ext2fs_rb_next.1": 3,
-  "ext2fs_rb_prev.0": 3,
-  "ext2fs_rb_prev.1": 3,
-  "ext2fs_rb_insert_color.0": 2
- },
- "replace": [
-  "ext2fs_rb_erase"
- ],
+ "cbmc_flags": ["--object-bits", "10"],
+ "unwindset": {"rb_insert_extent.0": 3, "rb_insert_extent.1": 2, "ext2fs_rb_next.0": 3, "ext2fs_rb_next.1": 3, "ext2fs_rb_prev.0": 3, "ext2fs_rb_prev.1": 3, "ext2fs_rb_insert_color.0": 2},
+ "replace": ["ext2fs_rb_erase"],
  "timeout": 300
 }
 */
 /* VERIF-UNIT
 {
  "name": "rb_insert_extent_new_b3",
- "props": [
-  "C16"
- ],
+ "props": ["C16"],
  "level": "B(3)",
  "tier": "thorough",
  "harness": "h_rb_insert",
- "defines": [
-  "EXT2_CUSTOM_MEMORY_ROUTINES",
-  "RB_N=3",
-  "RB_NEW=1",
-  "RB_BITS=16",
-  "RB_SCEN=2"
- ],
+ "defines": ["EXT2_CUSTOM_MEMORY_ROUTINES", "RB_N=3", "RB_NEW=1", "RB_BITS=16", "RB_SCEN=2"],
  "unwind": 9,
  "unwind_reason": "BOUNDED: a tree of at most 4 nodes has height <= 3, so every descent / successor / predecessor loop of blkmap64_rb.c and rbtree.c runs at most that often (+1 for the exit test), the neighbour loops at most once per node; rebalancing loops climb at most one level per round; harness loops have constant bounds <= 8 (global unwind 9). Every bound is confirmed by an unwinding assertion.",
- "sources": [
-  "lib/ext2fs/rbtree.c"
- ],
- "functions": [
-  "lib/ext2fs/blkmap64_rb.c:rb_insert_extent",
-  "lib/ext2fs/blkmap64_rb.c:rb_get_new_extent",
-  "lib/ext2fs/blkmap64_rb.c:rb_free_extent",
-  "lib/ext2fs/blkmap64_rb.c:rb_mark_bmap",
-  "lib/ext2fs/blkmap64_rb.c:rb_mark_bmap_extent"
- ],
- "assumes": [
-  "BOUNDED stand-in, not counted as proved: the tree has exactly 3 extents (sorted, disjoint, non-adjacent, count > 0) in every red-black shape of that size; wcursor/rcursor NULL or any node, rcursor_next NULL or the successor of rcursor (any node if rcursor is NULL)",
-  "allocation does not fail: ext2fs.h is compiled with its own hook EXT2_CUSTOM_MEMORY_ROUTINES and ext2fs_get_mem/ext2fs_free_mem are the trivial malloc/free stubs of rb_common.h (typed pointer store instead of memcpy); malloc is __CPROVER_allocate, i.e. never NULL (rb_get_new_extent abort()s on failure anyway)",
-  "BOUNDED: bitmap->real_end - bitmap->start < 2^16 (offsets are 64-bit in the code and in the harness; the cap only narrows the values, chosen because the SAT proof of the ordering lemmas is the bottleneck)",
-  "range inside [start, real_end], count >= 1; rb_insert_extent is called directly with offsets relative to bitmap->start (rb_mark_bmap / rb_mark_bmap_extent only subtract bitmap->start, see rb_wrappers)",
-  "SCENARIO new: the range neither starts in/behind an extent nor reaches/touches a later one (a new node, nothing erased); the four insert scenarios partition the input space",
-  "ext2fs_rb_erase is NOT abstracted: its contract is REQUIRES(false); the obligation that no call is reachable in this scenario is checked at every call site"
- ],
+ "sources": ["lib/ext2fs/rbtree.c"],
+ "functions": ["lib/ext2fs/blkmap64_rb.c:rb_insert_extent", "lib/ext2fs/blkmap64_rb.c:rb_get_new_extent", "lib/ext2fs/blkmap64_rb.c:rb_free_extent", "lib/ext2fs/blkmap64_rb.c:rb_mark_bmap", "lib/ext2fs/blkmap64_rb.c:rb_mark_bmap_extent"],
+ "assumes": ["BOUNDED stand-in, not counted as proved: the tree has exactly 3 extents (sorted, disjoint, non-adjacent, count > 0) in every red-black shape of that size; wcursor/rcursor NULL or any node, rcursor_next NULL or the successor of rcursor (any node if rcursor is NULL)", "allocation does not fail: ext2fs.h is compiled with its own hook EXT2_CUSTOM_MEMORY_ROUTINES and ext2fs_get_mem/ext2fs_free_mem are the trivial malloc/free stubs of rb_common.h (typed pointer store instead of memcpy); malloc is __CPROVER_allocate, i.e. never NULL (rb_get_new_extent abort()s on failure anyway)", "BOUNDED: bitmap->real_end - bitmap->start < 2^16 (offsets are 64-bit in the code and in the harness; the cap only narrows the values, chosen because the SAT proof of the ordering lemmas is the bottleneck)", "range inside [start, real_end], count >= 1; rb_insert_extent is called directly with offsets relative to bitmap->start (rb_mark_bmap / rb_mark_bmap_extent only subtract bitmap->start, see rb_wrappers)", "SCENARIO new: the range neither starts in/behind an extent nor reaches/touches a later one (a new node, nothing erased); the four insert scenarios partition the input space", "ext2fs_rb_erase is NOT abstracted: its contract is REQUIRES(false); the obligation that no call is reachable in this scenario is checked at every call site"],
  "backend": "minisat",
  "no_cross_check": true,
  "native": true,
- "cbmc_flags": [
-  "--object-bits",
-  "10"
- ],
- "unwindset": {
-  "rb_insert_extent.0": 3,
-  "rb_insert_extent.1": 2,
-  "ext2fs_rb_next.0": 4,
-  "ext2fs_rb_next.1": 4,
-  "ext2fs_rb_prev.0": 4,
-  "ext2fs_rb_prev.1": 4,
-  "ext2fs_rb_insert_color.0": 2
- },
- "replace": [
-  "ext2fs_rb_erase"
- ],
+ "cbmc_flags": ["--object-bits", "10"],
+ "unwindset": {"rb_insert_extent.0": 3, "rb_insert_extent.1": 2, "ext2fs_rb_next.0": 4, "ext2fs_rb_next.1": 4, "ext2fs_rb_prev.0": 4, "ext2fs_rb_prev.1": 4, "ext2fs_rb_insert_color.0": 2},
+ "replace": ["ext2fs_rb_erase"],
  "timeout": 1200
 }
 */
 /* VERIF-UNIT
 {
  "name": "rb_insert_extent_merge_b2",
- "props": [
-  "C16"
- ],
+ "props": ["C16"],
  "level": "B(2)",
  "tier": "thorough",
  "harness": "h_rb_insert",
- "defines": [
-  "EXT2_CUSTOM_MEMORY_ROUTINES",
-  "RB_N=2",
-  "RB_NEW=0",
-  "RB_BITS=16",
-  "RB_SCEN=3"
- ],
+ "defines": ["EXT2_CUSTOM_MEMORY_ROUTINES", "RB_N=2", "RB_NEW=0", "RB_BITS=16", "RB_SCEN=3"],
  "unwind": 9,
  "unwind_reason": "BOUNDED: a tree of at most 2 nodes has height <= 2, so every descent / successor / predecessor loop of blkmap64_rb.c and rbtree.c runs at most that often (+1 for the exit test), the neighbour loops at most once per node; rebalancing loops climb at most one level per round; harness loops have constant bounds <= 8 (global unwind 9). Every bound is confirmed by an unwinding assertion.",
- "sources": [
-  "lib/ext2fs/rbtree.c"
- ],
- "functions": [
-  "lib/ext2fs/blkmap64_rb.c:rb_insert_extent",
-  "lib/ext2fs/blkmap64_rb.c:rb_get_new_extent",
-  "lib/ext2fs/blkmap64_rb.c:rb_free_extent",
-  "lib/ext2fs/blkmap64_rb.c:rb_mark_bmap",
-  "lib/ext2fs/blkmap64_rb.c:rb_mark_bmap_extent"
- ],
- "assumes": [
-  "BOUNDED stand-in, not counted as proved: the tree has exactly 2 extents (sorted, disjoint, non-adjacent, count > 0) in every red-black shape of that size; wcursor/rcursor NULL or any node, rcursor_next NULL or the successor of rcursor (any node if rcursor is NULL)",
-  "allocation does not fail: ext2fs.h is compiled with its own hook EXT2_CUSTOM_MEMORY_ROUTINES and ext2fs_get_mem/ext2fs_free_mem are the trivial malloc/free stubs of rb_common.h (typed pointer store instead of memcpy); malloc is __CPROVER_allocate, i.e. never NULL (rb_get_new_extent abort()s on failure anyway)",
-  "BOUNDED: bitmap->real_end - bitmap->start < 2^16 (offsets are 64-bit in the code and in the harness; the cap only narrows the values, chosen because the SAT proof of the ordering lemmas is the bottleneck)",
-  "range inside [start, real_end], count >= 1; rb_insert_extent is called directly with offsets relative to bitmap->start (rb_mark_bmap / rb_mark_bmap_extent only subtract bitmap->start, see rb_wrappers)",
-  "SCENARIO merge: the range starts inside or immediately behind an extent and reaches or touches at least one later extent (erase, no new node); the four insert scenarios partition the input space",
-  "ext2fs_rb_insert_color is NOT abstracted: its contract is REQUIRES(false); the obligation that no call is reachable in this scenario is checked at every call site"
- ],
+ "sources": ["lib/ext2fs/rbtree.c"],
+ "functions": ["lib/ext2fs/blkmap64_rb.c:rb_insert_extent", "lib/ext2fs/blkmap64_rb.c:rb_get_new_extent", "lib/ext2fs/blkmap64_rb.c:rb_free_extent", "lib/ext2fs/blkmap64_rb.c:rb_mark_bmap", "lib/ext2fs/blkmap64_rb.c:rb_mark_bmap_extent"],
+ "assumes": ["BOUNDED stand-in, not counted as proved: the tree has exactly 2 extents (sorted, disjoint, non-adjacent, count > 0) in every red-black shape of that size; wcursor/rcursor NULL or any node, rcursor_next NULL or the successor of rcursor (any node if rcursor is NULL)", "allocation does not fail: ext2fs.h is compiled with its own hook EXT2_CUSTOM_MEMORY_ROUTINES and ext2fs_get_mem/ext2fs_free_mem are the trivial malloc/free stubs of rb_common.h (typed pointer store instead of memcpy); malloc is __CPROVER_allocate, i.e. never NULL (rb_get_new_extent abort()s on failure anyway)", "BOUNDED: bitmap->real_end - bitmap->start < 2^16 (offsets are 64-bit in the code and in the harness; the cap only narrows the values, chosen because the SAT proof of the ordering lemmas is the bottleneck)", "range inside [start, real_end], count >= 1; rb_insert_extent is called directly with offsets relative to bitmap->start (rb_mark_bmap / rb_mark_bmap_extent only subtract bitmap->start, see rb_wrappers)", "SCENARIO merge: the range starts inside or immediately behind an extent and reaches or touches at least one later extent (erase, no new node); the four insert scenarios partition the input space", "ext2fs_rb_insert_color is NOT abstracted: its contract is REQUIRES(false); the obligation that no call is reachable in this scenario is checked at every call site"],
  "backend": "minisat",
  "no_cross_check": true,
  "native": true,
- "cbmc_flags": [
-  "--object-bits",
-  "10"
- ],
- "unwindset": {
-  "rb_insert_extent.0": 3,
-  "rb_insert_extent.1": 2,
-  "ext2fs_rb_next.0": 3,
-  "ext2fs_rb_next.1": 3,
-  "ext2fs_rb_prev.0": 3,
-  "ext2fs_rb_prev.1": 3,
-  "ext2fs_rb_erase.0": 1,
-  "__rb_erase_color.0": 1
- },
- "replace": [
-  "ext2fs_rb_insert_color"
- ],
+ "cbmc_flags": ["--object-bits", "10"],
+ "unwindset": {"rb_insert_extent.0": 3, "rb_insert_extent.1": 2, "ext2fs_rb_next.0": 3, "ext2fs_rb_next.1": 3, "ext2fs_rb_prev.0": 3, "ext2fs_rb_prev.1": 3, "ext2fs_rb_erase.0": 1, "__rb_erase_color.0": 1},
+ "replace": ["ext2fs_rb_insert_color"],
  "timeout": 1200
 }
 */
 /* VERIF-UNIT
 {
  "name": "rb_insert_extent_newmerge_b1",
- "props": [
-  "C16"
- ],
+ "props": ["C16"],
  "level": "B(1)",
  "tier": "thorough",
  "harness": "h_rb_insert",
- "defines": [
-  "EXT2_CUSTOM_MEMORY_ROUTINES",
-  "RB_N=1",
-  "RB_NEW=1",
-  "RB_BITS=16",
-  "RB_SCEN=4"
- ],
+ "defines": ["EXT2_CUSTOM_MEMORY_ROUTINES", "RB_N=1", "RB_NEW=1", "RB_BITS=16", "RB_SCEN=4"],
  "unwind": 9,
  "unwind_reason": "BOUNDED: a tree of at most 2 nodes has height <= 2, so every descent / successor / predecessor loop of blkmap64_rb.c and rbtree.c runs at most that often (+1 for the exit test), the neighbour loops at most once per node; rebalancing loops climb at most one level per round; harness loops have constant bounds <= 8 (global unwind 9). Every bound is confirmed by an unwinding assertion.",
- "sources": [
-  "lib/ext2fs/rbtree.c"
- ],
- "functions": [
-  "lib/ext2fs/blkmap64_rb.c:rb_insert_extent",
-  "lib/ext2fs/blkmap64_rb.c:rb_get_new_extent",
-  "lib/ext2fs/blkmap64_rb.c:rb_free_extent",
-  "lib/ext2fs/blkmap64_rb.c:rb_mark_bmap",
-  "lib/ext2fs/blkmap64_rb.c:rb_mark_bmap_extent"
- ],
- "assumes": [
-  "BOUNDED stand-in, not counted as proved: the tree has exactly 1 extents (sorted, disjoint, non-adjacent, count > 0) in every red-black shape of that size; wcursor/rcursor NULL or any node, rcursor_next NULL or the successor of rcursor (any node if rcursor is NULL)",
-  "allocation does not fail: ext2fs.h is compiled with its own hook EXT2_CUSTOM_MEMORY_ROUTINES and ext2fs_get_mem/ext2fs_free_mem are the trivial malloc/free stubs of rb_common.h (typed pointer store instead of memcpy); malloc is __CPROVER_allocate, i.e. never NULL (rb_get_new_extent abort()s on failure anyway)",
-  "BOUNDED: bitmap->real_end - bitmap->start < 2^16 (offsets are 64-bit in the code and in the harness; the cap only narrows the values, chosen because the SAT proof of the ordering lemmas is the bottleneck)",
-  "range inside [start, real_end], count >= 1; rb_insert_extent is called directly with offsets relative to bitmap->start (rb_mark_bmap / rb_mark_bmap_extent only subtract bitmap->start, see rb_wrappers)",
-  "SCENARIO newmerge: the range does not start in/behind an extent but reaches or touches at least one later extent (new node and erase); the four insert scenarios partition the input space"
- ],
+ "sources": ["lib/ext2fs/rbtree.c"],
+ "functions": ["lib/ext2fs/blkmap64_rb.c:rb_insert_extent", "lib/ext2fs/blkmap64_rb.c:rb_get_new_extent", "lib/ext2fs/blkmap64_rb.c:rb_free_extent", "lib/ext2fs/blkmap64_rb.c:rb_mark_bmap", "lib/ext2fs/blkmap64_rb.c:rb_mark_bmap_extent"],
+ "assumes": ["BOUNDED stand-in, not counted as proved: the tree has exactly 1 extents (sorted, disjoint, non-adjacent, count > 0) in every red-black shape of that size; wcursor/rcursor NULL or any node, rcursor_next NULL or the successor of rcursor (any node if rcursor is NULL)", "allocation does not fail: ext2fs.h is compiled with its own hook EXT2_CUSTOM_MEMORY_ROUTINES and ext2fs_get_mem/ext2fs_free_mem are the trivial malloc/free stubs of rb_common.h (typed pointer store instead of memcpy); malloc is __CPROVER_allocate, i.e. never NULL (rb_get_new_extent abort()s on failure anyway)", "BOUNDED: bitmap->real_end - bitmap->start < 2^16 (offsets are 64-bit in the code and in the harness; the cap only narrows the values, chosen because the SAT proof of the ordering lemmas is the bottleneck)", "range inside [start, real_end], count >= 1; rb_insert_extent is called directly with offsets relative to bitmap->start (rb_mark_bmap / rb_mark_bmap_extent only subtract bitmap->start, see rb_wrappers)", "SCENARIO newmerge: the range does not start in/behind an extent but reaches or touches at least one later extent (new node and erase); the four insert scenarios partition the input space"],
  "backend": "minisat",
  "no_cross_check": true,
  "native": true,
- "cbmc_flags": [
-  "--object-bits",
-  "10"
- ],
- "unwindset": {
-  "rb_insert_extent.0": 2,
-  "rb_insert_extent.1": 2,
-  "ext2fs_rb_next.0": 3,
-  "ext2fs_rb_next.1": 3,
-  "ext2fs_rb_prev.0": 3,
-  "ext2fs_rb_prev.1": 3,
-  "ext2fs_rb_erase.0": 1,
-  "__rb_erase_color.0": 1,
-  "ext2fs_rb_insert_color.0": 1
- },
+ "cbmc_flags": ["--object-bits", "10"],
+ "unwindset": {"rb_insert_extent.0": 2, "rb_insert_extent.1": 2, "ext2fs_rb_next.0": 3, "ext2fs_rb_next.1": 3, "ext2fs_rb_prev.0": 3, "ext2fs_rb_prev.1": 3, "ext2fs_rb_erase.0": 1, "__rb_erase_color.0": 1, "ext2fs_rb_insert_color.0": 1},
  "timeout": 1200
 }
 */
 /* VERIF-UNIT
 {
  "name": "rb_remove_extent_trunc_b1",
- "props": [
-  "C16"
- ],
+ "props": ["C16"],
  "level": "B(1)",
  "tier": "quick",
  "harness": "h_rb_remove",
- "defines": [
-  "EXT2_CUSTOM_MEMORY_ROUTINES",
-  "RB_N=1",
-  "RB_NEW=0",
-  "RB_BITS=16",
-  "RB_SCEN=1"
- ],
+ "defines": ["EXT2_CUSTOM_MEMORY_ROUTINES", "RB_N=1", "RB_NEW=0", "RB_BITS=16", "RB_SCEN=1"],
  "unwind": 9,
  "unwind_reason": "BOUNDED: a tree of at most 1 nodes has height <= 1, so every descent / successor / predecessor loop of blkmap64_rb.c and rbtree.c runs at most that often (+1 for the exit test), the neighbour loops at most once per node; rebalancing loops climb at most one level per round; harness loops have constant bounds <= 8 (global unwind 9). Every bound is confirmed by an unwinding assertion.",
- "sources": [
-  "lib/ext2fs/rbtree.c"
- ],
- "functions": [
-  "lib/ext2fs/blkmap64_rb.c:rb_remove_extent",
-  "lib/ext2fs/blkmap64_rb.c:rb_free_extent",
-  "lib/ext2fs/blkmap64_rb.c:rb_unmark_bmap",
-  "lib/ext2fs/blkmap64_rb.c:rb_unmark_bmap_extent"
- ],
- "assumes": [
-  "BOUNDED stand-in, not counted as proved: the tree has exactly 1 extents (sorted, disjoint, non-adjacent, count > 0) in every red-black shape of that size; wcursor/rcursor NULL or any node, rcursor_next NULL or the successor of rcursor (any node if rcursor is NULL)",
-  "allocation does not fail: ext2fs.h is compiled with its own hook EXT2_CUSTOM_MEMORY_ROUTINES and ext2fs_get_mem/ext2fs_free_mem are the trivial malloc/free stubs of rb_common.h (typed pointer store instead of memcpy); malloc is __CPROVER_allocate, i.e. never NULL (rb_get_new_extent abort()s on failure anyway)",
-  "BOUNDED: bitmap->real_end - bitmap->start < 2^16 (offsets are 64-bit in the code and in the harness; the cap only narrows the values, chosen because the SAT proof of the ordering lemmas is the bottleneck)",
-  "range inside [start, real_end], count >= 1; rb_remove_extent is called directly with offsets relative to bitmap->start (rb_unmark_bmap / rb_unmark_bmap_extent only subtract bitmap->start, see rb_wrappers)",
-  "SCENARIO trunc: no extent lies entirely inside the range and the range does not lie strictly inside an extent (extents are only shortened: tail, head, prefix, suffix; structure unchanged); the three remove scenarios partition the input space",
-  "ext2fs_rb_erase is NOT abstracted: its contract is REQUIRES(false); the obligation that no call is reachable in this scenario is checked at every call site",
-  "rb_insert_extent is NOT abstracted: its contract is REQUIRES(false); the obligation that no call is reachable in this scenario is checked at every call site"
- ],
+ "sources": ["lib/ext2fs/rbtree.c"],
+ "functions": ["lib/ext2fs/blkmap64_rb.c:rb_remove_extent", "lib/ext2fs/blkmap64_rb.c:rb_free_extent", "lib/ext2fs/blkmap64_rb.c:rb_unmark_bmap", "lib/ext2fs/blkmap64_rb.c:rb_unmark_bmap_extent"],
+ "assumes": ["BOUNDED stand-in, not counted as proved: the tree has exactly 1 extents (sorted, disjoint, non-adjacent, count > 0) in every red-black shape of that size; wcursor/rcursor NULL or any node, rcursor_next NULL or the successor of rcursor (any node if rcursor is NULL)", "allocation does not fail: ext2fs.h is compiled with its own hook EXT2_CUSTOM_MEMORY_ROUTINES and ext2fs_get_mem/ext2fs_free_mem are the trivial malloc/free stubs of rb_common.h (typed pointer store instead of memcpy); malloc is __CPROVER_allocate, i.e. never NULL (rb_get_new_extent abort()s on failure anyway)", "BOUNDED: bitmap->real_end - bitmap->start < 2^16 (offsets are 64-bit in the code and in the harness; the cap only narrows the values, chosen because the SAT proof of the ordering lemmas is the bottleneck)", "range inside [start, real_end], count >= 1; rb_remove_extent is called directly with offsets relative to bitmap->start (rb_unmark_bmap / rb_unmark_bmap_extent only subtract bitmap->start, see rb_wrappers)", "SCENARIO trunc: no extent lies entirely inside the range and the range does not lie strictly inside an extent (extents are only shortened: tail, head, prefix, suffix; structure unchanged); the three remove scenarios partition the input space", "ext2fs_rb_erase is NOT abstracted: its contract is REQUIRES(false); the obligation that no call is reachable in this scenario is checked at every call site", "rb_insert_extent is NOT abstracted: its contract is REQUIRES(false); the obligation that no call is reachable in this scenario is checked at every call site"],
  "backend": "minisat",
  "no_cross_check": true,
  "native": true,
- "cbmc_flags": [
-  "--object-bits",
-  "10"
- ],
- "unwindset": {
-  "rb_remove_extent.0": 3,
-  "rb_remove_extent.1": 3,
-  "ext2fs_rb_next.0": 2,
-  "ext2fs_rb_next.1": 2
- },
- "replace": [
-  "ext2fs_rb_erase",
-  "rb_insert_extent"
- ],
+ "cbmc_flags": ["--object-bits", "10"],
+ "unwindset": {"rb_remove_extent.0": 3, "rb_remove_extent.1": 3, "ext2fs_rb_next.0": 2, "ext2fs_rb_next.1": 2},
+ "replace": ["ext2fs_rb_erase", "rb_insert_extent"],
  "timeout": 300
 }
 */
 /* VERIF-UNIT
 {
  "name": "rb_remove_extent_trunc_b2",
- "props": [
-  "C16"
- ],
+ "props": ["C16"],
  "level": "B(2)",
  "tier": "thorough",
  "harness": "h_rb_remove",
- "defines": [
-  "EXT2_CUSTOM_MEMORY_ROUTINES",
-  "RB_N=2",
-  "RB_NEW=0",
-  "RB_BITS=16",
-  "RB_SCEN=1"
- ],
+ "defines": ["EXT2_CUSTOM_MEMORY_ROUTINES", "RB_N=2", "RB_NEW=0", "RB_BITS=16", "RB_SCEN=1"],
  "unwind": 9,
  "unwind_reason": "BOUNDED: a tree of at most 2 nodes has height <= 2, so every descent / successor / predecessor loop of blkmap64_rb.c and rbtree.c runs at most that often (+1 for the exit test), the neighbour loops at most once per node; rebalancing loops climb at most one level per round; harness loops have constant bounds <= 8 (global unwind 9). Every bound is confirmed by an unwinding assertion.",
- "sources": [
-  "lib/ext2fs/rbtree.c"
- ],
- "functions": [
-  "lib/ext2fs/blkmap64_rb.c:rb_remove_extent",
-  "lib/ext2fs/blkmap64_rb.c:rb_free_extent",
-  "lib/ext2fs/blkmap64_rb.c:rb_unmark_bmap",
-  "lib/ext2fs/blkmap64_rb.c:rb_unmark_bmap_extent"
- ],
- "assumes": [
-  "BOUNDED stand-in, not counted as proved: the tree has exactly 2 extents (sorted, disjoint, non-adjacent, count > 0) in every red-black shape of that size; wcursor/rcursor NULL or any node, rcursor_next NULL or the successor of rcursor (any node if rcursor is NULL)",
-  "allocation does not fail: ext2fs.h is compiled with its own hook EXT2_CUSTOM_MEMORY_ROUTINES and ext2fs_get_mem/ext2fs_free_mem are the trivial malloc/free stubs of rb_common.h (typed pointer store instead of memcpy); malloc is __CPROVER_allocate, i.e. never NULL (rb_get_new_extent abort()s on failure anyway)",
-  "BOUNDED: bitmap->real_end - bitmap->start < 2^16 (offsets are 64-bit in the code and in the harness; the cap only narrows the values, chosen because the SAT proof of the ordering lemmas is the bottleneck)",
-  "range inside [start, real_end], count >= 1; rb_remove_extent is called directly with offsets relative to bitmap->start (rb_unmark_bmap / rb_unmark_bmap_extent only subtract bitmap->start, see rb_wrappers)",
-  "SCENARIO trunc: no extent lies entirely inside the range and the range does not lie strictly inside an extent (extents are only shortened: tail, head, prefix, suffix; structure unchanged); the three remove scenarios partition the input space",
-  "ext2fs_rb_erase is NOT abstracted: its contract is REQUIRES(false); the obligation that no call is reachable in this scenario is checked at every call site",
-  "rb_insert_extent is NOT abstracted: its contract is REQUIRES(false); the obligation that no call is reachable in this scenario is checked at every call site"
- ],
+ "sources": ["lib/ext2fs/rbtree.c"],
+ "functions": ["lib/ext2fs/blkmap64_rb.c:rb_remove_extent", "lib/ext2fs/blkmap64_rb.c:rb_free_extent", "lib/ext2fs/blkmap64_rb.c:rb_unmark_bmap", "lib/ext2fs/blkmap64_rb.c:rb_unmark_bmap_extent"],
+ "assumes": ["BOUNDED stand-in, not counted as proved: the tree has exactly 2 extents (sorted, disjoint, non-adjacent, count > 0) in every red-black shape of that size; wcursor/rcursor NULL or any node, rcursor_next NULL or the successor of rcursor (any node if rcursor is NULL)", "allocation does not fail: ext2fs.h is compiled with its own hook EXT2_CUSTOM_MEMORY_ROUTINES and ext2fs_get_mem/ext2fs_free_mem are the trivial malloc/free stubs of rb_common.h (typed pointer store instead of memcpy); malloc is __CPROVER_allocate, i.e. never NULL (rb_get_new_extent abort()s on failure anyway)", "BOUNDED: bitmap->real_end - bitmap->start < 2^16 (offsets are 64-bit in the code and in the harness; the cap only narrows the values, chosen because the SAT proof of the ordering lemmas is the bottleneck)", "range inside [start, real_end], count >= 1; rb_remove_extent is called directly with offsets relative to bitmap->start (rb_unmark_bmap / rb_unmark_bmap_extent only subtract bitmap->start, see rb_wrappers)", "SCENARIO trunc: no extent lies entirely inside the range and the range does not lie strictly inside an extent (extents are only shortened: tail, head, prefix, suffix; structure unchanged); the three remove scenarios partition the input space", "ext2fs_rb_erase is NOT abstracted: its contract is REQUIRES(false); the obligation that no call is reachable in this scenario is checked at every call site", "rb_insert_extent is NOT abstracted: its contract is REQUIRES(false); the obligation that no call is reachable in this scenario is checked at every call site"],
  "backend": "minisat",
  "no_cross_check": true,
  "native": true,
- "cbmc_flags": [
-  "--object-bits",
-  "10"
- ],
- "unwindset": {
-  "rb_remove_extent.0": 4,
-  "rb_remove_extent.1": 4,
-  "ext2fs_rb_next.0": 3,
-  "ext2fs_rb_next.1": 3
- },
- "replace": [
-  "ext2fs_rb_erase",
-  "rb_insert_extent"
- ],
+ "cbmc_flags": ["--object-bits", "10"],
+ "unwindset": {"rb_remove_extent.0": 4, "rb_remove_extent.1": 4, "ext2fs_rb_next.0": 3, "ext2fs_rb_next.1": 3},
+ "replace": ["ext2fs_rb_erase", "rb_insert_extent"],
  "timeout": 1200
 }
 */
 /* VERIF-UNIT
 {
  "name": "rb_remove_extent_trunc_b3",
- "props": [
-  "C16"
- ],
+ "props": ["C16"],
  "level": "B(3)",
  "tier": "thorough",
  "harness": "h_rb_remove",
- "defines": [
-  "EXT2_CUSTOM_MEMORY_ROUTINES",
-  "RB_N=3",
-  "RB_NEW=0",
-  "RB_BITS=16",
-  "RB_SCEN=1"
- ],
+ "defines": ["EXT2_CUSTOM_MEMORY_ROUTINES", "RB_N=3", "RB_NEW=0", "RB_BITS=16", "RB_SCEN=1"],
  "unwind": 9,
  "unwind_reason": "BOUNDED: a tree of at most 3 nodes has height <= 2, so every descent / successor / predecessor loop of blkmap64_rb.c and rbtree.c runs at most that often (+1 for the exit test), the neighbour loops at most once per node; rebalancing loops climb at most one level per round; harness loops have constant bounds <= 8 (global unwind 9). Every bound is confirmed by an unwinding assertion.",
- "sources": [
-  "lib/ext2fs/rbtree.c"
- ],
- "functions": [
-  "lib/ext2fs/blkmap64_rb.c:rb_remove_extent",
-  "lib/ext2fs/blkmap64_rb.c:rb_free_extent",
-  "lib/ext2fs/blkmap64_rb.c:rb_unmark_bmap",
-  "lib/ext2fs/blkmap64_rb.c:rb_unmark_bmap_extent"
- ],
- "assumes": [
-  "BOUNDED stand-in, not counted as proved: the tree has exactly 3 extents (sorted, disjoint, non-adjacent, count > 0) in every red-black shape of that size; wcursor/rcursor NULL or any node, rcursor_next NULL or the successor of rcursor (any node if rcursor is NULL)",
-  "allocation does not fail: ext2fs.h is compiled with its own hook EXT2_CUSTOM_MEMORY_ROUTINES and ext2fs_get_mem/ext2fs_free_mem are the trivial malloc/free stubs of rb_common.h (typed pointer store instead of memcpy); malloc is __CPROVER_allocate, i.e. never NULL (rb_get_new_extent abort()s on failure anyway)",
-  "BOUNDED: bitmap->real_end - bitmap->start < 2^16 (offsets are 64-bit in the code and in the harness; the cap only narrows the values, chosen because the SAT proof of the ordering lemmas is the bottleneck)",
-  "range inside [start, real_end], count >= 1; rb_remove_extent is called directly with offsets relative to bitmap->start (rb_unmark_bmap / rb_unmark_bmap_extent only subtract bitmap->start, see rb_wrappers)",
-  "SCENARIO trunc: no extent lies entirely inside the range and the range does not lie strictly inside an extent (extents are only shortened: tail, head, prefix, suffix; structure unchanged); the three remove scenarios partition the input space",
-  "ext2fs_rb_erase is NOT abstracted: its contract is REQUIRES(false); the obligation that no call is reachable in this scenario is checked at every call site",
-  "rb_insert_extent is NOT abstracted: its contract is REQUIRES(false); the obligation that no call is reachable in this scenario is checked at every call site"
- ],
+ "sources": ["lib/ext2fs/rbtree.c"],
+ "functions": ["lib/ext2fs/blkmap64_rb.c:rb_remove_extent", "lib/ext2fs/blkmap64_rb.c:rb_free_extent", "lib/ext2fs/blkmap64_rb.c:rb_unmark_bmap", "lib/ext2fs/blkmap64_rb.c:rb_unmark_bmap_extent"],
+ "assumes": ["BOUNDED stand-in, not counted as proved: the tree has exactly 3 extents (sorted, disjoint, non-adjacent, count > 0) in every red-black shape of that size; wcursor/rcursor NULL or any node, rcursor_next NULL or the successor of rcursor (any node if rcursor is NULL)", "allocation does not fail: ext2fs.h is compiled with its own hook EXT2_CUSTOM_MEMORY_ROUTINES and ext2fs_get_mem/ext2fs_free_mem are the trivial malloc/free stubs of rb_common.h (typed pointer store instead of memcpy); malloc is __CPROVER_allocate, i.e. never NULL (rb_get_new_extent abort()s on failure anyway)", "BOUNDED: bitmap->real_end - bitmap->start < 2^16 (offsets are 64-bit in the code and in the harness; the cap only narrows the values, chosen because the SAT proof of the ordering lemmas is the bottleneck)", "range inside [start, real_end], count >= 1; rb_remove_extent is called directly with offsets relative to bitmap->start (rb_unmark_bmap / rb_unmark_bmap_extent only subtract bitmap->start, see rb_wrappers)", "SCENARIO trunc: no extent lies entirely inside the range and the range does not lie strictly inside an extent (extents are only shortened: tail, head, prefix, suffix; structure unchanged); the three remove scenarios partition the input space", "ext2fs_rb_erase is NOT abstracted: its contract is REQUIRES(false); the obligation that no call is reachable in this scenario is checked at every call site", "rb_insert_extent is NOT abstracted: its contract is REQUIRES(false); the obligation that no call is reachable in this scenario is checked at every call site"],
  "backend": "minisat",
  "no_cross_check": true,
  "native": true,
- "cbmc_flags": [
-  "--object-bits",
-  "10"
- ],
- "unwindset": {
-  "rb_remove_extent.0": 4,
-  "rb_remove_extent.1": 5,
-  "ext2fs_rb_next.0": 3,
-  "ext2fs_rb_next.1": 3
- },
- "replace": [
-  "ext2fs_rb_erase",
-  "rb_insert_extent"
- ],
+ "cbmc_flags": ["--object-bits", "10"],
+ "unwindset": {"rb_remove_extent.0": 4, "rb_remove_extent.1": 5, "ext2fs_rb_next.0": 3, "ext2fs_rb_next.1": 3},
+ "replace": ["ext2fs_rb_erase", "rb_insert_extent"],
  "timeout": 1200
 }
 */
 /* VERIF-UNIT
 {
  "name": "rb_remove_extent_split_b1",
- "props": [
-  "C16"
- ],
+ "props": ["C16"],
  "level": "B(1)",
  "tier": "quick",
  "harness": "h_rb_remove",
- "defines": [
-  "EXT2_CUSTOM_MEMORY_ROUTINES",
-  "RB_N=1",
-  "RB_NEW=1",
-  "RB_BITS=16",
-  "RB_SCEN=2"
- ],
+ "defines": ["EXT2_CUSTOM_MEMORY_ROUTINES", "RB_N=1", "RB_NEW=1", "RB_BITS=16", "RB_SCEN=2"],
  "unwind": 9,
  "unwind_reason": "BOUNDED: a tree of at most 2 nodes has height <= 2, so every descent / successor / predecessor loop of blkmap64_rb.c and rbtree.c runs at most that often (+1 for the exit test), the neighbour loops at most once per node; rebalancing loops climb at most one level per round; harness loops have constant bounds <= 8 (global unwind 9). Every bound is confirmed by an unwinding assertion.",
- "sources": [
-  "lib/ext2fs/rbtree.c"
- ],
- "functions": [
-  "lib/ext2fs/blkmap64_rb.c:rb_remove_extent",
-  "lib/ext2fs/blkmap64_rb.c:rb_free_extent",
-  "lib/ext2fs/blkmap64_rb.c:rb_unmark_bmap",
-  "lib/ext2fs/blkmap64_rb.c:rb_unmark_bmap_extent",
-  "lib/ext2fs/blkmap64_rb.c:rb_insert_extent"
- ],
- "assumes": [
-  "BOUNDED stand-in, not counted as proved: the tree has exactly 1 extents (sorted, disjoint, non-adjacent, count > 0) in every red-black shape of that size; wcursor/rcursor NULL or any node, rcursor_next NULL or the successor of rcursor (any node if rcursor is NULL)",
-  "allocation does not fail: ext2fs.h is compiled with its own hook EXT2_CUSTOM_MEMORY_ROUTINES and ext2fs_get_mem/ext2fs_free_mem are the trivial malloc/free stubs of rb_common.h (typed pointer store instead of memcpy); malloc is __CPROVER_allocate, i.e. never NULL (rb_get_new_extent abort()s on failure anyway)",
-  "BOUNDED: bitmap->real_end - bitmap->start < 2^16 (offsets are 64-bit in the code and in the harness; the cap only narrows the values, chosen because the SAT proof of the ordering lemmas is the bottleneck)",
-  "range inside [start, real_end], count >= 1; rb_remove_extent is called directly with offsets relative to bitmap->start (rb_unmark_bmap / rb_unmark_bmap_extent only subtract bitmap->start, see rb_wrappers)",
-  "SCENARIO split: the range lies strictly inside one extent (rb_insert_extent creates the second half; nothing erased); the three remove scenarios partition the input space",
-  "ext2fs_rb_erase is NOT abstracted: its contract is REQUIRES(false); the obligation that no call is reachable in this scenario is checked at every call site"
- ],
+ "sources": ["lib/ext2fs/rbtree.c"],
+ "functions": ["lib/ext2fs/blkmap64_rb.c:rb_remove_extent", "lib/ext2fs/blkmap64_rb.c:rb_free_extent", "lib/ext2fs/blkmap64_rb.c:rb_unmark_bmap", "lib/ext2fs/blkmap64_rb.c:rb_unmark_bmap_extent", "lib/ext2fs/blkmap64_rb.c:rb_insert_extent"],
+ "assumes": ["BOUNDED stand-in, not counted as proved: the tree has exactly 1 extents (sorted, disjoint, non-adjacent, count > 0) in every red-black shape of that size; wcursor/rcursor NULL or any node, rcursor_next NULL or the successor of rcursor (any node if rcursor is NULL)", "allocation does not fail: ext2fs.h is compiled with its own hook EXT2_CUSTOM_MEMORY_ROUTINES and ext2fs_get_mem/ext2fs_free_mem are the trivial malloc/free stubs of rb_common.h (typed pointer store instead of memcpy); malloc is __CPROVER_allocate, i.e. never NULL (rb_get_new_extent abort()s on failure anyway)", "BOUNDED: bitmap->real_end - bitmap->start < 2^16 (offsets are 64-bit in the code and in the harness; the cap only narrows the values, chosen because the SAT proof of the ordering lemmas is the bottleneck)", "range inside [start, real_end], count >= 1; rb_remove_extent is called directly with offsets relative to bitmap->start (rb_unmark_bmap / rb_unmark_bmap_extent only subtract bitmap->start, see rb_wrappers)", "SCENARIO split: the range lies strictly inside one extent (rb_insert_extent creates the second half; nothing erased); the three remove scenarios partition the input space", "ext2fs_rb_erase is NOT abstracted: its contract is REQUIRES(false); the obligation that no call is reachable in this scenario is checked at every call site"],
  "backend": "minisat",
  "no_cross_check": true,
  "native": true,
- "cbmc_flags": [
-  "--object-bits",
-  "10"
- ],
- "unwindset": {
-  "rb_remove_extent.0": 2,
-  "rb_remove_extent.1": 1,
-  "rb_insert_extent.0": 2,
-  "rb_insert_extent.1": 2,
-  "ext2fs_rb_next.0": 3,
-  "ext2fs_rb_next.1": 3,
-  "ext2fs_rb_prev.0": 3,
-  "ext2fs_rb_prev.1": 3,
-  "ext2fs_rb_insert_color.0": 1
- },
- "replace": [
-  "ext2fs_rb_erase"
- ],
+ "cbmc_flags": ["--object-bits", "10"],
+ "unwindset": {"rb_remove_extent.0": 2, "rb_remove_extent.1": 1, "rb_insert_extent.0": 2, "rb_insert_extent.1": 2, "ext2fs_rb_next.0": 3, "ext2fs_rb_next.1": 3, "ext2fs_rb_prev.0": 3, "ext2fs_rb_prev.1": 3, "ext2fs_rb_insert_color.0": 1},
+ "replace": ["ext2fs_rb_erase"],
  "timeout": 300
 }
 */
 /* VERIF-UNIT
 {
  "name": "rb_remove_extent_split_b2",
- "props": [
-  "C16"
- ],
+ "props": ["C16"],
  "level": "B(2)",
  "tier": "thorough",
  "harness": "h_rb_remove",
- "defines": [
-  "EXT2_CUSTOM_MEMORY_ROUTINES",
-  "RB_N=2",
-  "RB_NEW=1",
-  "RB_BITS=16",
-  "RB_SCEN=2"
- ],
+ "defines": ["EXT2_CUSTOM_MEMORY_ROUTINES", "RB_N=2", "RB_NEW=1", "RB_BITS=16", "RB_SCEN=2"],
  "unwind": 9,
  "unwind_reason": "BOUNDED: a tree of at most 3 nodes has height <= 2, so every descent / successor / predecessor loop of blkmap64_rb.c and rbtree.c runs at most that often (+1 for the exit test), the neighbour loops at most once per node; rebalancing loops climb at most one level per round; harness loops have constant bounds <= 8 (global unwind 9). Every bound is confirmed by an unwinding assertion.",
- "sources": [
-  "lib/ext2fs/rbtree.c"
- ],
- "functions": [
-  "lib/ext2fs/blkmap64_rb.c:rb_remove_extent",
-  "lib/ext2fs/blkmap64_rb.c:rb_free_extent",
-  "lib/ext2fs/blkmap64_rb.c:rb_unmark_bmap",
-  "lib/ext2fs/blkmap64_rb.c:rb_unmark_bmap_extent",
-  "lib/ext2fs/blkmap64_rb.c:rb_insert_extent"
- ],
- "assumes": [
-  "BOUNDED stand-in, not counted as proved: the tree has exactly 2 extents (sorted, disjoint, non-adjacent, count > 0) in every red-black shape of that size; wcursor/rcursor NULL or any node, rcursor_next NULL or the successor of rcursor (any node if rcursor is NULL)",
-  "allocation does not fail: ext2fs.h is compiled with its own hook EXT2_CUSTOM_MEMORY_ROUTINES and ext2fs_get_mem/ext2fs_free_mem are the trivial malloc/free stubs of rb_common.h (typed pointer store instead of memcpy); malloc is __CPROVER_allocate, i.e. never NULL (rb_get_new_extent abort()s on failure anyway)",
-  "BOUNDED: bitmap->real_end - bitmap->start < 2^16 (offsets are 64-bit in the code and in the harness; the cap only narrows the values, chosen because the SAT proof of the ordering lemmas is the bottleneck)",
-  "range inside [start, real_end], count >= 1; rb_remove_extent is called directly with offsets relative to bitmap->start (rb_unmark_bmap / rb_unmark_bmap_extent only subtract bitmap->start, see rb_wrappers)",
-  "SCENARIO split: the range lies strictly inside one extent (rb_insert_extent creates the second half; nothing erased); the three remove scenarios partition the input space",
-  "ext2fs_rb_erase is NOT abstracted: its contract is REQUIRES(false); the obligation that no call is reachable in this scenario is checked at every call site"
- ],
+ "sources": ["lib/ext2fs/rbtree.c"],
+ "functions": ["lib/ext2fs/blkmap64_rb.c:rb_remove_extent", "lib/ext2fs/blkmap64_rb.c:rb_free_extent", "lib/ext2fs/blkmap64_rb.c:rb_unmark_bmap", "lib/ext2fs/blkmap64_rb.c:rb_unmark_bmap_extent", "lib/ext2fs/blkmap64_rb.c:rb_insert_extent"],
+ "assumes": ["BOUNDED stand-in, not counted as proved: the tree has exactly 2 extents (sorted, disjoint, non-adjacent, count > 0) in every red-black shape of that size; wcursor/rcursor NULL or any node, rcursor_next NULL or the successor of rcursor (any node if rcursor is NULL)", "allocation does not fail: ext2fs.h is compiled with its own hook EXT2_CUSTOM_MEMORY_ROUTINES and ext2fs_get_mem/ext2fs_free_mem are the trivial malloc/free stubs of rb_common.h (typed pointer store instead of memcpy); malloc is __CPROVER_allocate, i.e. never NULL (rb_get_new_extent abort()s on failure anyway)", "BOUNDED: bitmap->real_end - bitmap->start < 2^16 (offsets are 64-bit in the code and in the harness; the cap only narrows the values, chosen because the SAT proof of the ordering lemmas is the bottleneck)", "range inside [start, real_end], count >= 1; rb_remove_extent is called directly with offsets relative to bitmap->start (rb_unmark_bmap / rb_unmark_bmap_extent only subtract bitmap->start, see rb_wrappers)", "SCENARIO split: the range lies strictly inside one extent (rb_insert_extent creates the second half; nothing erased); the three remove scenarios partition the input space", "ext2fs_rb_erase is NOT abstracted: its contract is REQUIRES(false); the obligation that no call is reachable in this scenario is checked at every call site"],
  "backend": "minisat",
  "no_cross_check": true,
  "native": true,
- "cbmc_flags": [
-  "--object-bits",
-  "10"
- ],
- "unwindset": {
-  "rb_remove_extent.0": 3,
-  "rb_remove_extent.1": 1,
-  "rb_insert_extent.0": 3,
-  "rb_insert_extent.1": 2,
-  "ext2fs_rb_next.0": 3,
-  "ext2fs_rb_next.1": 3,
-  "ext2fs_rb_prev.0": 3,
-  "ext2fs_rb_prev.1": 3,
-  "ext2fs_rb_insert_color.0": 2
- },
- "replace": [
-  "ext2fs_rb_erase"
- ],
+ "cbmc_flags": ["--object-bits", "10"],
+ "unwindset": {"rb_remove_extent.0": 3, "rb_remove_extent.1": 1, "rb_insert_extent.0": 3, "rb_insert_extent.1": 2, "ext2fs_rb_next.0": 3, "ext2fs_rb_next.1": 3, "ext2fs_rb_prev.0": 3, "ext2fs_rb_prev.1": 3, "ext2fs_rb_insert_color.0": 2},
+ "replace": ["ext2fs_rb_erase"],
  "timeout": 1200
 }
 */
 /* VERIF-UNIT
 {
  "name": "rb_remove_extent_delete_b1",
- "props": [
-  "C16"
- ],
+ "props": ["C16"],
  "level": "B(1)",
  "tier": "quick",
  "harness": "h_rb_remove",
- "defines": [
-  "EXT2_CUSTOM_MEMORY_ROUTINES",
-  "RB_N=1",
-  "RB_NEW=0",
-  "RB_BITS=16",
-  "RB_SCEN=3"
- ],
+ "defines": ["EXT2_CUSTOM_MEMORY_ROUTINES", "RB_N=1", "RB_NEW=0", "RB_BITS=16", "RB_SCEN=3"],
  "unwind": 9,
  "unwind_reason": "BOUNDED: a tree of at most 1 nodes has height <= 1, so every descent / successor / predecessor loop of blkmap64_rb.c and rbtree.c runs at most that often (+1 for the exit test), the neighbour loops at most once per node; rebalancing loops climb at most one level per round; harness loops have constant bounds <= 8 (global unwind 9). Every bound is confirmed by an unwinding assertion.",
- "sources": [
-  "lib/ext2fs/rbtree.c"
- ],
- "functions": [
-  "lib/ext2fs/blkmap64_rb.c:rb_remove_extent",
-  "lib/ext2fs/blkmap64_rb.c:rb_free_extent",
-  "lib/ext2fs/blkmap64_rb.c:rb_unmark_bmap",
-  "lib/ext2fs/blkmap64_rb.c:rb_unmark_bmap_extent"
- ],
- "assumes": [
-  "BOUNDED stand-in, not counted as proved: the tree has exactly 1 extents (sorted, disjoint, non-adjacent, count > 0) in every red-black shape of that size; wcursor/rcursor NULL or any node, rcursor_next NULL or the successor of rcursor (any node if rcursor is NULL)",
-  "allocation does not fail: ext2fs.h is compiled with its own hook EXT2_CUSTOM_MEMORY_ROUTINES and ext2fs_get_mem/ext2fs_free_mem are the trivial malloc/free stubs of rb_common.h (typed pointer store instead of memcpy); malloc is __CPROVER_allocate, i.e. never NULL (rb_get_new_extent abort()s on failure anyway)",
-  "BOUNDED: bitmap->real_end - bitmap->start < 2^16 (offsets are 64-bit in the code and in the harness; the cap only narrows the values, chosen because the SAT proof of the ordering lemmas is the bottleneck)",
-  "range inside [start, real_end], count >= 1; rb_remove_extent is called directly with offsets relative to bitmap->start (rb_unmark_bmap / rb_unmark_bmap_extent only subtract bitmap->start, see rb_wrappers)",
-  "SCENARIO delete: at least one extent lies entirely inside the range (erase; rb_insert_extent unreachable); the three remove scenarios partition the input space",
-  "rb_insert_extent is NOT abstracted: its contract is REQUIRES(false); the obligation that no call is reachable in this scenario is checked at every call site"
- ],
+ "sources": ["lib/ext2fs/rbtree.c"],
+ "functions": ["lib/ext2fs/blkmap64_rb.c:rb_remove_extent", "lib/ext2fs/blkmap64_rb.c:rb_free_extent", "lib/ext2fs/blkmap64_rb.c:rb_unmark_bmap", "lib/ext2fs/blkmap64_rb.c:rb_unmark_bmap_extent"],
+ "assumes": ["BOUNDED stand-in, not counted as proved: the tree has exactly 1 extents (sorted, disjoint, non-adjacent, count > 0) in every red-black shape of that size; wcursor/rcursor NULL or any node, rcursor_next NULL or the successor of rcursor (any node if rcursor is NULL)", "allocation does not fail: ext2fs.h is compiled with its own hook EXT2_CUSTOM_MEMORY_ROUTINES and ext2fs_get_mem/ext2fs_free_mem are the trivial malloc/free stubs of rb_common.h (typed pointer store instead of memcpy); malloc is __CPROVER_allocate, i.e. never NULL (rb_get_new_extent abort()s on failure anyway)", "BOUNDED: bitmap->real_end - bitmap->start < 2^16 (offsets are 64-bit in the code and in the harness; the cap only narrows the values, chosen because the SAT proof of the ordering lemmas is the bottleneck)", "range inside [start, real_end], count >= 1; rb_remove_extent is called directly with offsets relative to bitmap->start (rb_unmark_bmap / rb_unmark_bmap_extent only subtract bitmap->start, see rb_wrappers)", "SCENARIO delete: at least one extent lies entirely inside the range (erase; rb_insert_extent unreachable); the three remove scenarios partition the input space", "rb_insert_extent is NOT abstracted: its contract is REQUIRES(false); the obligation that no call is reachable in this scenario is checked at every call site"],
  "backend": "minisat",
  "no_cross_check": true,
  "native": true,
- "cbmc_flags": [
-  "--object-bits",
-  "10"
- ],
- "unwindset": {
-  "rb_remove_extent.0": 3,
-  "rb_remove_extent.1": 3,
-  "ext2fs_rb_next.0": 2,
-  "ext2fs_rb_next.1": 2,
-  "ext2fs_rb_erase.0": 1,
-  "__rb_erase_color.0": 1
- },
- "replace": [
-  "rb_insert_extent"
- ],
+ "cbmc_flags": ["--object-bits", "10"],
+ "unwindset": {"rb_remove_extent.0": 3, "rb_remove_extent.1": 3, "ext2fs_rb_next.0": 2, "ext2fs_rb_next.1": 2, "ext2fs_rb_erase.0": 1, "__rb_erase_color.0": 1},
+ "replace": ["rb_insert_extent"],
  "timeout": 300
 }
 */
 /* VERIF-UNIT
 {
  "name": "rb_remove_extent_delete_b2",
- "props": [
-  "C16"
- ],
+ "props": ["C16"],
  "level": "B(2)",
  "tier": "thorough",
  "harness": "h_rb_remove",
- "defines": [
-  "EXT2_CUSTOM_MEMORY_ROUTINES",
-  "RB_N=2",
-  "RB_NEW=0",
-  "RB_BITS=16",
-  "RB_SCEN=3"
- ],
+ "defines": ["EXT2_CUSTOM_MEMORY_ROUTINES", "RB_N=2", "RB_NEW=0", "RB_BITS=16", "RB_SCEN=3"],
  "unwind": 9,
  "unwind_reason": "BOUNDED: a tree of at most 2 nodes has height <= 2, so every descent / successor / predecessor loop of blkmap64_rb.c and rbtree.c runs at most that often (+1 for the exit test), the neighbour loops at most once per node; rebalancing loops climb at most one level per round; harness loops have constant bounds <= 8 (global unwind 9). Every bound is confirmed by an unwinding assertion.",
- "sources": [
-  "lib/ext2fs/rbtree.c"
- ],
- "functions": [
-  "lib/ext2fs/blkmap64_rb.c:rb_remove_extent",
-  "lib/ext2fs/blkmap64_rb.c:rb_free_extent",
-  "lib/ext2fs/blkmap64_rb.c:rb_unmark_bmap",
-  "lib/ext2fs/blkmap64_rb.c:rb_unmark_bmap_extent"
- ],
- "assumes": [
-  "BOUNDED stand-in, not counted as proved: the tree has exactly 2 extents (sorted, disjoint, non-adjacent, count > 0) in every red-black shape of that size; wcursor/rcursor NULL or any node, rcursor_next NULL or the successor of rcursor (any node if rcursor is NULL)",
-  "allocation does not fail: ext2fs.h is compiled with its own hook EXT2_CUSTOM_MEMORY_ROUTINES and ext2fs_get_mem/ext2fs_free_mem are the trivial malloc/free stubs of rb_common.h (typed pointer store instead of memcpy); malloc is __CPROVER_allocate, i.e. never NULL (rb_get_new_extent abort()s on failure anyway)",
-  "BOUNDED: bitmap->real_end - bitmap->start < 2^16 (offsets are 64-bit in the code and in the harness; the cap only narrows the values, chosen because the SAT proof of the ordering lemmas is the bottleneck)",
-  "range inside [start, real_end], count >= 1; rb_remove_extent is called directly with offsets relative to bitmap->start (rb_unmark_bmap / rb_unmark_bmap_extent only subtract bitmap->start, see rb_wrappers)",
-  "SCENARIO delete: at least one extent lies entirely inside the range (erase; rb_insert_extent unreachable); the three remove scenarios partition the input space",
-  "rb_insert_extent is NOT abstracted: its contract is REQUIRES(false); the obligation that no call is reachable in this scenario is checked at every call site"
- ],
+ "sources": ["lib/ext2fs/rbtree.c"],
+ "functions": ["lib/ext2fs/blkmap64_rb.c:rb_remove_extent", "lib/ext2fs/blkmap64_rb.c:rb_free_extent", "lib/ext2fs/blkmap64_rb.c:rb_unmark_bmap", "lib/ext2fs/blkmap64_rb.c:rb_unmark_bmap_extent"],
+ "assumes": ["BOUNDED stand-in, not counted as proved: the tree has exactly 2 extents (sorted, disjoint, non-adjacent, count > 0) in every red-black shape of that size; wcursor/rcursor NULL or any node, rcursor_next NULL or the successor of rcursor (any node if rcursor is NULL)", "allocation does not fail: ext2fs.h is compiled with its own hook EXT2_CUSTOM_MEMORY_ROUTINES and ext2fs_get_mem/ext2fs_free_mem are the trivial malloc/free stubs of rb_common.h (typed pointer store instead of memcpy); malloc is __CPROVER_allocate, i.e. never NULL (rb_get_new_extent abort()s on failure anyway)", "BOUNDED: bitmap->real_end - bitmap->start < 2^16 (offsets are 64-bit in the code and in the harness; the cap only narrows the values, chosen because the SAT proof of the ordering lemmas is the bottleneck)", "range inside [start, real_end], count >= 1; rb_remove_extent is called directly with offsets relative to bitmap->start (rb_unmark_bmap / rb_unmark_bmap_extent only subtract bitmap->start, see rb_wrappers)", "SCENARIO delete: at least one extent lies entirely inside the range (erase; rb_insert_extent unreachable); the three remove scenarios partition the input space", "rb_insert_extent is NOT abstracted: its contract is REQUIRES(false); the obligation that no call is reachable in this scenario is checked at every call site"],
  "backend": "minisat",
  "no_cross_check": true,
  "native": true,
- "cbmc_flags": [
-  "--object-bits",
-  "10"
- ],
- "unwindset": {
-  "rb_remove_extent.0": 4,
-  "rb_remove_extent.1": 4,
-  "ext2fs_rb_next.0": 3,
-  "ext2fs_rb_next.1": 3,
-  "ext2fs_rb_erase.0": 1,
-  "__rb_erase_color.0": 1
- },
- "replace": [
-  "rb_insert_extent"
- ],
+ "cbmc_flags": ["--object-bits", "10"],
+ "unwindset": {"rb_remove_extent.0": 4, "rb_remove_extent.1": 4, "ext2fs_rb_next.0": 3, "ext2fs_rb_next.1": 3, "ext2fs_rb_erase.0": 1, "__rb_erase_color.0": 1},
+ "replace": ["rb_insert_extent"],
  "timeout": 1200
 }
 */
 /* VERIF-UNIT
 {
  "name": "rb_resize_bmap_keep_b1",
- "props": [
-  "C16"
- ],
+ "props": ["C16"],
  "level": "B(1)",
  "tier": "quick",
  "harness": "h_rb_resize",
- "defines": [
-  "EXT2_CUSTOM_MEMORY_ROUTINES",
-  "RB_N=1",
-  "RB_NEW=0",
-  "RB_BITS=16",
-  "RB_SCEN=1"
- ],
+ "defines": ["EXT2_CUSTOM_MEMORY_ROUTINES", "RB_N=1", "RB_NEW=0", "RB_BITS=16", "RB_SCEN=1"],
  "unwind": 9,
  "unwind_reason": "BOUNDED: a tree of at most 1 nodes has height <= 1, so every descent / successor / predecessor loop of blkmap64_rb.c and rbtree.c runs at most that often (+1 for the exit test), the neighbour loops at most once per node; rebalancing loops climb at most one level per round; harness loops have constant bounds <= 8 (global unwind 9). Every bound is confirmed by an unwinding assertion.",
- "sources": [
-  "lib/ext2fs/rbtree.c"
- ],
- "functions": [
-  "lib/ext2fs/blkmap64_rb.c:rb_resize_bmap",
-  "lib/ext2fs/blkmap64_rb.c:rb_truncate",
-  "lib/ext2fs/blkmap64_rb.c:rb_insert_extent"
- ],
- "assumes": [
-  "BOUNDED stand-in, not counted as proved: the tree has exactly 1 extents (sorted, disjoint, non-adjacent, count > 0) in every red-black shape of that size; wcursor/rcursor NULL or any node, rcursor_next NULL or the successor of rcursor (any node if rcursor is NULL)",
-  "allocation does not fail: ext2fs.h is compiled with its own hook EXT2_CUSTOM_MEMORY_ROUTINES and ext2fs_get_mem/ext2fs_free_mem are the trivial malloc/free stubs of rb_common.h (typed pointer store instead of memcpy); malloc is __CPROVER_allocate, i.e. never NULL (rb_get_new_extent abort()s on failure anyway)",
-  "BOUNDED: bitmap->real_end - bitmap->start < 2^16 (offsets are 64-bit in the code and in the harness; the cap only narrows the values, chosen because the SAT proof of the ordering lemmas is the bottleneck)",
-  "start <= new_end <= new_real_end, new_real_end - start below the same cap as real_end - start",
-  "SCENARIO keep: no extent starts behind min(old end, new end); there is no padding (new_end == new_real_end) or the extent holding bit new_end takes it up (structure unchanged); the four resize scenarios partition the input space",
-  "ext2fs_rb_erase is NOT abstracted: its contract is REQUIRES(false); the obligation that no call is reachable in this scenario is checked at every call site",
-  "ext2fs_rb_insert_color is NOT abstracted: its contract is REQUIRES(false); the obligation that no call is reachable in this scenario is checked at every call site"
- ],
+ "sources": ["lib/ext2fs/rbtree.c"],
+ "functions": ["lib/ext2fs/blkmap64_rb.c:rb_resize_bmap", "lib/ext2fs/blkmap64_rb.c:rb_truncate", "lib/ext2fs/blkmap64_rb.c:rb_insert_extent"],
+ "assumes": ["BOUNDED stand-in, not counted as proved: the tree has exactly 1 extents (sorted, disjoint, non-adjacent, count > 0) in every red-black shape of that size; wcursor/rcursor NULL or any node, rcursor_next NULL or the successor of rcursor (any node if rcursor is NULL)", "allocation does not fail: ext2fs.h is compiled with its own hook EXT2_CUSTOM_MEMORY_ROUTINES and ext2fs_get_mem/ext2fs_free_mem are the trivial malloc/free stubs of rb_common.h (typed pointer store instead of memcpy); malloc is __CPROVER_allocate, i.e. never NULL (rb_get_new_extent abort()s on failure anyway)", "BOUNDED: bitmap->real_end - bitmap->start < 2^16 (offsets are 64-bit in the code and in the harness; the cap only narrows the values, chosen because the SAT proof of the ordering lemmas is the bottleneck)", "start <= new_end <= new_real_end, new_real_end - start below the same cap as real_end - start", "SCENARIO keep: no extent starts behind min(old end, new end); there is no padding (new_end == new_real_end) or the extent holding bit new_end takes it up (structure unchanged); the four resize scenarios partition the input space", "ext2fs_rb_erase is NOT abstracted: its contract is REQUIRES(false); the obligation that no call is reachable in this scenario is checked at every call site", "ext2fs_rb_insert_color is NOT abstracted: its contract is REQUIRES(false); the obligation that no call is reachable in this scenario is checked at every call site"],
  "backend": "minisat",
  "no_cross_check": true,
  "native": true,
- "cbmc_flags": [
-  "--object-bits",
-  "10"
- ],
- "unwindset": {
-  "rb_truncate.0": 3,
-  "rb_insert_extent.0": 2,
-  "rb_insert_extent.1": 2,
-  "ext2fs_rb_next.0": 3,
-  "ext2fs_rb_next.1": 3,
-  "ext2fs_rb_prev.0": 3,
-  "ext2fs_rb_prev.1": 3,
-  "ext2fs_rb_last.0": 3
- },
- "replace": [
-  "ext2fs_rb_erase",
-  "ext2fs_rb_insert_color"
- ],
+ "cbmc_flags": ["--object-bits", "10"],
+ "unwindset": {"rb_truncate.0": 3, "rb_insert_extent.0": 2, "rb_insert_extent.1": 2, "ext2fs_rb_next.0": 3, "ext2fs_rb_next.1": 3, "ext2fs_rb_prev.0": 3, "ext2fs_rb_prev.1": 3, "ext2fs_rb_last.0": 3},
+ "replace": ["ext2fs_rb_erase", "ext2fs_rb_insert_color"],
  "timeout": 300
 }
 */
 /* VERIF-UNIT
 {
  "name": "rb_resize_bmap_keep_b2",
- "props": [
-  "C16"
- ],
+ "props": ["C16"],
  "level": "B(2)",
  "tier": "thorough",
  "harness": "h_rb_resize",
- "defines": [
-  "EXT2_CUSTOM_MEMORY_ROUTINES",
-  "RB_N=2",
-  "RB_NEW=0",
-  "RB_BITS=16",
-  "RB_SCEN=1"
- ],
+ "defines": ["EXT2_CUSTOM_MEMORY_ROUTINES", "RB_N=2", "RB_NEW=0", "RB_BITS=16", "RB_SCEN=1"],
  "unwind": 9,
  "unwind_reason": "BOUNDED: a tree of at most 2 nodes has height <= 2, so every descent / successor / predecessor loop of blkmap64_rb.c and rbtree.c runs at most that often (+1 for the exit test), the neighbour loops at most once per node; rebalancing loops climb at most one level per round; harness loops have constant bounds <= 8 (global unwind 9). Every bound is confirmed by an unwinding assertion.",
- "sources": [
-  "lib/ext2fs/rbtree.c"
- ],
- "functions": [
-  "lib/ext2fs/blkmap64_rb.c:rb_resize_bmap",
-  "lib/ext2fs/blkmap64_rb.c:rb_truncate",
-  "lib/ext2fs/blkmap64_rb.c:rb_insert_extent"
- ],
- "assumes": [
-  "BOUNDED stand-in, not counted as proved: the tree has exactly 2 extents (sorted, disjoint, non-adjacent, count > 0) in every red-black shape of that size; wcursor/rcursor NULL or any node, rcursor_next NULL or the successor of rcursor (any node if rcursor is NULL)",
-  "allocation does not fail: ext2fs.h is compiled with its own hook EXT2_CUSTOM_MEMORY_ROUTINES and ext2fs_get_mem/ext2fs_free_mem are the trivial malloc/free stubs of rb_common.h (typed pointer store instead of memcpy); malloc is __CPROVER_allocate, i.e. never NULL (rb_get_new_extent abort()s on failure anyway)",
-  "BOUNDED: bitmap->real_end - bitmap->start < 2^16 (offsets are 64-bit in the code and in the harness; the cap only narrows the values, chosen because the SAT proof of the ordering lemmas is the bottleneck)",
-  "start <= new_end <= new_real_end, new_real_end - start below the same cap as real_end - start",
-  "SCENARIO keep: no extent starts behind min(old end, new end); there is no padding (new_end == new_real_end) or the extent holding bit new_end takes it up (structure unchanged); the four resize scenarios partition the input space",
-  "ext2fs_rb_erase is NOT abstracted: its contract is REQUIRES(false); the obligation that no call is reachable in this scenario is checked at every call site",
-  "ext2fs_rb_insert_color is NOT abstracted: its contract is REQUIRES(false); the obligation that no call is reachable in this scenario is checked at every call site"
- ],
+ "sources": ["lib/ext2fs/rbtree.c"],
+ "functions": ["lib/ext2fs/blkmap64_rb.c:rb_resize_bmap", "lib/ext2fs/blkmap64_rb.c:rb_truncate", "lib/ext2fs/blkmap64_rb.c:rb_insert_extent"],
+ "assumes": ["BOUNDED stand-in, not counted as proved: the tree has exactly 2 extents (sorted, disjoint, non-adjacent, count > 0) in every red-black shape of that size; wcursor/rcursor NULL or any node, rcursor_next NULL or the successor of rcursor (any node if rcursor is NULL)", "allocation does not fail: ext2fs.h is compiled with its own hook EXT2_CUSTOM_MEMORY_ROUTINES and ext2fs_get_mem/ext2fs_free_mem are the trivial malloc/free stubs of rb_common.h (typed pointer store instead of memcpy); malloc is __CPROVER_allocate, i.e. never NULL (rb_get_new_extent abort()s on failure anyway)", "BOUNDED: bitmap->real_end - bitmap->start < 2^16 (offsets are 64-bit in the code and in the harness; the cap only narrows the values, chosen because the SAT proof of the ordering lemmas is the bottleneck)", "start <= new_end <= new_real_end, new_real_end - start below the same cap as real_end - start", "SCENARIO keep: no extent starts behind min(old end, new end); there is no padding (new_end == new_real_end) or the extent holding bit new_end takes it up (structure unchanged); the four resize scenarios partition the input space", "ext2fs_rb_erase is NOT abstracted: its contract is REQUIRES(false); the obligation that no call is reachable in this scenario is checked at every call site", "ext2fs_rb_insert_color is NOT abstracted: its contract is REQUIRES(false); the obligation that no call is reachable in this scenario is checked at every call site"],
  "backend": "minisat",
  "no_cross_check": true,
  "native": true,
- "cbmc_flags": [
-  "--object-bits",
-  "10"
- ],
- "unwindset": {
-  "rb_truncate.0": 3,
-  "rb_insert_extent.0": 3,
-  "rb_insert_extent.1": 2,
-  "ext2fs_rb_next.0": 3,
-  "ext2fs_rb_next.1": 3,
-  "ext2fs_rb_prev.0": 3,
-  "ext2fs_rb_prev.1": 3,
-  "ext2fs_rb_last.0": 3
- },
- "replace": [
-  "ext2fs_rb_erase",
-  "ext2fs_rb_insert_color"
- ],
+ "cbmc_flags": ["--object-bits", "10"],
+ "unwindset": {"rb_truncate.0": 3, "rb_insert_extent.0": 3, "rb_insert_extent.1": 2, "ext2fs_rb_next.0": 3, "ext2fs_rb_next.1": 3, "ext2fs_rb_prev.0": 3, "ext2fs_rb_prev.1": 3, "ext2fs_rb_last.0": 3},
+ "replace": ["ext2fs_rb_erase", "ext2fs_rb_insert_color"],
  "timeout": 1200
 }
 */
 /* VERIF-UNIT
 {
  "name": "rb_resize_bmap_keep_b3",
- "props": [
-  "C16"
- ],
+ "props": ["C16"],
  "level": "B(3)",
  "tier": "quick",
  "harness": "h_rb_resize",
- "defines": [
-  "EXT2_CUSTOM_MEMORY_ROUTINES",
-  "RB_N=3",
-  "RB_NEW=0",
-  "RB_BITS=16",
-  "RB_SCEN=1"
- ],
+ "defines": ["EXT2_CUSTOM_MEMORY_ROUTINES", "RB_N=3", "RB_NEW=0", "RB_BITS=16", "RB_SCEN=1"],
  "unwind": 9,
  "unwind_reason": "BOUNDED: a tree of at most 3 nodes has height <= 2, so every descent / successor / predecessor loop of blkmap64_rb.c and rbtree.c runs at most that often (+1 for the exit test), the neighbour loops at most once per node; rebalancing loops climb at most one level per round; harness loops have constant bounds <= 8 (global unwind 9). Every bound is confirmed by an unwinding assertion.",
- "sources": [
-  "lib/ext2fs/rbtree.c"
- ],
- "functions": [
-  "lib/ext2fs/blkmap64_rb.c:rb_resize_bmap",
-  "lib/ext2fs/blkmap64_rb.c:rb_truncate",
-  "lib/ext2fs/blkmap64_rb.c:rb_insert_extent"
- ],
- "assumes": [
-  "BOUNDED stand-in, not counted as proved: the tree has exactly 3 extents (sorted, disjoint, non-adjacent, count > 0) in every red-black shape of that size; wcursor/rcursor NULL or any node, rcursor_next NULL or the successor of rcursor (any node if rcursor is NULL)",
-  "allocation does not fail: ext2fs.h is compiled with its own hook EXT2_CUSTOM_MEMORY_ROUTINES and ext2fs_get_mem/ext2fs_free_mem are the trivial malloc/free stubs of rb_common.h (typed pointer store instead of memcpy); malloc is __CPROVER_allocate, i.e. never NULL (rb_get_new_extent abort()s on failure anyway)",
-  "BOUNDED: bitmap->real_end - bitmap->start < 2^16 (offsets are 64-bit in the code and in the harness; the cap only narrows the values, chosen because the SAT proof of the ordering lemmas is the bottleneck)",
-  "start <= new_end <= new_real_end, new_real_end - start below the same cap as real_end - start",
-  "SCENARIO keep: no extent starts behind min(old end, new end); there is no padding (new_end == new_real_end) or the extent holding bit new_end takes it up (structure unchanged); the four resize scenarios partition the input space",
-  "ext2fs_rb_erase is NOT abstracted: its contract is REQUIRES(false); the obligation that no call is reachable in this scenario is checked at every call site",
-  "ext2fs_rb_insert_color is NOT abstracted: its contract is REQUIRES(false); the obligation that no call is reachable in this scenario is checked at every call site"
- ],
+ "sources": ["lib/ext2fs/rbtree.c"],
+ "functions": ["lib/ext2fs/blkmap64_rb.c:rb_resize_bmap", "lib/ext2fs/blkmap64_rb.c:rb_truncate", "lib/ext2fs/blkmap64_rb.c:rb_insert_extent"],
+ "assumes": ["BOUNDED stand-in, not counted as proved: the tree has exactly 3 extents (sorted, disjoint, non-adjacent, count > 0) in every red-black shape of that size; wcursor/rcursor NULL or any node, rcursor_next NULL or the successor of rcursor (any node if rcursor is NULL)", "allocation does not fail: ext2fs.h is compiled with its own hook EXT2_CUSTOM_MEMORY_ROUTINES and ext2fs_get_mem/ext2fs_free_mem are the trivial malloc/free stubs of rb_common.h (typed pointer store instead of memcpy); malloc is __CPROVER_allocate, i.e. never NULL (rb_get_new_extent abort()s on failure anyway)", "BOUNDED: bitmap->real_end - bitmap->start < 2^16 (offsets are 64-bit in the code and in the harness; the cap only narrows the values, chosen because the SAT proof of the ordering lemmas is the bottleneck)", "start <= new_end <= new_real_end, new_real_end - start below the same cap as real_end - start", "SCENARIO keep: no extent starts behind min(old end, new end); there is no padding (new_end == new_real_end) or the extent holding bit new_end takes it up (structure unchanged); the four resize scenarios partition the input space", "ext2fs_rb_erase is NOT abstracted: its contract is REQUIRES(false); the obligation that no call is reachable in this scenario is checked at every call site", "ext2fs_rb_insert_color is NOT abstracted: its contract is REQUIRES(false); the obligation that no call is reachable in this scenario is checked at every call site"],
  "backend": "minisat",
  "no_cross_check": true,
  "native": true,
- "cbmc_flags": [
-  "--object-bits",
-  "10"
- ],
- "unwindset": {
-  "rb_truncate.0": 3,
-  "rb_insert_extent.0": 3,
-  "rb_insert_extent.1": 2,
-  "ext2fs_rb_next.0": 4,
-  "ext2fs_rb_next.1": 4,
-  "ext2fs_rb_prev.0": 4,
-  "ext2fs_rb_prev.1": 4,
-  "ext2fs_rb_last.0": 4
- },
- "replace": [
-  "ext2fs_rb_erase",
-  "ext2fs_rb_insert_color"
- ],
+ "cbmc_flags": ["--object-bits", "10"],
+ "unwindset": {"rb_truncate.0": 3, "rb_insert_extent.0": 3, "rb_insert_extent.1": 2, "ext2fs_rb_next.0": 4, "ext2fs_rb_next.1": 4, "ext2fs_rb_prev.0": 4, "ext2fs_rb_prev.1": 4, "ext2fs_rb_last.0": 4},
+ "replace": ["ext2fs_rb_erase", "ext2fs_rb_insert_color"],
  "timeout": 300
 }
 */
 /* VERIF-UNIT
 {
  "name": "rb_resize_bmap_pad_b1",
- "props": [
-  "C16"
- ],
+ "props": ["C16"],
  "level": "B(1)",
  "tier": "quick",
  "harness": "h_rb_resize",
- "defines": [
-  "EXT2_CUSTOM_MEMORY_ROUTINES",
-  "RB_N=1",
-  "RB_NEW=1",
-  "RB_BITS=16",
-  "RB_SCEN=2"
- ],
+ "defines": ["EXT2_CUSTOM_MEMORY_ROUTINES", "RB_N=1", "RB_NEW=1", "RB_BITS=16", "RB_SCEN=2"],
  "unwind": 9,
  "unwind_reason": "BOUNDED: a tree of at most 2 nodes has height <= 2, so every descent / successor / predecessor loop of blkmap64_rb.c and rbtree.c runs at most that often (+1 for the exit test), the neighbour loops at most once per node; rebalancing loops climb at most one level per round; harness loops have constant bounds <= 8 (global unwind 9). Every bound is confirmed by an unwinding assertion.",
- "sources": [
-  "lib/ext2fs/rbtree.c"
- ],
- "functions": [
-  "lib/ext2fs/blkmap64_rb.c:rb_resize_bmap",
-  "lib/ext2fs/blkmap64_rb.c:rb_truncate",
-  "lib/ext2fs/blkmap64_rb.c:rb_insert_extent"
- ],
- "assumes": [
-  "BOUNDED stand-in, not counted as proved: the tree has exactly 1 extents (sorted, disjoint, non-adjacent, count > 0) in every red-black shape of that size; wcursor/rcursor NULL or any node, rcursor_next NULL or the successor of rcursor (any node if rcursor is NULL)",
-  "allocation does not fail: ext2fs.h is compiled with its own hook EXT2_CUSTOM_MEMORY_ROUTINES and ext2fs_get_mem/ext2fs_free_mem are the trivial malloc/free stubs of rb_common.h (typed pointer store instead of memcpy); malloc is __CPROVER_allocate, i.e. never NULL (rb_get_new_extent abort()s on failure anyway)",
-  "BOUNDED: bitmap->real_end - bitmap->start < 2^16 (offsets are 64-bit in the code and in the harness; the cap only narrows the values, chosen because the SAT proof of the ordering lemmas is the bottleneck)",
-  "start <= new_end <= new_real_end, new_real_end - start below the same cap as real_end - start",
-  "SCENARIO pad: no extent starts behind min(old end, new end); the padding (new_end, new_real_end] becomes a new node; the four resize scenarios partition the input space",
-  "ext2fs_rb_erase is NOT abstracted: its contract is REQUIRES(false); the obligation that no call is reachable in this scenario is checked at every call site"
- ],
+ "sources": ["lib/ext2fs/rbtree.c"],
+ "functions": ["lib/ext2fs/blkmap64_rb.c:rb_resize_bmap", "lib/ext2fs/blkmap64_rb.c:rb_truncate", "lib/ext2fs/blkmap64_rb.c:rb_insert_extent"],
+ "assumes": ["BOUNDED stand-in, not counted as proved: the tree has exactly 1 extents (sorted, disjoint, non-adjacent, count > 0) in every red-black shape of that size; wcursor/rcursor NULL or any node, rcursor_next NULL or the successor of rcursor (any node if rcursor is NULL)", "allocation does not fail: ext2fs.h is compiled with its own hook EXT2_CUSTOM_MEMORY_ROUTINES and ext2fs_get_mem/ext2fs_free_mem are the trivial malloc/free stubs of rb_common.h (typed pointer store instead of memcpy); malloc is __CPROVER_allocate, i.e. never NULL (rb_get_new_extent abort()s on failure anyway)", "BOUNDED: bitmap->real_end - bitmap->start < 2^16 (offsets are 64-bit in the code and in the harness; the cap only narrows the values, chosen because the SAT proof of the ordering lemmas is the bottleneck)", "start <= new_end <= new_real_end, new_real_end - start below the same cap as real_end - start", "SCENARIO pad: no extent starts behind min(old end, new end); the padding (new_end, new_real_end] becomes a new node; the four resize scenarios partition the input space", "ext2fs_rb_erase is NOT abstracted: its contract is REQUIRES(false); the obligation that no call is reachable in this scenario is checked at every call site"],
  "backend": "minisat",
  "no_cross_check": true,
  "native": true,
- "cbmc_flags": [
-  "--object-bits",
-  "10"
- ],
- "unwindset": {
-  "rb_truncate.0": 3,
-  "rb_insert_extent.0": 2,
-  "rb_insert_extent.1": 2,
-  "ext2fs_rb_next.0": 3,
-  "ext2fs_rb_next.1": 3,
-  "ext2fs_rb_prev.0": 3,
-  "ext2fs_rb_prev.1": 3,
-  "ext2fs_rb_last.0": 3,
-  "ext2fs_rb_insert_color.0": 1
- },
- "replace": [
-  "ext2fs_rb_erase"
- ],
+ "cbmc_flags": ["--object-bits", "10"],
+ "unwindset": {"rb_truncate.0": 3, "rb_insert_extent.0": 2, "rb_insert_extent.1": 2, "ext2fs_rb_next.0": 3, "ext2fs_rb_next.1": 3, "ext2fs_rb_prev.0": 3, "ext2fs_rb_prev.1": 3, "ext2fs_rb_last.0": 3, "ext2fs_rb_insert_color.0": 1},
+ "replace": ["ext2fs_rb_erase"],
  "timeout": 300
 }
 */
 /* VERIF-UNIT
 {
  "name": "rb_resize_bmap_pad_b2",
- "props": [
-  "C16"
- ],
+ "props": ["C16"],
  "level": "B(2)",
  "tier": "thorough",
  "harness": "h_rb_resize",
- "defines": [
-  "EXT2_CUSTOM_MEMORY_ROUTINES",
-  "RB_N=2",
-  "RB_NEW=1",
-  "RB_BITS=16",
-  "RB_SCEN=2"
- ],
+ "defines": ["EXT2_CUSTOM_MEMORY_ROUTINES", "RB_N=2", "RB_NEW=1", "RB_BITS=16", "RB_SCEN=2"],
  "unwind": 9,
  "unwind_reason": "BOUNDED: a tree of at most 3 nodes has height <= 2, so every descent / successor / predecessor loop of blkmap64_rb.c and rbtree.c runs at most that often (+1 for the exit test), the neighbour loops at most once per node; rebalancing loops climb at most one level per round; harness loops have constant bounds <= 8 (global unwind 9). Every bound is confirmed by an unwinding assertion.",
- "sources": [
-  "lib/ext2fs/rbtree.c"
- ],
- "functions": [
-  "lib/ext2fs/blkmap64_rb.c:rb_resize_bmap",
-  "lib/ext2fs/blkmap64_rb.c:rb_truncate",
-  "lib/ext2fs/blkmap64_rb.c:rb_insert_extent"
- ],
- "assumes": [
-  "BOUNDED stand-in, not counted as proved: the tree has exactly 2 extents (sorted, disjoint, non-adjacent, count > 0) in every red-black shape of that size; wcursor/rcursor NULL or any node, rcursor_next NULL or the successor of rcursor (any node if rcursor is NULL)",
-  "allocation does not fail: ext2fs.h is compiled with its own hook EXT2_CUSTOM_MEMORY_ROUTINES and ext2fs_get_mem/ext2fs_free_mem are the trivial malloc/free stubs of rb_common.h (typed pointer store instead of memcpy); malloc is __CPROVER_allocate, i.e. never NULL (rb_get_new_extent abort()s on failure anyway)",
-  "BOUNDED: bitmap->real_end - bitmap->start < 2^16 (offsets are 64-bit in the code and in the harness; the cap only narrows the values, chosen because the SAT proof of the ordering lemmas is the bottleneck)",
-  "start <= new_end <= new_real_end, new_real_end - start below the same cap as real_end - start",
-  "SCENARIO pad: no extent starts behind min(old end, new end); the padding (new_end, new_real_end] becomes a new node; the four resize scenarios partition the input space",
-  "ext2fs_rb_erase is NOT abstracted: its contract is REQUIRES(false); the obligation that no call is reachable in this scenario is checked at every call site"
- ],
+ "sources": ["lib/ext2fs/rbtree.c"],
+ "functions": ["lib/ext2fs/blkmap64_rb.c:rb_resize_bmap", "lib/ext2fs/blkmap64_rb.c:rb_truncate", "lib/ext2fs/blkmap64_rb.c:rb_insert_extent"],
+ "assumes": ["BOUNDED stand-in, not counted as proved: the tree has exactly 2 extents (sorted, disjoint, non-adjacent, count > 0) in every red-black shape of that size; wcursor/rcursor NULL or any node, rcursor_next NULL or the successor of rcursor (any node if rcursor is NULL)", "allocation does not fail: ext2fs.h is compiled with its own hook EXT2_CUSTOM_MEMORY_ROUTINES and ext2fs_get_mem/ext2fs_free_mem are the trivial malloc/free stubs of rb_common.h (typed pointer store instead of memcpy); malloc is __CPROVER_allocate, i.e. never NULL (rb_get_new_extent abort()s on failure anyway)", "BOUNDED: bitmap->real_end - bitmap->start < 2^16 (offsets are 64-bit in the code and in the harness; the cap only narrows the values, chosen because the SAT proof of the ordering lemmas is the bottleneck)", "start <= new_end <= new_real_end, new_real_end - start below the same cap as real_end - start", "SCENARIO pad: no extent starts behind min(old end, new end); the padding (new_end, new_real_end] becomes a new node; the four resize scenarios partition the input space", "ext2fs_rb_erase is NOT abstracted: its contract is REQUIRES(false); the obligation that no call is reachable in this scenario is checked at every call site"],
  "backend": "minisat",
  "no_cross_check": true,
  "native": true,
- "cbmc_flags": [
-  "--object-bits",
-  "10"
- ],
- "unwindset": {
-  "rb_truncate.0": 3,
-  "rb_insert_extent.0": 3,
-  "rb_insert_extent.1": 2,
-  "ext2fs_rb_next.0": 3,
-  "ext2fs_rb_next.1": 3,
-  "ext2fs_rb_prev.0": 3,
-  "ext2fs_rb_prev.1": 3,
-  "ext2fs_rb_last.0": 3,
-  "ext2fs_rb_insert_color.0": 2
- },
- "replace": [
-  "ext2fs_rb_erase"
- ],
+ "cbmc_flags": ["--object-bits", "10"],
+ "unwindset": {"rb_truncate.0": 3, "rb_insert_extent.0": 3, "rb_insert_extent.1": 2, "ext2fs_rb_next.0": 3, "ext2fs_rb_next.1": 3, "ext2fs_rb_prev.0": 3, "ext2fs_rb_prev.1": 3, "ext2fs_rb_last.0": 3, "ext2fs_rb_insert_color.0": 2},
+ "replace": ["ext2fs_rb_erase"],
  "timeout": 1200
 }
 */
 /* VERIF-UNIT
 {
  "name": "rb_resize_bmap_cut_b1",
- "props": [
-  "C16"
- ],
+ "props": ["C16"],
  "level": "B(1)",
  "tier": "wip",
  "harness": "h_rb_resize",
- "defines": [
-  "EXT2_CUSTOM_MEMORY_ROUTINES",
-  "RB_N=1",
-  "RB_NEW=0",
-  "RB_BITS=16",
-  "RB_SCEN=3"
- ],
+ "defines": ["EXT2_CUSTOM_MEMORY_ROUTINES", "RB_N=1", "RB_NEW=0", "RB_BITS=16", "RB_SCEN=3"],
  "unwind": 9,
  "unwind_reason": "BOUNDED: a tree of at most 1 nodes has height <= 1, so every descent / successor / predecessor loop of blkmap64_rb.c and rbtree.c runs at most that often (+1 for the exit test), the neighbour loops at most once per node; rebalancing loops climb at most one level per round; harness loops have constant bounds <= 8 (global unwind 9). Every bound is confirmed by an unwinding assertion.",
- "sources": [
-  "lib/ext2fs/rbtree.c"
- ],
- "functions": [
-  "lib/ext2fs/blkmap64_rb.c:rb_resize_bmap",
-  "lib/ext2fs/blkmap64_rb.c:rb_truncate",
-  "lib/ext2fs/blkmap64_rb.c:rb_insert_extent"
- ],
- "assumes": [
-  "BOUNDED stand-in, not counted as proved: the tree has exactly 1 extents (sorted, disjoint, non-adjacent, count > 0) in every red-black shape of that size; wcursor/rcursor NULL or any node, rcursor_next NULL or the successor of rcursor (any node if rcursor is NULL)",
-  "allocation does not fail: ext2fs.h is compiled with its own hook EXT2_CUSTOM_MEMORY_ROUTINES and ext2fs_get_mem/ext2fs_free_mem are the trivial malloc/free stubs of rb_common.h (typed pointer store instead of memcpy); malloc is __CPROVER_allocate, i.e. never NULL (rb_get_new_extent abort()s on failure anyway)",
-  "BOUNDED: bitmap->real_end - bitmap->start < 2^16 (offsets are 64-bit in the code and in the harness; the cap only narrows the values, chosen because the SAT proof of the ordering lemmas is the bottleneck)",
-  "start <= new_end <= new_real_end, new_real_end - start below the same cap as real_end - start",
-  "SCENARIO cut: at least one extent starts behind min(old end, new end) and is erased; no new node; the four resize scenarios partition the input space",
-  "ext2fs_rb_insert_color is NOT abstracted: its contract is REQUIRES(false); the obligation that no call is reachable in this scenario is checked at every call site"
- ],
+ "sources": ["lib/ext2fs/rbtree.c"],
+ "functions": ["lib/ext2fs/blkmap64_rb.c:rb_resize_bmap", "lib/ext2fs/blkmap64_rb.c:rb_truncate", "lib/ext2fs/blkmap64_rb.c:rb_insert_extent"],
+ "assumes": ["BOUNDED stand-in, not counted as proved: the tree has exactly 1 extents (sorted, disjoint, non-adjacent, count > 0) in every red-black shape of that size; wcursor/rcursor NULL or any node, rcursor_next NULL or the successor of rcursor (any node if rcursor is NULL)", "allocation does not fail: ext2fs.h is compiled with its own hook EXT2_CUSTOM_MEMORY_ROUTINES and ext2fs_get_mem/ext2fs_free_mem are the trivial malloc/free stubs of rb_common.h (typed pointer store instead of memcpy); malloc is __CPROVER_allocate, i.e. never NULL (rb_get_new_extent abort()s on failure anyway)", "BOUNDED: bitmap->real_end - bitmap->start < 2^16 (offsets are 64-bit in the code and in the harness; the cap only narrows the values, chosen because the SAT proof of the ordering lemmas is the bottleneck)", "start <= new_end <= new_real_end, new_real_end - start below the same cap as real_end - start", "SCENARIO cut: at least one extent starts behind min(old end, new end) and is erased; no new node; the four resize scenarios partition the input space", "FAILS on the unchanged tree (kept wip): without padding rb_resize_bmap leaves rcursor_next pointing to an extent rb_truncate has freed - findings/C16_rb_resize_rcursor_next; green with its proposed-fix.patch", "ext2fs_rb_insert_color is NOT abstracted: its contract is REQUIRES(false); the obligation that no call is reachable in this scenario is checked at every call site"],
  "backend": "minisat",
  "no_cross_check": true,
  "native": true,
- "cbmc_flags": [
-  "--object-bits",
-  "10"
- ],
- "unwindset": {
-  "rb_truncate.0": 4,
-  "rb_insert_extent.0": 2,
-  "rb_insert_extent.1": 2,
-  "ext2fs_rb_next.0": 3,
-  "ext2fs_rb_next.1": 3,
-  "ext2fs_rb_prev.0": 3,
-  "ext2fs_rb_prev.1": 3,
-  "ext2fs_rb_last.0": 3,
-  "ext2fs_rb_erase.0": 1,
-  "__rb_erase_color.0": 1
- },
- "replace": [
-  "ext2fs_rb_insert_color"
- ],
+ "cbmc_flags": ["--object-bits", "10"],
+ "unwindset": {"rb_truncate.0": 4, "rb_insert_extent.0": 2, "rb_insert_extent.1": 2, "ext2fs_rb_next.0": 3, "ext2fs_rb_next.1": 3, "ext2fs_rb_prev.0": 3, "ext2fs_rb_prev.1": 3, "ext2fs_rb_last.0": 3, "ext2fs_rb_erase.0": 1, "__rb_erase_color.0": 1},
+ "replace": ["ext2fs_rb_insert_color"],
  "timeout": 1200
 }
 */
 /* VERIF-UNIT
 {
  "name": "rb_resize_bmap_cutpad_b1",
- "props": [
-  "C16"
- ],
+ "props": ["C16"],
  "level": "B(1)",
  "tier": "thorough",
  "harness": "h_rb_resize",
- "defines": [
-  "EXT2_CUSTOM_MEMORY_ROUTINES",
-  "RB_N=1",
-  "RB_NEW=1",
-  "RB_BITS=16",
-  "RB_SCEN=4"
- ],
+ "defines": ["EXT2_CUSTOM_MEMORY_ROUTINES", "RB_N=1", "RB_NEW=1", "RB_BITS=16", "RB_SCEN=4"],
  "unwind": 9,
  "unwind_reason": "BOUNDED: a tree of at most 2 nodes has height <= 2, so every descent / successor / predecessor loop of blkmap64_rb.c and rbtree.c runs at most that often (+1 for the exit test), the neighbour loops at most once per node; rebalancing loops climb at most one level per round; harness loops have constant bounds <= 8 (global unwind 9). Every bound is confirmed by an unwinding assertion.",
- "sources": [
-  "lib/ext2fs/rbtree.c"
- ],
- "functions": [
-  "lib/ext2fs/blkmap64_rb.c:rb_resize_bmap",
-  "lib/ext2fs/blkmap64_rb.c:rb_truncate",
-  "lib/ext2fs/blkmap64_rb.c:rb_insert_extent"
- ],
- "assumes": [
-  "BOUNDED stand-in, not counted as proved: the tree has exactly 1 extents (sorted, disjoint, non-adjacent, count > 0) in every red-black shape of that size; wcursor/rcursor NULL or any node, rcursor_next NULL or the successor of rcursor (any node if rcursor is NULL)",
-  "allocation does not fail: ext2fs.h is compiled with its own hook EXT2_CUSTOM_MEMORY_ROUTINES and ext2fs_get_mem/ext2fs_free_mem are the trivial malloc/free stubs of rb_common.h (typed pointer store instead of memcpy); malloc is __CPROVER_allocate, i.e. never NULL (rb_get_new_extent abort()s on failure anyway)",
-  "BOUNDED: bitmap->real_end - bitmap->start < 2^16 (offsets are 64-bit in the code and in the harness; the cap only narrows the values, chosen because the SAT proof of the ordering lemmas is the bottleneck)",
-  "start <= new_end <= new_real_end, new_real_end - start below the same cap as real_end - start",
-  "SCENARIO cutpad: at least one extent is erased and the padding becomes a new node; the four resize scenarios partition the input space"
- ],
+ "sources": ["lib/ext2fs/rbtree.c"],
+ "functions": ["lib/ext2fs/blkmap64_rb.c:rb_resize_bmap", "lib/ext2fs/blkmap64_rb.c:rb_truncate", "lib/ext2fs/blkmap64_rb.c:rb_insert_extent"],
+ "assumes": ["BOUNDED stand-in, not counted as proved: the tree has exactly 1 extents (sorted, disjoint, non-adjacent, count > 0) in every red-black shape of that size; wcursor/rcursor NULL or any node, rcursor_next NULL or the successor of rcursor (any node if rcursor is NULL)", "allocation does not fail: ext2fs.h is compiled with its own hook EXT2_CUSTOM_MEMORY_ROUTINES and ext2fs_get_mem/ext2fs_free_mem are the trivial malloc/free stubs of rb_common.h (typed pointer store instead of memcpy); malloc is __CPROVER_allocate, i.e. never NULL (rb_get_new_extent abort()s on failure anyway)", "BOUNDED: bitmap->real_end - bitmap->start < 2^16 (offsets are 64-bit in the code and in the harness; the cap only narrows the values, chosen because the SAT proof of the ordering lemmas is the bottleneck)", "start <= new_end <= new_real_end, new_real_end - start below the same cap as real_end - start", "SCENARIO cutpad: at least one extent is erased and the padding becomes a new node; the four resize scenarios partition the input space"],
  "backend": "minisat",
  "no_cross_check": true,
  "native": true,
- "cbmc_flags": [
-  "--object-bits",
-  "10"
- ],
- "unwindset": {
-  "rb_truncate.0": 4,
-  "rb_insert_extent.0": 2,
-  "rb_insert_extent.1": 2,
-  "ext2fs_rb_next.0": 3,
-  "ext2fs_rb_next.1": 3,
-  "ext2fs_rb_prev.0": 3,
-  "ext2fs_rb_prev.1": 3,
-  "ext2fs_rb_last.0": 3,
-  "ext2fs_rb_erase.0": 1,
-  "__rb_erase_color.0": 1,
-  "ext2fs_rb_insert_color.0": 1
- },
+ "cbmc_flags": ["--object-bits", "10"],
+ "unwindset": {"rb_truncate.0": 4, "rb_insert_extent.0": 2, "rb_insert_extent.1": 2, "ext2fs_rb_next.0": 3, "ext2fs_rb_next.1": 3, "ext2fs_rb_prev.0": 3, "ext2fs_rb_prev.1": 3, "ext2fs_rb_last.0": 3, "ext2fs_rb_erase.0": 1, "__rb_erase_color.0": 1, "ext2fs_rb_insert_color.0": 1},
  "timeout": 1200
 }
 */
 /* VERIF-UNIT
 {
  "name": "rb_set_bmap_range_p5",
- "props": [
-  "C16"
- ],
+ "props": ["C16"],
  "level": "B(0)",
  "tier": "quick",
  "harness": "h_rb_set_range",
- "defines": [
-  "EXT2_CUSTOM_MEMORY_ROUTINES",
-  "RB_N=0",
-  "RB_NEW=2",
-  "RB_BITS=16",
-  "RB_SCEN=2",
-  "RB_SET_BITS=3",
-  "RB_PATTERN=0x5"
- ],
+ "defines": ["EXT2_CUSTOM_MEMORY_ROUTINES", "RB_N=0", "RB_NEW=2", "RB_BITS=16", "RB_SCEN=2", "RB_SET_BITS=3", "RB_PATTERN=0x5"],
  "unwind": 9,
  "unwind_reason": "BOUNDED: a tree of at most 2 nodes has height <= 2, so every descent / successor / predecessor loop of blkmap64_rb.c and rbtree.c runs at most that often (+1 for the exit test), the neighbour loops at most once per node; rebalancing loops climb at most one level per round; harness loops have constant bounds <= 8 (global unwind 9). Every bound is confirmed by an unwinding assertion.",
- "sources": [
-  "lib/ext2fs/rbtree.c",
-  "lib/ext2fs/bitops.c"
- ],
- "functions": [
-  "lib/ext2fs/blkmap64_rb.c:rb_set_bmap_range",
-  "lib/ext2fs/blkmap64_rb.c:rb_insert_extent"
- ],
- "assumes": [
-  "BOUNDED stand-in, not counted as proved: the tree has exactly 0 extents (sorted, disjoint, non-adjacent, count > 0) in every red-black shape of that size; wcursor/rcursor NULL or any node, rcursor_next NULL or the successor of rcursor (any node if rcursor is NULL)",
-  "allocation does not fail: ext2fs.h is compiled with its own hook EXT2_CUSTOM_MEMORY_ROUTINES and ext2fs_get_mem/ext2fs_free_mem are the trivial malloc/free stubs of rb_common.h (typed pointer store instead of memcpy); malloc is __CPROVER_allocate, i.e. never NULL (rb_get_new_extent abort()s on failure anyway)",
-  "BOUNDED: bitmap->real_end - bitmap->start < 2^16 (offsets are 64-bit in the code and in the harness; the cap only narrows the values, chosen because the SAT proof of the ordering lemmas is the bottleneck)",
-  "BOUNDED: the input buffer is the constant bit pattern 0x5, num = 3 (concrete control flow of the run-extraction loop; one rb_insert_extent body per run)",
-  "SCENARIO: no extent of the tree overlaps or touches [start - 1, start + num] (the runs become new nodes, nothing is merged)",
-  "range inside [start, real_end]",
-  "ext2fs_rb_erase is NOT abstracted: its contract is REQUIRES(false); the obligation that no call is reachable in this scenario is checked at every call site"
- ],
+ "sources": ["lib/ext2fs/rbtree.c", "lib/ext2fs/bitops.c"],
+ "functions": ["lib/ext2fs/blkmap64_rb.c:rb_set_bmap_range", "lib/ext2fs/blkmap64_rb.c:rb_insert_extent"],
+ "assumes": ["BOUNDED stand-in, not counted as proved: the tree has exactly 0 extents (sorted, disjoint, non-adjacent, count > 0) in every red-black shape of that size; wcursor/rcursor NULL or any node, rcursor_next NULL or the successor of rcursor (any node if rcursor is NULL)", "allocation does not fail: ext2fs.h is compiled with its own hook EXT2_CUSTOM_MEMORY_ROUTINES and ext2fs_get_mem/ext2fs_free_mem are the trivial malloc/free stubs of rb_common.h (typed pointer store instead of memcpy); malloc is __CPROVER_allocate, i.e. never NULL (rb_get_new_extent abort()s on failure anyway)", "BOUNDED: bitmap->real_end - bitmap->start < 2^16 (offsets are 64-bit in the code and in the harness; the cap only narrows the values, chosen because the SAT proof of the ordering lemmas is the bottleneck)", "BOUNDED: the input buffer is the constant bit pattern 0x5, num = 3 (concrete control flow of the run-extraction loop; one rb_insert_extent body per run)", "SCENARIO: no extent of the tree overlaps or touches [start - 1, start + num] (the runs become new nodes, nothing is merged)", "range inside [start, real_end]", "ext2fs_rb_erase is NOT abstracted: its contract is REQUIRES(false); the obligation that no call is reachable in this scenario is checked at every call site"],
  "backend": "minisat",
  "no_cross_check": true,
  "native": true,
- "cbmc_flags": [
-  "--object-bits",
-  "10"
- ],
- "unwindset": {
-  "rb_set_bmap_range.0": 4,
-  "rb_insert_extent.0": 2,
-  "rb_insert_extent.1": 2,
-  "ext2fs_rb_next.0": 3,
-  "ext2fs_rb_next.1": 3,
-  "ext2fs_rb_prev.0": 3,
-  "ext2fs_rb_prev.1": 3,
-  "ext2fs_rb_insert_color.0": 1
- },
- "replace": [
-  "ext2fs_rb_erase"
- ],
+ "cbmc_flags": ["--object-bits", "10"],
+ "unwindset": {"rb_set_bmap_range.0": 4, "rb_insert_extent.0": 2, "rb_insert_extent.1": 2, "ext2fs_rb_next.0": 3, "ext2fs_rb_next.1": 3, "ext2fs_rb_prev.0": 3, "ext2fs_rb_prev.1": 3, "ext2fs_rb_insert_color.0": 1},
+ "replace": ["ext2fs_rb_erase"],
  "timeout": 300
 }
 */
 /* VERIF-UNIT
 {
  "name": "rb_set_bmap_range_p1ff",
- "props": [
-  "C16"
- ],
+ "props": ["C16"],
  "level": "B(1)",
  "tier": "quick",
  "harness": "h_rb_set_range",
- "defines": [
-  "EXT2_CUSTOM_MEMORY_ROUTINES",
-  "RB_N=1",
-  "RB_NEW=1",
-  "RB_BITS=16",
-  "RB_SCEN=2",
-  "RB_SET_BITS=10",
-  "RB_PATTERN=0x1ff"
- ],
+ "defines": ["EXT2_CUSTOM_MEMORY_ROUTINES", "RB_N=1", "RB_NEW=1", "RB_BITS=16", "RB_SCEN=2", "RB_SET_BITS=10", "RB_PATTERN=0x1ff"],
  "unwind": 9,
  "unwind_reason": "BOUNDED: a tree of at most 2 nodes has height <= 2, so every descent / successor / predecessor loop of blkmap64_rb.c and rbtree.c runs at most that often (+1 for the exit test), the neighbour loops at most once per node; rebalancing loops climb at most one level per round; harness loops have constant bounds <= 8 (global unwind 9). Every bound is confirmed by an unwinding assertion.",
- "sources": [
-  "lib/ext2fs/rbtree.c",
-  "lib/ext2fs/bitops.c"
- ],
- "functions": [
-  "lib/ext2fs/blkmap64_rb.c:rb_set_bmap_range",
-  "lib/ext2fs/blkmap64_rb.c:rb_insert_extent"
- ],
- "assumes": [
-  "BOUNDED stand-in, not counted as proved: the tree has exactly 1 extents (sorted, disjoint, non-adjacent, count > 0) in every red-black shape of that size; wcursor/rcursor NULL or any node, rcursor_next NULL or the successor of rcursor (any node if rcursor is NULL)",
-  "allocation does not fail: ext2fs.h is compiled with its own hook EXT2_CUSTOM_MEMORY_ROUTINES and ext2fs_get_mem/ext2fs_free_mem are the trivial malloc/free stubs of rb_common.h (typed pointer store instead of memcpy); malloc is __CPROVER_allocate, i.e. never NULL (rb_get_new_extent abort()s on failure anyway)",
-  "BOUNDED: bitmap->real_end - bitmap->start < 2^16 (offsets are 64-bit in the code and in the harness; the cap only narrows the values, chosen because the SAT proof of the ordering lemmas is the bottleneck)",
-  "BOUNDED: the input buffer is the constant bit pattern 0x1ff, num = 10 (concrete control flow of the run-extraction loop; one rb_insert_extent body per run)",
-  "SCENARIO: no extent of the tree overlaps or touches [start - 1, start + num] (the runs become new nodes, nothing is merged)",
-  "range inside [start, real_end]",
-  "ext2fs_rb_erase is NOT abstracted: its contract is REQUIRES(false); the obligation that no call is reachable in this scenario is checked at every call site"
- ],
+ "sources": ["lib/ext2fs/rbtree.c", "lib/ext2fs/bitops.c"],
+ "functions": ["lib/ext2fs/blkmap64_rb.c:rb_set_bmap_range", "lib/ext2fs/blkmap64_rb.c:rb_insert_extent"],
+ "assumes": ["BOUNDED stand-in, not counted as proved: the tree has exactly 1 extents (sorted, disjoint, non-adjacent, count > 0) in every red-black shape of that size; wcursor/rcursor NULL or any node, rcursor_next NULL or the successor of rcursor (any node if rcursor is NULL)", "allocation does not fail: ext2fs.h is compiled with its own hook EXT2_CUSTOM_MEMORY_ROUTINES and ext2fs_get_mem/ext2fs_free_mem are the trivial malloc/free stubs of rb_common.h (typed pointer store instead of memcpy); malloc is __CPROVER_allocate, i.e. never NULL (rb_get_new_extent abort()s on failure anyway)", "BOUNDED: bitmap->real_end - bitmap->start < 2^16 (offsets are 64-bit in the code and in the harness; the cap only narrows the values, chosen because the SAT proof of the ordering lemmas is the bottleneck)", "BOUNDED: the input buffer is the constant bit pattern 0x1ff, num = 10 (concrete control flow of the run-extraction loop; one rb_insert_extent body per run)", "SCENARIO: no extent of the tree overlaps or touches [start - 1, start + num] (the runs become new nodes, nothing is merged)", "range inside [start, real_end]", "ext2fs_rb_erase is NOT abstracted: its contract is REQUIRES(false); the obligation that no call is reachable in this scenario is checked at every call site"],
  "backend": "minisat",
  "no_cross_check": true,
  "native": true,
- "cbmc_flags": [
-  "--object-bits",
-  "10"
- ],
- "unwindset": {
-  "rb_set_bmap_range.0": 11,
-  "rb_insert_extent.0": 2,
-  "rb_insert_extent.1": 2,
-  "ext2fs_rb_next.0": 3,
-  "ext2fs_rb_next.1": 3,
-  "ext2fs_rb_prev.0": 3,
-  "ext2fs_rb_prev.1": 3,
-  "ext2fs_rb_insert_color.0": 1
- },
- "replace": [
-  "ext2fs_rb_erase"
- ],
+ "cbmc_flags": ["--object-bits", "10"],
+ "unwindset": {"rb_set_bmap_range.0": 11, "rb_insert_extent.0": 2, "rb_insert_extent.1": 2, "ext2fs_rb_next.0": 3, "ext2fs_rb_next.1": 3, "ext2fs_rb_prev.0": 3, "ext2fs_rb_prev.1": 3, "ext2fs_rb_insert_color.0": 1},
+ "replace": ["ext2fs_rb_erase"],
  "timeout": 300
 }
 */
 /* VERIF-UNIT
 {
  "name": "rb_set_bmap_range_p6",
- "props": [
-  "C16"
- ],
+ "props": ["C16"],
  "level": "B(1)",
  "tier": "quick",
  "harness": "h_rb_set_range",
- "defines": [
-  "EXT2_CUSTOM_MEMORY_ROUTINES",
-  "RB_N=1",
-  "RB_NEW=1",
-  "RB_BITS=16",
-  "RB_SCEN=2",
-  "RB_SET_BITS=4",
-  "RB_PATTERN=0x6"
- ],
+ "defines": ["EXT2_CUSTOM_MEMORY_ROUTINES", "RB_N=1", "RB_NEW=1", "RB_BITS=16", "RB_SCEN=2", "RB_SET_BITS=4", "RB_PATTERN=0x6"],
  "unwind": 9,
  "unwind_reason": "BOUNDED: a tree of at most 2 nodes has height <= 2, so every descent / successor / predecessor loop of blkmap64_rb.c and rbtree.c runs at most that often (+1 for the exit test), the neighbour loops at most once per node; rebalancing loops climb at most one level per round; harness loops have constant bounds <= 8 (global unwind 9). Every bound is confirmed by an unwinding assertion.",
- "sources": [
-  "lib/ext2fs/rbtree.c",
-  "lib/ext2fs/bitops.c"
- ],
- "functions": [
-  "lib/ext2fs/blkmap64_rb.c:rb_set_bmap_range",
-  "lib/ext2fs/blkmap64_rb.c:rb_insert_extent"
- ],
- "assumes": [
-  "BOUNDED stand-in, not counted as proved: the tree has exactly 1 extents (sorted, disjoint, non-adjacent, count > 0) in every red-black shape of that size; wcursor/rcursor NULL or any node, rcursor_next NULL or the successor of rcursor (any node if rcursor is NULL)",
-  "allocation does not fail: ext2fs.h is compiled with its own hook EXT2_CUSTOM_MEMORY_ROUTINES and ext2fs_get_mem/ext2fs_free_mem are the trivial malloc/free stubs of rb_common.h (typed pointer store instead of memcpy); malloc is __CPROVER_allocate, i.e. never NULL (rb_get_new_extent abort()s on failure anyway)",
-  "BOUNDED: bitmap->real_end - bitmap->start < 2^16 (offsets are 64-bit in the code and in the harness; the cap only narrows the values, chosen because the SAT proof of the ordering lemmas is the bottleneck)",
-  "BOUNDED: the input buffer is the constant bit pattern 0x6, num = 4 (concrete control flow of the run-extraction loop; one rb_insert_extent body per run)",
-  "SCENARIO: no extent of the tree overlaps or touches [start - 1, start + num] (the runs become new nodes, nothing is merged)",
-  "range inside [start, real_end]",
-  "ext2fs_rb_erase is NOT abstracted: its contract is REQUIRES(false); the obligation that no call is reachable in this scenario is checked at every call site"
- ],
+ "sources": ["lib/ext2fs/rbtree.c", "lib/ext2fs/bitops.c"],
+ "functions": ["lib/ext2fs/blkmap64_rb.c:rb_set_bmap_range", "lib/ext2fs/blkmap64_rb.c:rb_insert_extent"],
+ "assumes": ["BOUNDED stand-in, not counted as proved: the tree has exactly 1 extents (sorted, disjoint, non-adjacent, count > 0) in every red-black shape of that size; wcursor/rcursor NULL or any node, rcursor_next NULL or the successor of rcursor (any node if rcursor is NULL)", "allocation does not fail: ext2fs.h is compiled with its own hook EXT2_CUSTOM_MEMORY_ROUTINES and ext2fs_get_mem/ext2fs_free_mem are the trivial malloc/free stubs of rb_common.h (typed pointer store instead of memcpy); malloc is __CPROVER_allocate, i.e. never NULL (rb_get_new_extent abort()s on failure anyway)", "BOUNDED: bitmap->real_end - bitmap->start < 2^16 (offsets are 64-bit in the code and in the harness; the cap only narrows the values, chosen because the SAT proof of the ordering lemmas is the bottleneck)", "BOUNDED: the input buffer is the constant bit pattern 0x6, num = 4 (concrete control flow of the run-extraction loop; one rb_insert_extent body per run)", "SCENARIO: no extent of the tree overlaps or touches [start - 1, start + num] (the runs become new nodes, nothing is merged)", "range inside [start, real_end]", "ext2fs_rb_erase is NOT abstracted: its contract is REQUIRES(false); the obligation that no call is reachable in this scenario is checked at every call site"],
  "backend": "minisat",
  "no_cross_check": true,
  "native": true,
- "cbmc_flags": [
-  "--object-bits",
-  "10"
- ],
- "unwindset": {
-  "rb_set_bmap_range.0": 5,
-  "rb_insert_extent.0": 2,
-  "rb_insert_extent.1": 2,
-  "ext2fs_rb_next.0": 3,
-  "ext2fs_rb_next.1": 3,
-  "ext2fs_rb_prev.0": 3,
-  "ext2fs_rb_prev.1": 3,
-  "ext2fs_rb_insert_color.0": 1
- },
- "replace": [
-  "ext2fs_rb_erase"
- ],
+ "cbmc_flags": ["--object-bits", "10"],
+ "unwindset": {"rb_set_bmap_range.0": 5, "rb_insert_extent.0": 2, "rb_insert_extent.1": 2, "ext2fs_rb_next.0": 3, "ext2fs_rb_next.1": 3, "ext2fs_rb_prev.0": 3, "ext2fs_rb_prev.1": 3, "ext2fs_rb_insert_color.0": 1},
+ "replace": ["ext2fs_rb_erase"],
  "timeout": 300
 }
 */
 /* VERIF-UNIT
 {
  "name": "rb_set_bmap_range_sym3",
- "props": [
-  "C16"
- ],
+ "props": ["C16"],
  "level": "B(0)",
  "tier": "quick",
  "harness": "h_rb_set_range",
- "defines": [
-  "EXT2_CUSTOM_MEMORY_ROUTINES",
-  "RB_N=0",
-  "RB_NEW=2",
-  "RB_BITS=16",
-  "RB_SET_BITS=3"
- ],
+ "defines": ["EXT2_CUSTOM_MEMORY_ROUTINES", "RB_N=0", "RB_NEW=2", "RB_BITS=16", "RB_SET_BITS=3"],
  "unwind": 9,
  "unwind_reason": "BOUNDED: a tree of at most 2 nodes has height <= 2, so every descent / successor / predecessor loop of blkmap64_rb.c and rbtree.c runs at most that often (+1 for the exit test), the neighbour loops at most once per node; rebalancing loops climb at most one level per round; harness loops have constant bounds <= 8 (global unwind 9). Every bound is confirmed by an unwinding assertion.",
- "sources": [
-  "lib/ext2fs/rbtree.c",
-  "lib/ext2fs/bitops.c"
- ],
- "functions": [
-  "lib/ext2fs/blkmap64_rb.c:rb_set_bmap_range",
-  "lib/ext2fs/blkmap64_rb.c:rb_insert_extent"
- ],
- "assumes": [
-  "BOUNDED stand-in, not counted as proved: the tree has exactly 0 extents (sorted, disjoint, non-adjacent, count > 0) in every red-black shape of that size; wcursor/rcursor NULL or any node, rcursor_next NULL or the successor of rcursor (any node if rcursor is NULL)",
-  "allocation does not fail: ext2fs.h is compiled with its own hook EXT2_CUSTOM_MEMORY_ROUTINES and ext2fs_get_mem/ext2fs_free_mem are the trivial malloc/free stubs of rb_common.h (typed pointer store instead of memcpy); malloc is __CPROVER_allocate, i.e. never NULL (rb_get_new_extent abort()s on failure anyway)",
-  "BOUNDED: bitmap->real_end - bitmap->start < 2^16 (offsets are 64-bit in the code and in the harness; the cap only narrows the values, chosen because the SAT proof of the ordering lemmas is the bottleneck)",
-  "BOUNDED: empty tree, 1 <= num <= 3, arbitrary input bits (at most two runs; nothing can merge, ext2fs_rb_erase unreachable)",
-  "range inside [start, real_end]",
-  "ext2fs_rb_erase is NOT abstracted: its contract is REQUIRES(false); the obligation that no call is reachable in this scenario is checked at every call site"
- ],
+ "sources": ["lib/ext2fs/rbtree.c", "lib/ext2fs/bitops.c"],
+ "functions": ["lib/ext2fs/blkmap64_rb.c:rb_set_bmap_range", "lib/ext2fs/blkmap64_rb.c:rb_insert_extent"],
+ "assumes": ["BOUNDED stand-in, not counted as proved: the tree has exactly 0 extents (sorted, disjoint, non-adjacent, count > 0) in every red-black shape of that size; wcursor/rcursor NULL or any node, rcursor_next NULL or the successor of rcursor (any node if rcursor is NULL)", "allocation does not fail: ext2fs.h is compiled with its own hook EXT2_CUSTOM_MEMORY_ROUTINES and ext2fs_get_mem/ext2fs_free_mem are the trivial malloc/free stubs of rb_common.h (typed pointer store instead of memcpy); malloc is __CPROVER_allocate, i.e. never NULL (rb_get_new_extent abort()s on failure anyway)", "BOUNDED: bitmap->real_end - bitmap->start < 2^16 (offsets are 64-bit in the code and in the harness; the cap only narrows the values, chosen because the SAT proof of the ordering lemmas is the bottleneck)", "BOUNDED: empty tree, 1 <= num <= 3, arbitrary input bits (at most two runs; nothing can merge, ext2fs_rb_erase unreachable)", "range inside [start, real_end]", "ext2fs_rb_erase is NOT abstracted: its contract is REQUIRES(false); the obligation that no call is reachable in this scenario is checked at every call site"],
  "backend": "minisat",
  "no_cross_check": true,
  "native": true,
- "cbmc_flags": [
-  "--object-bits",
-  "10"
- ],
- "unwindset": {
-  "rb_set_bmap_range.0": 4,
-  "rb_insert_extent.0": 2,
-  "rb_insert_extent.1": 2,
-  "ext2fs_rb_next.0": 3,
-  "ext2fs_rb_next.1": 3,
-  "ext2fs_rb_prev.0": 3,
-  "ext2fs_rb_prev.1": 3,
-  "ext2fs_rb_insert_color.0": 1
- },
- "replace": [
-  "ext2fs_rb_erase"
- ],
+ "cbmc_flags": ["--object-bits", "10"],
+ "unwindset": {"rb_set_bmap_range.0": 4, "rb_insert_extent.0": 2, "rb_insert_extent.1": 2, "ext2fs_rb_next.0": 3, "ext2fs_rb_next.1": 3, "ext2fs_rb_prev.0": 3, "ext2fs_rb_prev.1": 3, "ext2fs_rb_insert_color.0": 1},
+ "replace": ["ext2fs_rb_erase"],
  "timeout": 300
 }
 */
 /* VERIF-UNIT
 {
  "name": "rb_wrappers",
- "props": [
-  "C16"
- ],
+ "props": ["C16"],
  "level": "B(1)",
  "tier": "quick",
  "harness": "h_rb_wrappers",
- "defines": [
-  "EXT2_CUSTOM_MEMORY_ROUTINES",
-  "RB_N=1",
-  "RB_NEW=0",
-  "RB_BITS=16",
-  "RB_SCEN=1"
- ],
+ "defines": ["EXT2_CUSTOM_MEMORY_ROUTINES", "RB_N=1", "RB_NEW=0", "RB_BITS=16", "RB_SCEN=1"],
  "unwind": 9,
  "unwind_reason": "BOUNDED: a tree of at most 1 nodes has height <= 1, so every descent / successor / predecessor loop of blkmap64_rb.c and rbtree.c runs at most that often (+1 for the exit test), the neighbour loops at most once per node; rebalancing loops climb at most one level per round; harness loops have constant bounds <= 8 (global unwind 9). Every bound is confirmed by an unwinding assertion.",
- "sources": [
-  "lib/ext2fs/rbtree.c"
- ],
- "functions": [
-  "lib/ext2fs/blkmap64_rb.c:rb_mark_bmap",
-  "lib/ext2fs/blkmap64_rb.c:rb_unmark_bmap",
-  "lib/ext2fs/blkmap64_rb.c:rb_mark_bmap_extent",
-  "lib/ext2fs/blkmap64_rb.c:rb_unmark_bmap_extent"
- ],
- "assumes": [
-  "BOUNDED stand-in, not counted as proved: the tree has exactly 1 extents (sorted, disjoint, non-adjacent, count > 0) in every red-black shape of that size; wcursor/rcursor NULL or any node, rcursor_next NULL or the successor of rcursor (any node if rcursor is NULL)",
-  "allocation does not fail: ext2fs.h is compiled with its own hook EXT2_CUSTOM_MEMORY_ROUTINES and ext2fs_get_mem/ext2fs_free_mem are the trivial malloc/free stubs of rb_common.h (typed pointer store instead of memcpy); malloc is __CPROVER_allocate, i.e. never NULL (rb_get_new_extent abort()s on failure anyway)",
-  "BOUNDED: bitmap->real_end - bitmap->start < 2^16 (offsets are 64-bit in the code and in the harness; the cap only narrows the values, chosen because the SAT proof of the ordering lemmas is the bottleneck)",
-  "the range lies strictly inside the one extent (mark) or clear of it (unmark): structure unchanged; what is checked is that the ops-table entries translate absolute bit numbers by bitmap->start and hand the result of rb_insert_extent / rb_remove_extent through",
-  "ext2fs_rb_erase is NOT abstracted: its contract is REQUIRES(false); the obligation that no call is reachable in this scenario is checked at every call site",
-  "ext2fs_rb_insert_color is NOT abstracted: its contract is REQUIRES(false); the obligation that no call is reachable in this scenario is checked at every call site"
- ],
+ "sources": ["lib/ext2fs/rbtree.c"],
+ "functions": ["lib/ext2fs/blkmap64_rb.c:rb_mark_bmap", "lib/ext2fs/blkmap64_rb.c:rb_unmark_bmap", "lib/ext2fs/blkmap64_rb.c:rb_mark_bmap_extent", "lib/ext2fs/blkmap64_rb.c:rb_unmark_bmap_extent"],
+ "assumes": ["BOUNDED stand-in, not counted as proved: the tree has exactly 1 extents (sorted, disjoint, non-adjacent, count > 0) in every red-black shape of that size; wcursor/rcursor NULL or any node, rcursor_next NULL or the successor of rcursor (any node if rcursor is NULL)", "allocation does not fail: ext2fs.h is compiled with its own hook EXT2_CUSTOM_MEMORY_ROUTINES and ext2fs_get_mem/ext2fs_free_mem are the trivial malloc/free stubs of rb_common.h (typed pointer store instead of memcpy); malloc is __CPROVER_allocate, i.e. never NULL (rb_get_new_extent abort()s on failure anyway)", "BOUNDED: bitmap->real_end - bitmap->start < 2^16 (offsets are 64-bit in the code and in the harness; the cap only narrows the values, chosen because the SAT proof of the ordering lemmas is the bottleneck)", "the range lies strictly inside the one extent (mark) or clear of it (unmark): structure unchanged; what is checked is that the ops-table entries translate absolute bit numbers by bitmap->start and hand the result of rb_insert_extent / rb_remove_extent through", "ext2fs_rb_erase is NOT abstracted: its contract is REQUIRES(false); the obligation that no call is reachable in this scenario is checked at every call site", "ext2fs_rb_insert_color is NOT abstracted: its contract is REQUIRES(false); the obligation that no call is reachable in this scenario is checked at every call site"],
  "backend": "minisat",
  "no_cross_check": true,
  "native": true,
- "cbmc_flags": [
-  "--object-bits",
-  "12"
- ],
- "unwindset": {
-  "rb_insert_extent.0": 2,
-  "rb_insert_extent.1": 2,
-  "rb_remove_extent.0": 3,
-  "rb_remove_extent.1": 3,
-  "ext2fs_rb_next.0": 2,
-  "ext2fs_rb_next.1": 2
- },
- "replace": [
-  "ext2fs_rb_erase",
-  "ext2fs_rb_insert_color"
- ],
+ "cbmc_flags": ["--object-bits", "12"],
+ "unwindset": {"rb_insert_extent.0": 2, "rb_insert_extent.1": 2, "rb_remove_extent.0": 3, "rb_remove_extent.1": 3, "ext2fs_rb_next.0": 2, "ext2fs_rb_next.1": 2},
+ "replace": ["ext2fs_rb_erase", "ext2fs_rb_insert_color"],
  "timeout": 300
 }
 */
 /* VERIF-UNIT
 {
  "name": "rbtree_erase_b1",
- "props": [
-  "C16"
- ],
+ "props": ["C16"],
  "level": "B(1)",
  "tier": "quick",
  "harness": "h_rbtree_erase",
- "defines": [
-  "EXT2_CUSTOM_MEMORY_ROUTINES",
-  "RB_N=1",
-  "RB_NEW=0",
-  "RB_BITS=16"
- ],
+ "defines": ["EXT2_CUSTOM_MEMORY_ROUTINES", "RB_N=1", "RB_NEW=0", "RB_BITS=16"],
  "unwind": 9,
  "unwind_reason": "BOUNDED: a tree of at most 1 nodes has height <= 1, so every descent / successor / predecessor loop of blkmap64_rb.c and rbtree.c runs at most that often (+1 for the exit test), the neighbour loops at most once per node; rebalancing loops climb at most one level per round; harness loops have constant bounds <= 8 (global unwind 9). Every bound is confirmed by an unwinding assertion.",
- "sources": [
-  "lib/ext2fs/rbtree.c"
- ],
- "functions": [
-  "lib/ext2fs/rbtree.c:ext2fs_rb_erase",
-  "lib/ext2fs/rbtree.c:__rb_erase_color",
-  "lib/ext2fs/rbtree.c:__rb_rotate_left",
-  "lib/ext2fs/rbtree.c:__rb_rotate_right"
- ],
- "assumes": [
-  "BOUNDED stand-in, not counted as proved: the tree has exactly 1 extents (sorted, disjoint, non-adjacent, count > 0) in every red-black shape of that size; wcursor/rcursor NULL or any node, rcursor_next NULL or the successor of rcursor (any node if rcursor is NULL)",
-  "allocation does not fail: ext2fs.h is compiled with its own hook EXT2_CUSTOM_MEMORY_ROUTINES and ext2fs_get_mem/ext2fs_free_mem are the trivial malloc/free stubs of rb_common.h (typed pointer store instead of memcpy); malloc is __CPROVER_allocate, i.e. never NULL (rb_get_new_extent abort()s on failure anyway)",
-  "BOUNDED: bitmap->real_end - bitmap->start < 2^16 (offsets are 64-bit in the code and in the harness; the cap only narrows the values, chosen because the SAT proof of the ordering lemmas is the bottleneck)",
-  "any node of the tree is erased; cursors are not involved"
- ],
+ "sources": ["lib/ext2fs/rbtree.c"],
+ "functions": ["lib/ext2fs/rbtree.c:ext2fs_rb_erase", "lib/ext2fs/rbtree.c:__rb_erase_color", "lib/ext2fs/rbtree.c:__rb_rotate_left", "lib/ext2fs/rbtree.c:__rb_rotate_right"],
+ "assumes": ["BOUNDED stand-in, not counted as proved: the tree has exactly 1 extents (sorted, disjoint, non-adjacent, count > 0) in every red-black shape of that size; wcursor/rcursor NULL or any node, rcursor_next NULL or the successor of rcursor (any node if rcursor is NULL)", "allocation does not fail: ext2fs.h is compiled with its own hook EXT2_CUSTOM_MEMORY_ROUTINES and ext2fs_get_mem/ext2fs_free_mem are the trivial malloc/free stubs of rb_common.h (typed pointer store instead of memcpy); malloc is __CPROVER_allocate, i.e. never NULL (rb_get_new_extent abort()s on failure anyway)", "BOUNDED: bitmap->real_end - bitmap->start < 2^16 (offsets are 64-bit in the code and in the harness; the cap only narrows the values, chosen because the SAT proof of the ordering lemmas is the bottleneck)", "any node of the tree is erased; cursors are not involved"],
  "backend": "minisat",
  "no_cross_check": true,
  "native": true,
- "cbmc_flags": [
-  "--object-bits",
-  "10"
- ],
- "unwindset": {
-  "ext2fs_rb_erase.0": 1,
-  "__rb_erase_color.0": 1
- },
+ "cbmc_flags": ["--object-bits", "10"],
+ "unwindset": {"ext2fs_rb_erase.0": 1, "__rb_erase_color.0": 1},
  "timeout": 300
 }
 */
 /* VERIF-UNIT
 {
  "name": "rbtree_insert_b1",
- "props": [
-  "C16"
- ],
+ "props": ["C16"],
  "level": "B(1)",
  "tier": "quick",
  "harness": "h_rbtree_insert",
- "defines": [
-  "EXT2_CUSTOM_MEMORY_ROUTINES",
-  "RB_N=1",
-  "RB_NEW=1",
-  "RB_BITS=16"
- ],
+ "defines": ["EXT2_CUSTOM_MEMORY_ROUTINES", "RB_N=1", "RB_NEW=1", "RB_BITS=16"],
  "unwind": 9,
  "unwind_reason": "BOUNDED: a tree of at most 2 nodes has height <= 2, so every descent / successor / predecessor loop of blkmap64_rb.c and rbtree.c runs at most that often (+1 for the exit test), the neighbour loops at most once per node; rebalancing loops climb at most one level per round; harness loops have constant bounds <= 8 (global unwind 9). Every bound is confirmed by an unwinding assertion.",
- "sources": [
-  "lib/ext2fs/rbtree.c"
- ],
- "functions": [
-  "lib/ext2fs/rbtree.c:ext2fs_rb_insert_color",
-  "lib/ext2fs/rbtree.c:__rb_rotate_left",
-  "lib/ext2fs/rbtree.c:__rb_rotate_right",
-  "lib/ext2fs/rbtree.h:ext2fs_rb_link_node"
- ],
- "assumes": [
-  "BOUNDED stand-in, not counted as proved: the tree has exactly 1 extents (sorted, disjoint, non-adjacent, count > 0) in every red-black shape of that size; wcursor/rcursor NULL or any node, rcursor_next NULL or the successor of rcursor (any node if rcursor is NULL)",
-  "allocation does not fail: ext2fs.h is compiled with its own hook EXT2_CUSTOM_MEMORY_ROUTINES and ext2fs_get_mem/ext2fs_free_mem are the trivial malloc/free stubs of rb_common.h (typed pointer store instead of memcpy); malloc is __CPROVER_allocate, i.e. never NULL (rb_get_new_extent abort()s on failure anyway)",
-  "BOUNDED: bitmap->real_end - bitmap->start < 2^16 (offsets are 64-bit in the code and in the harness; the cap only narrows the values, chosen because the SAT proof of the ordering lemmas is the bottleneck)",
-  "the new node is linked by an ordinary binary-search-tree descent at any key position not touching an existing extent"
- ],
+ "sources": ["lib/ext2fs/rbtree.c"],
+ "functions": ["lib/ext2fs/rbtree.c:ext2fs_rb_insert_color", "lib/ext2fs/rbtree.c:__rb_rotate_left", "lib/ext2fs/rbtree.c:__rb_rotate_right", "lib/ext2fs/rbtree.h:ext2fs_rb_link_node"],
+ "assumes": ["BOUNDED stand-in, not counted as proved: the tree has exactly 1 extents (sorted, disjoint, non-adjacent, count > 0) in every red-black shape of that size; wcursor/rcursor NULL or any node, rcursor_next NULL or the successor of rcursor (any node if rcursor is NULL)", "allocation does not fail: ext2fs.h is compiled with its own hook EXT2_CUSTOM_MEMORY_ROUTINES and ext2fs_get_mem/ext2fs_free_mem are the trivial malloc/free stubs of rb_common.h (typed pointer store instead of memcpy); malloc is __CPROVER_allocate, i.e. never NULL (rb_get_new_extent abort()s on failure anyway)", "BOUNDED: bitmap->real_end - bitmap->start < 2^16 (offsets are 64-bit in the code and in the harness; the cap only narrows the values, chosen because the SAT proof of the ordering lemmas is the bottleneck)", "the new node is linked by an ordinary binary-search-tree descent at any key position not touching an existing extent"],
  "backend": "minisat",
  "no_cross_check": true,
  "native": true,
- "cbmc_flags": [
-  "--object-bits",
-  "10"
- ],
- "unwindset": {
-  "ext2fs_rb_insert_color.0": 1
- },
+ "cbmc_flags": ["--object-bits", "10"],
+ "unwindset": {"ext2fs_rb_insert_color.0": 1},
  "timeout": 300
 }
 */
 /* VERIF-UNIT
 {
  "name": "rbtree_erase_b2",
- "props": [
-  "C16"
- ],
+ "props": ["C16"],
  "level": "B(2)",
  "tier": "quick",
  "harness": "h_rbtree_erase",
- "defines": [
-  "EXT2_CUSTOM_MEMORY_ROUTINES",
-  "RB_N=2",
-  "RB_NEW=0",
-  "RB_BITS=16"
- ],
+ "defines": ["EXT2_CUSTOM_MEMORY_ROUTINES", "RB_N=2", "RB_NEW=0", "RB_BITS=16"],
  "unwind": 9,
  "unwind_reason": "BOUNDED: a tree of at most 2 nodes has height <= 2, so every descent / successor / predecessor loop of blkmap64_rb.c and rbtree.c runs at most that often (+1 for the exit test), the neighbour loops at most once per node; rebalancing loops climb at most one level per round; harness loops have constant bounds <= 8 (global unwind 9). Every bound is confirmed by an unwinding assertion.",
- "sources": [
-  "lib/ext2fs/rbtree.c"
- ],
- "functions": [
-  "lib/ext2fs/rbtree.c:ext2fs_rb_erase",
-  "lib/ext2fs/rbtree.c:__rb_erase_color",
-  "lib/ext2fs/rbtree.c:__rb_rotate_left",
-  "lib/ext2fs/rbtree.c:__rb_rotate_right"
- ],
- "assumes": [
-  "BOUNDED stand-in, not counted as proved: the tree has exactly 2 extents (sorted, disjoint, non-adjacent, count > 0) in every red-black shape of that size; wcursor/rcursor NULL or any node, rcursor_next NULL or the successor of rcursor (any node if rcursor is NULL)",
-  "allocation does not fail: ext2fs.h is compiled with its own hook EXT2_CUSTOM_MEMORY_ROUTINES and ext2fs_get_mem/ext2fs_free_mem are the trivial malloc/free stubs of rb_common.h (typed pointer store instead of memcpy); malloc is __CPROVER_allocate, i.e. never NULL (rb_get_new_extent abort()s on failure anyway)",
-  "BOUNDED: bitmap->real_end - bitmap->start < 2^16 (offsets are 64-bit in the code and in the harness; the cap only narrows the values, chosen because the SAT proof of the ordering lemmas is the bottleneck)",
-  "any node of the tree is erased; cursors are not involved"
- ],
+ "sources": ["lib/ext2fs/rbtree.c"],
+ "functions": ["lib/ext2fs/rbtree.c:ext2fs_rb_erase", "lib/ext2fs/rbtree.c:__rb_erase_color", "lib/ext2fs/rbtree.c:__rb_rotate_left", "lib/ext2fs/rbtree.c:__rb_rotate_right"],
+ "assumes": ["BOUNDED stand-in, not counted as proved: the tree has exactly 2 extents (sorted, disjoint, non-adjacent, count > 0) in every red-black shape of that size; wcursor/rcursor NULL or any node, rcursor_next NULL or the successor of rcursor (any node if rcursor is NULL)", "allocation does not fail: ext2fs.h is compiled with its own hook EXT2_CUSTOM_MEMORY_ROUTINES and ext2fs_get_mem/ext2fs_free_mem are the trivial malloc/free stubs of rb_common.h (typed pointer store instead of memcpy); malloc is __CPROVER_allocate, i.e. never NULL (rb_get_new_extent abort()s on failure anyway)", "BOUNDED: bitmap->real_end - bitmap->start < 2^16 (offsets are 64-bit in the code and in the harness; the cap only narrows the values, chosen because the SAT proof of the ordering lemmas is the bottleneck)", "any node of the tree is erased; cursors are not involved"],
  "backend": "minisat",
  "no_cross_check": true,
  "native": true,
- "cbmc_flags": [
-  "--object-bits",
-  "10"
- ],
- "unwindset": {
-  "ext2fs_rb_erase.0": 1,
-  "__rb_erase_color.0": 1
- },
+ "cbmc_flags": ["--object-bits", "10"],
+ "unwindset": {"ext2fs_rb_erase.0": 1, "__rb_erase_color.0": 1},
  "timeout": 300
 }
 */
 /* VERIF-UNIT
 {
  "name": "rbtree_insert_b2",
- "props": [
-  "C16"
- ],
+ "props": ["C16"],
  "level": "B(2)",
  "tier": "quick",
  "harness": "h_rbtree_insert",
- "defines": [
-  "EXT2_CUSTOM_MEMORY_ROUTINES",
-  "RB_N=2",
-  "RB_NEW=1",
-  "RB_BITS=16"
- ],
+ "defines": ["EXT2_CUSTOM_MEMORY_ROUTINES", "RB_N=2", "RB_NEW=1", "RB_BITS=16"],
  "unwind": 9,
  "unwind_reason": "BOUNDED: a tree of at most 3 nodes has height <= 2, so every descent / successor / predecessor loop of blkmap64_rb.c and rbtree.c runs at most that often (+1 for the exit test), the neighbour loops at most once per node; rebalancing loops climb at most one level per round; harness loops have constant bounds <= 8 (global unwind 9). Every bound is confirmed by an unwinding assertion.",
- "sources": [
-  "lib/ext2fs/rbtree.c"
- ],
- "functions": [
-  "lib/ext2fs/rbtree.c:ext2fs_rb_insert_color",
-  "lib/ext2fs/rbtree.c:__rb_rotate_left",
-  "lib/ext2fs/rbtree.c:__rb_rotate_right",
-  "lib/ext2fs/rbtree.h:ext2fs_rb_link_node"
- ],
- "assumes": [
-  "BOUNDED stand-in, not counted as proved: the tree has exactly 2 extents (sorted, disjoint, non-adjacent, count > 0) in every red-black shape of that size; wcursor/rcursor NULL or any node, rcursor_next NULL or the successor of rcursor (any node if rcursor is NULL)",
-  "allocation does not fail: ext2fs.h is compiled with its own hook EXT2_CUSTOM_MEMORY_ROUTINES and ext2fs_get_mem/ext2fs_free_mem are the trivial malloc/free stubs of rb_common.h (typed pointer store instead of memcpy); malloc is __CPROVER_allocate, i.e. never NULL (rb_get_new_extent abort()s on failure anyway)",
-  "BOUNDED: bitmap->real_end - bitmap->start < 2^16 (offsets are 64-bit in the code and in the harness; the cap only narrows the values, chosen because the SAT proof of the ordering lemmas is the bottleneck)",
-  "the new node is linked by an ordinary binary-search-tree descent at any key position not touching an existing extent"
- ],
+ "sources": ["lib/ext2fs/rbtree.c"],
+ "functions": ["lib/ext2fs/rbtree.c:ext2fs_rb_insert_color", "lib/ext2fs/rbtree.c:__rb_rotate_left", "lib/ext2fs/rbtree.c:__rb_rotate_right", "lib/ext2fs/rbtree.h:ext2fs_rb_link_node"],
+ "assumes": ["BOUNDED stand-in, not counted as proved: the tree has exactly 2 extents (sorted, disjoint, non-adjacent, count > 0) in every red-black shape of that size; wcursor/rcursor NULL or any node, rcursor_next NULL or the successor of rcursor (any node if rcursor is NULL)", "allocation does not fail: ext2fs.h is compiled with its own hook EXT2_CUSTOM_MEMORY_ROUTINES and ext2fs_get_mem/ext2fs_free_mem are the trivial malloc/free stubs of rb_common.h (typed pointer store instead of memcpy); malloc is __CPROVER_allocate, i.e. never NULL (rb_get_new_extent abort()s on failure anyway)", "BOUNDED: bitmap->real_end - bitmap->start < 2^16 (offsets are 64-bit in the code and in the harness; the cap only narrows the values, chosen because the SAT proof of the ordering lemmas is the bottleneck)", "the new node is linked by an ordinary binary-search-tree descent at any key position not touching an existing extent"],
  "backend": "minisat",
  "no_cross_check": true,
  "native": true,
- "cbmc_flags": [
-  "--object-bits",
-  "10"
- ],
- "unwindset": {
-  "ext2fs_rb_insert_color.0": 2
- },
+ "cbmc_flags": ["--object-bits", "10"],
+ "unwindset": {"ext2fs_rb_insert_color.0": 2},
  "timeout": 300
 }
 */
 /* VERIF-UNIT
 {
  "name": "rbtree_erase_b3",
- "props": [
-  "C16"
- ],
+ "props": ["C16"],
  "level": "B(3)",
  "tier": "thorough",
  "harness": "h_rbtree_erase",
- "defines": [
-  "EXT2_CUSTOM_MEMORY_ROUTINES",
-  "RB_N=3",
-  "RB_NEW=0",
-  "RB_BITS=16"
- ],
+ "defines": ["EXT2_CUSTOM_MEMORY_ROUTINES", "RB_N=3", "RB_NEW=0", "RB_BITS=16"],
  "unwind": 9,
  "unwind_reason": "BOUNDED: a tree of at most 3 nodes has height <= 2, so every descent / successor / predecessor loop of blkmap64_rb.c and rbtree.c runs at most that often (+1 for the exit test), the neighbour loops at most once per node; rebalancing loops climb at most one level per round; harness loops have constant bounds <= 8 (global unwind 9). Every bound is confirmed by an unwinding assertion.",
- "sources": [
-  "lib/ext2fs/rbtree.c"
- ],
- "functions": [
-  "lib/ext2fs/rbtree.c:ext2fs_rb_erase",
-  "lib/ext2fs/rbtree.c:__rb_erase_color",
-  "lib/ext2fs/rbtree.c:__rb_rotate_left",
-  "lib/ext2fs/rbtree.c:__rb_rotate_right"
- ],
- "assumes": [
-  "BOUNDED stand-in, not counted as proved: the tree has exactly 3 extents (sorted, disjoint, non-adjacent, count > 0) in every red-black shape of that size; wcursor/rcursor NULL or any node, rcursor_next NULL or the successor of rcursor (any node if rcursor is NULL)",
-  "allocation does not fail: ext2fs.h is compiled with its own hook EXT2_CUSTOM_MEMORY_ROUTINES and ext2fs_get_mem/ext2fs_free_mem are the trivial malloc/free stubs of rb_common.h (typed pointer store instead of memcpy); malloc is __CPROVER_allocate, i.e. never NULL (rb_get_new_extent abort()s on failure anyway)",
-  "BOUNDED: bitmap->real_end - bitmap->start < 2^16 (offsets are 64-bit in the code and in the harness; the cap only narrows the values, chosen because the SAT proof of the ordering lemmas is the bottleneck)",
-  "any node of the tree is erased; cursors are not involved"
- ],
+ "sources": ["lib/ext2fs/rbtree.c"],
+ "functions": ["lib/ext2fs/rbtree.c:ext2fs_rb_erase", "lib/ext2fs/rbtree.c:__rb_erase_color", "lib/ext2fs/rbtree.c:__rb_rotate_left", "lib/ext2fs/rbtree.c:__rb_rotate_right"],
+ "assumes": ["BOUNDED stand-in, not counted as proved: the tree has exactly 3 extents (sorted, disjoint, non-adjacent, count > 0) in every red-black shape of that size; wcursor/rcursor NULL or any node, rcursor_next NULL or the successor of rcursor (any node if rcursor is NULL)", "allocation does not fail: ext2fs.h is compiled with its own hook EXT2_CUSTOM_MEMORY_ROUTINES and ext2fs_get_mem/ext2fs_free_mem are the trivial malloc/free stubs of rb_common.h (typed pointer store instead of memcpy); malloc is __CPROVER_allocate, i.e. never NULL (rb_get_new_extent abort()s on failure anyway)", "BOUNDED: bitmap->real_end - bitmap->start < 2^16 (offsets are 64-bit in the code and in the harness; the cap only narrows the values, chosen because the SAT proof of the ordering lemmas is the bottleneck)", "any node of the tree is erased; cursors are not involved"],
  "backend": "minisat",
  "no_cross_check": true,
  "native": true,
- "cbmc_flags": [
-  "--object-bits",
-  "10"
- ],
- "unwindset": {
-  "ext2fs_rb_erase.0": 2,
-  "__rb_erase_color.0": 2
- },
+ "cbmc_flags": ["--object-bits", "10"],
+ "unwindset": {"ext2fs_rb_erase.0": 2, "__rb_erase_color.0": 2},
  "timeout": 1200
 }
 */
 /* VERIF-UNIT
 {
  "name": "rbtree_insert_b3",
- "props": [
-  "C16"
- ],
+ "props": ["C16"],
  "level": "B(3)",
  "tier": "thorough",
  "harness": "h_rbtree_insert",
- "defines": [
-  "EXT2_CUSTOM_MEMORY_ROUTINES",
-  "RB_N=3",
-  "RB_NEW=1",
-  "RB_BITS=16"
- ],
+ "defines": ["EXT2_CUSTOM_MEMORY_ROUTINES", "RB_N=3", "RB_NEW=1", "RB_BITS=16"],
  "unwind": 9,
  "unwind_reason": "BOUNDED: a tree of at most 4 nodes has height <= 3, so every descent / successor / predecessor loop of blkmap64_rb.c and rbtree.c runs at most that often (+1 for the exit test), the neighbour loops at most once per node; rebalancing loops climb at most one level per round; harness loops have constant bounds <= 8 (global unwind 9). Every bound is confirmed by an unwinding assertion.",
- "sources": [
-  "lib/ext2fs/rbtree.c"
- ],
- "functions": [
-  "lib/ext2fs/rbtree.c:ext2fs_rb_insert_color",
-  "lib/ext2fs/rbtree.c:__rb_rotate_left",
-  "lib/ext2fs/rbtree.c:__rb_rotate_right",
-  "lib/ext2fs/rbtree.h:ext2fs_rb_link_node"
- ],
- "assumes": [
-  "BOUNDED stand-in, not counted as proved: the tree has exactly 3 extents (sorted, disjoint, non-adjacent, count > 0) in every red-black shape of that size; wcursor/rcursor NULL or any node, rcursor_next NULL or the successor of rcursor (any node if rcursor is NULL)",
-  "allocation does not fail: ext2fs.h is compiled with its own hook EXT2_CUSTOM_MEMORY_ROUTINES and ext2fs_get_mem/ext2fs_free_mem are the trivial malloc/free stubs of rb_common.h (typed pointer store instead of memcpy); malloc is __CPROVER_allocate, i.e. never NULL (rb_get_new_extent abort()s on failure anyway)",
-  "BOUNDED: bitmap->real_end - bitmap->start < 2^16 (offsets are 64-bit in the code and in the harness; the cap only narrows the values, chosen because the SAT proof of the ordering lemmas is the bottleneck)",
-  "the new node is linked by an ordinary binary-search-tree descent at any key position not touching an existing extent"
- ],
+ "sources": ["lib/ext2fs/rbtree.c"],
+ "functions": ["lib/ext2fs/rbtree.c:ext2fs_rb_insert_color", "lib/ext2fs/rbtree.c:__rb_rotate_left", "lib/ext2fs/rbtree.c:__rb_rotate_right", "lib/ext2fs/rbtree.h:ext2fs_rb_link_node"],
+ "assumes": ["BOUNDED stand-in, not counted as proved: the tree has exactly 3 extents (sorted, disjoint, non-adjacent, count > 0) in every red-black shape of that size; wcursor/rcursor NULL or any node, rcursor_next NULL or the successor of rcursor (any node if rcursor is NULL)", "allocation does not fail: ext2fs.h is compiled with its own hook EXT2_CUSTOM_MEMORY_ROUTINES and ext2fs_get_mem/ext2fs_free_mem are the trivial malloc/free stubs of rb_common.h (typed pointer store instead of memcpy); malloc is __CPROVER_allocate, i.e. never NULL (rb_get_new_extent abort()s on failure anyway)", "BOUNDED: bitmap->real_end - bitmap->start < 2^16 (offsets are 64-bit in the code and in the harness; the cap only narrows the values, chosen because the SAT proof of the ordering lemmas is the bottleneck)", "the new node is linked by an ordinary binary-search-tree descent at any key position not touching an existing extent"],
  "backend": "minisat",
  "no_cross_check": true,
  "native": true,
- "cbmc_flags": [
-  "--object-bits",
-  "10"
- ],
- "unwindset": {
-  "ext2fs_rb_insert_color.0": 2
- },
+ "cbmc_flags": ["--object-bits", "10"],
+ "unwindset": {"ext2fs_rb_insert_color.0": 2},
  "timeout": 1200
 }
 */
 /* VERIF-UNIT
 {
  "name": "rbtree_erase_b4",
- "props": [
-  "C16"
- ],
+ "props": ["C16"],
  "level": "B(4)",
  "tier": "thorough",
  "harness": "h_rbtree_erase",
- "defines": [
-  "EXT2_CUSTOM_MEMORY_ROUTINES",
-  "RB_N=4",
-  "RB_NEW=0",
-  "RB_BITS=16"
- ],
+ "defines": ["EXT2_CUSTOM_MEMORY_ROUTINES", "RB_N=4", "RB_NEW=0", "RB_BITS=16"],
  "unwind": 9,
  "unwind_reason": "BOUNDED: a tree of at most 4 nodes has height <= 3, so every descent / successor / predecessor loop of blkmap64_rb.c and rbtree.c runs at most that often (+1 for the exit test), the neighbour loops at most once per node; rebalancing loops climb at most one level per round; harness loops have constant bounds <= 8 (global unwind 9). Every bound is confirmed by an unwinding assertion.",
- "sources": [
-  "lib/ext2fs/rbtree.c"
- ],
- "functions": [
-  "lib/ext2fs/rbtree.c:ext2fs_rb_erase",
-  "lib/ext2fs/rbtree.c:__rb_erase_color",
-  "lib/ext2fs/rbtree.c:__rb_rotate_left",
-  "lib/ext2fs/rbtree.c:__rb_rotate_right"
- ],
- "assumes": [
-  "BOUNDED stand-in, not counted as proved: the tree has exactly 4 extents (sorted, disjoint, non-adjacent, count > 0) in every red-black shape of that size; wcursor/rcursor NULL or any node, rcursor_next NULL or the successor of rcursor (any node if rcursor is NULL)",
-  "allocation does not fail: ext2fs.h is compiled with its own hook EXT2_CUSTOM_MEMORY_ROUTINES and ext2fs_get_mem/ext2fs_free_mem are the trivial malloc/free stubs of rb_common.h (typed pointer store instead of memcpy); malloc is __CPROVER_allocate, i.e. never NULL (rb_get_new_extent abort()s on failure anyway)",
-  "BOUNDED: bitmap->real_end - bitmap->start < 2^16 (offsets are 64-bit in the code and in the harness; the cap only narrows the values, chosen because the SAT proof of the ordering lemmas is the bottleneck)",
-  "any node of the tree is erased; cursors are not involved"
- ],
+ "sources": ["lib/ext2fs/rbtree.c"],
+ "functions": ["lib/ext2fs/rbtree.c:ext2fs_rb_erase", "lib/ext2fs/rbtree.c:__rb_erase_color", "lib/ext2fs/rbtree.c:__rb_rotate_left", "lib/ext2fs/rbtree.c:__rb_rotate_right"],
+ "assumes": ["BOUNDED stand-in, not counted as proved: the tree has exactly 4 extents (sorted, disjoint, non-adjacent, count > 0) in every red-black shape of that size; wcursor/rcursor NULL or any node, rcursor_next NULL or the successor of rcursor (any node if rcursor is NULL)", "allocation does not fail: ext2fs.h is compiled with its own hook EXT2_CUSTOM_MEMORY_ROUTINES and ext2fs_get_mem/ext2fs_free_mem are the trivial malloc/free stubs of rb_common.h (typed pointer store instead of memcpy); malloc is __CPROVER_allocate, i.e. never NULL (rb_get_new_extent abort()s on failure anyway)", "BOUNDED: bitmap->real_end - bitmap->start < 2^16 (offsets are 64-bit in the code and in the harness; the cap only narrows the values, chosen because the SAT proof of the ordering lemmas is the bottleneck)", "any node of the tree is erased; cursors are not involved"],
  "backend": "minisat",
  "no_cross_check": true,
  "native": true,
- "cbmc_flags": [
-  "--object-bits",
-  "10"
- ],
- "unwindset": {
-  "ext2fs_rb_erase.0": 2,
-  "__rb_erase_color.0": 2
- },
+ "cbmc_flags": ["--object-bits", "10"],
+ "unwindset": {"ext2fs_rb_erase.0": 2, "__rb_erase_color.0": 2},
  "timeout": 1200
 }
 */
 /* VERIF-UNIT
 {
  "name": "rbtree_insert_b4",
- "props": [
-  "C16"
- ],
+ "props": ["C16"],
  "level": "B(4)",
  "tier": "thorough",
  "harness": "h_rbtree_insert",
- "defines": [
-  "EXT2_CUSTOM_MEMORY_ROUTINES",
-  "RB_N=4",
-  "RB_NEW=1",
-  "RB_BITS=16"
- ],
+ "defines": ["EXT2_CUSTOM_MEMORY_ROUTINES", "RB_N=4", "RB_NEW=1", "RB_BITS=16"],
  "unwind": 9,
  "unwind_reason": "BOUNDED: a tree of at most 5 nodes has height <= 3, so every descent / successor / predecessor loop of blkmap64_rb.c and rbtree.c runs at most that often (+1 for the exit test), the neighbour loops at most once per node; rebalancing loops climb at most one level per round; harness loops have constant bounds <= 8 (global unwind 9). Every bound is confirmed by an unwinding assertion.",
- "sources": [
-  "lib/ext2fs/rbtree.c"
- ],
- "functions": [
-  "lib/ext2fs/rbtree.c:ext2fs_rb_insert_color",
-  "lib/ext2fs/rbtree.c:__rb_rotate_left",
-  "lib/ext2fs/rbtree.c:__rb_rotate_right",
-  "lib/ext2fs/rbtree.h:ext2fs_rb_link_node"
- ],
- "assumes": [
-  "BOUNDED stand-in, not counted as proved: the tree has exactly 4 extents (sorted, disjoint, non-adjacent, count > 0) in every red-black shape of that size; wcursor/rcursor NULL or any node, rcursor_next NULL or the successor of rcursor (any node if rcursor is NULL)",
-  "allocation does not fail: ext2fs.h is compiled with its own hook EXT2_CUSTOM_MEMORY_ROUTINES and ext2fs_get_mem/ext2fs_free_mem are the trivial malloc/free stubs of rb_common.h (typed pointer store instead of memcpy); malloc is __CPROVER_allocate, i.e. never NULL (rb_get_new_extent abort()s on failure anyway)",
-  "BOUNDED: bitmap->real_end - bitmap->start < 2^16 (offsets are 64-bit in the code and in the harness; the cap only narrows the values, chosen because the SAT proof of the ordering lemmas is the bottleneck)",
-  "the new node is linked by an ordinary binary-search-tree descent at any key position not touching an existing extent"
- ],
+ "sources": ["lib/ext2fs/rbtree.c"],
+ "functions": ["lib/ext2fs/rbtree.c:ext2fs_rb_insert_color", "lib/ext2fs/rbtree.c:__rb_rotate_left", "lib/ext2fs/rbtree.c:__rb_rotate_right", "lib/ext2fs/rbtree.h:ext2fs_rb_link_node"],
+ "assumes": ["BOUNDED stand-in, not counted as proved: the tree has exactly 4 extents (sorted, disjoint, non-adjacent, count > 0) in every red-black shape of that size; wcursor/rcursor NULL or any node, rcursor_next NULL or the successor of rcursor (any node if rcursor is NULL)", "allocation does not fail: ext2fs.h is compiled with its own hook EXT2_CUSTOM_MEMORY_ROUTINES and ext2fs_get_mem/ext2fs_free_mem are the trivial malloc/free stubs of rb_common.h (typed pointer store instead of memcpy); malloc is __CPROVER_allocate, i.e. never NULL (rb_get_new_extent abort()s on failure anyway)", "BOUNDED: bitmap->real_end - bitmap->start < 2^16 (offsets are 64-bit in the code and in the harness; the cap only narrows the values, chosen because the SAT proof of the ordering lemmas is the bottleneck)", "the new node is linked by an ordinary binary-search-tree descent at any key position not touching an existing extent"],
  "backend": "minisat",
  "no_cross_check": true,
  "native": true,
- "cbmc_flags": [
-  "--object-bits",
-  "10"
- ],
- "unwindset": {
-  "ext2fs_rb_insert_color.0": 2
- },
+ "cbmc_flags": ["--object-bits", "10"],
+ "unwindset": {"ext2fs_rb_insert_color.0": 2},
  "timeout": 1200
 }
 */
